@@ -405,6 +405,39 @@ procedure delmeta_top(vp) {
       return;
 }
 
+\* ---- retrieve_object(p): _find_object without any lock, then open the object ----
+procedure retrieve(vp)
+  variables vc = None, vrl = <<>>, va = FALSE, vb = FALSE, vx = FALSE; {
+ r1:  va := pref[vp] # None; ev := Ev(self, "stat", P("pidref", vp), NoPath, FN(va));
+      if (~va) { result[self] := "nopid"; goto r12; };
+ r2:  if (pref[vp] = None) { ev := Ev(self, "read", P("pidref", vp), NoPath, "!fnf"); result[self] := "ioerror"; goto r12; }
+      else { vc := pref[vp]; ev := EvV(self, "read", P("pidref", vp), NoPath, "ok", <<vc>>); };
+ r3:  vb := cref[vc].has; ev := Ev(self, "stat", P("cidref", vc), NoPath, StatCid(vc));
+      if (~vb) { result[self] := "inconsistent"; goto r12; };
+ r4:  if (~cref[vc].has) { ev := Ev(self, "read", P("cidref", vc), NoPath, "!fnf"); result[self] := "ioerror"; goto r12; }
+      else { vrl := cref[vc].pids; ev := EvV(self, "read", P("cidref", vc), NoPath, "ok", vrl); };
+ r5:  if (~InSeq(vp, vrl)) { result[self] := "inconsistent"; goto r12; };
+ r6:  vx := obj[vc] = "ok"; ev := Ev(self, "stat", P("obj", vc), NoPath, FN(vx));
+      if (~vx) {
+ r6b:   ev := Ev(self, "stat", P("obj", vc), NoPath, FN(obj[vc] = "ok"));
+        result[self] := "inconsistent"; goto r12;
+      };
+ r7:  vx := obj[vc] = "ok"; ev := Ev(self, "stat", P("obj", vc), NoPath, FN(vx));
+      if (~vx) {
+ r7b:   ev := Ev(self, "stat", P("obj", vc), NoPath, FN(obj[vc] = "ok"));
+        result[self] := "ioerror"; goto r12;
+      };
+ r8:  ev := Ev(self, "stat", P("doc", vp \o "/" \o DefaultNs), NoPath, FN(doc[vp][DefaultNs] # None));
+ r9:  vx := obj[vc] = "ok"; ev := Ev(self, "stat", P("obj", vc), NoPath, FN(vx));
+      if (~vx) {
+ r9b:   ev := Ev(self, "stat", P("obj", vc), NoPath, FN(obj[vc] = "ok"));
+        result[self] := "ioerror"; goto r12;
+      };
+ r10: if (obj[vc] # "ok") { ev := Ev(self, "read", P("obj", vc), NoPath, "!fnf"); result[self] := "ioerror"; }
+      else { ev := EvV(self, "read", P("obj", vc), NoPath, "ok", <<vc>>); result[self] := "ok"; rdata[self] := vc; };
+ r12: return;
+}
+
 fair process (proc \in Thread) {
  run: if (Job[self].op = "store") { call store(Job[self].pid, Job[self].c); }
       else if (Job[self].op = "storenp") { call store("-", Job[self].c); }
@@ -413,6 +446,7 @@ fair process (proc \in Thread) {
       else if (Job[self].op = "dii") {
         if (Job[self].val = "good") { result[self] := "ok"; } else { call diibad(Job[self].c); };
       }
+      else if (Job[self].op = "retrieve") { call retrieve(Job[self].pid); }
       else if (Job[self].op = "putmeta") { call putmeta(Job[self].pid, EffFmt(Job[self].fmt), Job[self].ver); }
       else if (Job[self].op = "getmeta") { call getmeta(Job[self].pid, EffFmt(Job[self].fmt)); }
       else if (Job[self].op = "delmeta") {
@@ -422,7 +456,7 @@ fair process (proc \in Thread) {
  fin: skip;
 }
 } *)
-\* BEGIN TRANSLATION (chksum(pcal) = "9ff04df0" /\ chksum(tla) = "4b0dc832")
+\* BEGIN TRANSLATION (chksum(pcal) = "b3b312d" /\ chksum(tla) = "3567c87a")
 \* Procedure variable va of procedure tag at line 97 col 13 changed to va_
 \* Procedure variable vb of procedure tag at line 97 col 25 changed to vb_
 \* Procedure variable vrl of procedure tag at line 97 col 77 changed to vrl_
@@ -430,9 +464,14 @@ fair process (proc \in Thread) {
 \* Procedure variable vb of procedure diibad at line 193 col 13 changed to vb_d
 \* Procedure variable vx of procedure diibad at line 193 col 25 changed to vx_d
 \* Procedure variable vc of procedure delete at line 213 col 13 changed to vc_
+\* Procedure variable vrl of procedure delete at line 213 col 36 changed to vrl_d
+\* Procedure variable va of procedure delete at line 213 col 48 changed to va_d
+\* Procedure variable vb of procedure delete at line 213 col 60 changed to vb_de
 \* Procedure variable vx of procedure delete at line 213 col 72 changed to vx_de
 \* Procedure variable vf of procedure delete at line 214 col 25 changed to vf_
 \* Procedure variable vx of procedure getmeta at line 376 col 13 changed to vx_g
+\* Procedure variable vx of procedure delmeta_one at line 389 col 13 changed to vx_del
+\* Procedure variable vc of procedure retrieve at line 410 col 13 changed to vc_r
 \* Parameter vtb of procedure claim at line 65 col 17 changed to vtb_
 \* Parameter vid of procedure claim at line 65 col 22 changed to vid_
 \* Parameter vp of procedure tag at line 96 col 15 changed to vp_
@@ -446,6 +485,7 @@ fair process (proc \in Thread) {
 \* Parameter vp of procedure getmeta at line 375 col 19 changed to vp_g
 \* Parameter vf of procedure getmeta at line 375 col 23 changed to vf_g
 \* Parameter vp of procedure delmeta_one at line 388 col 23 changed to vp_del
+\* Parameter vp of procedure delmeta_top at line 402 col 23 changed to vp_delm
 CONSTANT defaultInitValue
 VARIABLES pc, obj, pref, cref, doc, mark, keep, locked, waitq, woken, ev, 
           result, rdata, stack
@@ -463,16 +503,17 @@ Abs         == [obj |-> obj, pref |-> pref, cref |-> cref, doc |-> doc,
                 junk |-> Cardinality(mark)]
 
 VARIABLES vtb_, vid_, vtb, vid, vp_, vc_t, va_, vb_, vout, vmade, vrp, vrl_, 
-          vp_s, vc_s, vx_, vc, vb_d, vx_d, vp_d, vc_, vcls, vrl, va, vb, 
-          vx_de, vdels, vdocs, vf_, vp_de, vtodo, vkeepl, vmarked, ve, vp_p, 
-          vf_p, vver, vp_g, vf_g, vx_g, vp_del, vf, vx, vp
+          vp_s, vc_s, vx_, vc, vb_d, vx_d, vp_d, vc_, vcls, vrl_d, va_d, 
+          vb_de, vx_de, vdels, vdocs, vf_, vp_de, vtodo, vkeepl, vmarked, ve, 
+          vp_p, vf_p, vver, vp_g, vf_g, vx_g, vp_del, vf, vx_del, vp_delm, vp, 
+          vc_r, vrl, va, vb, vx
 
 vars == << pc, obj, pref, cref, doc, mark, keep, locked, waitq, woken, ev, 
            result, rdata, stack, vtb_, vid_, vtb, vid, vp_, vc_t, va_, vb_, 
            vout, vmade, vrp, vrl_, vp_s, vc_s, vx_, vc, vb_d, vx_d, vp_d, vc_, 
-           vcls, vrl, va, vb, vx_de, vdels, vdocs, vf_, vp_de, vtodo, vkeepl, 
-           vmarked, ve, vp_p, vf_p, vver, vp_g, vf_g, vx_g, vp_del, vf, vx, 
-           vp >>
+           vcls, vrl_d, va_d, vb_de, vx_de, vdels, vdocs, vf_, vp_de, vtodo, 
+           vkeepl, vmarked, ve, vp_p, vf_p, vver, vp_g, vf_g, vx_g, vp_del, 
+           vf, vx_del, vp_delm, vp, vc_r, vrl, va, vb, vx >>
 
 ProcSet == (Thread)
 
@@ -516,9 +557,9 @@ Init == (* Global variables *)
         /\ vp_d = [ self \in ProcSet |-> defaultInitValue]
         /\ vc_ = [ self \in ProcSet |-> None]
         /\ vcls = [ self \in ProcSet |-> "-"]
-        /\ vrl = [ self \in ProcSet |-> <<>>]
-        /\ va = [ self \in ProcSet |-> FALSE]
-        /\ vb = [ self \in ProcSet |-> FALSE]
+        /\ vrl_d = [ self \in ProcSet |-> <<>>]
+        /\ va_d = [ self \in ProcSet |-> FALSE]
+        /\ vb_de = [ self \in ProcSet |-> FALSE]
         /\ vx_de = [ self \in ProcSet |-> FALSE]
         /\ vdels = [ self \in ProcSet |-> {}]
         /\ vdocs = [ self \in ProcSet |-> {}]
@@ -540,9 +581,16 @@ Init == (* Global variables *)
         (* Procedure delmeta_one *)
         /\ vp_del = [ self \in ProcSet |-> defaultInitValue]
         /\ vf = [ self \in ProcSet |-> defaultInitValue]
-        /\ vx = [ self \in ProcSet |-> FALSE]
+        /\ vx_del = [ self \in ProcSet |-> FALSE]
         (* Procedure delmeta_top *)
+        /\ vp_delm = [ self \in ProcSet |-> defaultInitValue]
+        (* Procedure retrieve *)
         /\ vp = [ self \in ProcSet |-> defaultInitValue]
+        /\ vc_r = [ self \in ProcSet |-> None]
+        /\ vrl = [ self \in ProcSet |-> <<>>]
+        /\ va = [ self \in ProcSet |-> FALSE]
+        /\ vb = [ self \in ProcSet |-> FALSE]
+        /\ vx = [ self \in ProcSet |-> FALSE]
         /\ stack = [self \in ProcSet |-> << >>]
         /\ pc = [self \in ProcSet |-> "run"]
 
@@ -559,10 +607,11 @@ cl1(self) == /\ pc[self] = "cl1"
              /\ UNCHANGED << obj, pref, cref, doc, mark, keep, woken, result, 
                              rdata, stack, vtb_, vid_, vtb, vid, vp_, vc_t, 
                              va_, vb_, vout, vmade, vrp, vrl_, vp_s, vc_s, vx_, 
-                             vc, vb_d, vx_d, vp_d, vc_, vcls, vrl, va, vb, 
-                             vx_de, vdels, vdocs, vf_, vp_de, vtodo, vkeepl, 
-                             vmarked, ve, vp_p, vf_p, vver, vp_g, vf_g, vx_g, 
-                             vp_del, vf, vx, vp >>
+                             vc, vb_d, vx_d, vp_d, vc_, vcls, vrl_d, va_d, 
+                             vb_de, vx_de, vdels, vdocs, vf_, vp_de, vtodo, 
+                             vkeepl, vmarked, ve, vp_p, vf_p, vver, vp_g, vf_g, 
+                             vx_g, vp_del, vf, vx_del, vp_delm, vp, vc_r, vrl, 
+                             va, vb, vx >>
 
 cl2(self) == /\ pc[self] = "cl2"
              /\ self \in woken
@@ -579,10 +628,10 @@ cl2(self) == /\ pc[self] = "cl2"
              /\ UNCHANGED << obj, pref, cref, doc, mark, keep, result, rdata, 
                              stack, vtb_, vid_, vtb, vid, vp_, vc_t, va_, vb_, 
                              vout, vmade, vrp, vrl_, vp_s, vc_s, vx_, vc, vb_d, 
-                             vx_d, vp_d, vc_, vcls, vrl, va, vb, vx_de, vdels, 
-                             vdocs, vf_, vp_de, vtodo, vkeepl, vmarked, ve, 
-                             vp_p, vf_p, vver, vp_g, vf_g, vx_g, vp_del, vf, 
-                             vx, vp >>
+                             vx_d, vp_d, vc_, vcls, vrl_d, va_d, vb_de, vx_de, 
+                             vdels, vdocs, vf_, vp_de, vtodo, vkeepl, vmarked, 
+                             ve, vp_p, vf_p, vver, vp_g, vf_g, vx_g, vp_del, 
+                             vf, vx_del, vp_delm, vp, vc_r, vrl, va, vb, vx >>
 
 cl3(self) == /\ pc[self] = "cl3"
              /\ pc' = [pc EXCEPT ![self] = Head(stack[self]).pc]
@@ -592,10 +641,11 @@ cl3(self) == /\ pc[self] = "cl3"
              /\ UNCHANGED << obj, pref, cref, doc, mark, keep, locked, waitq, 
                              woken, ev, result, rdata, vtb, vid, vp_, vc_t, 
                              va_, vb_, vout, vmade, vrp, vrl_, vp_s, vc_s, vx_, 
-                             vc, vb_d, vx_d, vp_d, vc_, vcls, vrl, va, vb, 
-                             vx_de, vdels, vdocs, vf_, vp_de, vtodo, vkeepl, 
-                             vmarked, ve, vp_p, vf_p, vver, vp_g, vf_g, vx_g, 
-                             vp_del, vf, vx, vp >>
+                             vc, vb_d, vx_d, vp_d, vc_, vcls, vrl_d, va_d, 
+                             vb_de, vx_de, vdels, vdocs, vf_, vp_de, vtodo, 
+                             vkeepl, vmarked, ve, vp_p, vf_p, vver, vp_g, vf_g, 
+                             vx_g, vp_del, vf, vx_del, vp_delm, vp, vc_r, vrl, 
+                             va, vb, vx >>
 
 claim(self) == cl1(self) \/ cl2(self) \/ cl3(self)
 
@@ -614,9 +664,10 @@ rl1(self) == /\ pc[self] = "rl1"
              /\ UNCHANGED << obj, pref, cref, doc, mark, keep, result, rdata, 
                              vtb_, vid_, vp_, vc_t, va_, vb_, vout, vmade, vrp, 
                              vrl_, vp_s, vc_s, vx_, vc, vb_d, vx_d, vp_d, vc_, 
-                             vcls, vrl, va, vb, vx_de, vdels, vdocs, vf_, 
-                             vp_de, vtodo, vkeepl, vmarked, ve, vp_p, vf_p, 
-                             vver, vp_g, vf_g, vx_g, vp_del, vf, vx, vp >>
+                             vcls, vrl_d, va_d, vb_de, vx_de, vdels, vdocs, 
+                             vf_, vp_de, vtodo, vkeepl, vmarked, ve, vp_p, 
+                             vf_p, vver, vp_g, vf_g, vx_g, vp_del, vf, vx_del, 
+                             vp_delm, vp, vc_r, vrl, va, vb, vx >>
 
 release(self) == rl1(self)
 
@@ -632,10 +683,11 @@ tg1(self) == /\ pc[self] = "tg1"
              /\ UNCHANGED << obj, pref, cref, doc, mark, keep, locked, waitq, 
                              woken, ev, result, rdata, vtb, vid, vp_, vc_t, 
                              va_, vb_, vout, vmade, vrp, vrl_, vp_s, vc_s, vx_, 
-                             vc, vb_d, vx_d, vp_d, vc_, vcls, vrl, va, vb, 
-                             vx_de, vdels, vdocs, vf_, vp_de, vtodo, vkeepl, 
-                             vmarked, ve, vp_p, vf_p, vver, vp_g, vf_g, vx_g, 
-                             vp_del, vf, vx, vp >>
+                             vc, vb_d, vx_d, vp_d, vc_, vcls, vrl_d, va_d, 
+                             vb_de, vx_de, vdels, vdocs, vf_, vp_de, vtodo, 
+                             vkeepl, vmarked, ve, vp_p, vf_p, vver, vp_g, vf_g, 
+                             vx_g, vp_del, vf, vx_del, vp_delm, vp, vc_r, vrl, 
+                             va, vb, vx >>
 
 tg2(self) == /\ pc[self] = "tg2"
              /\ /\ stack' = [stack EXCEPT ![self] = << [ procedure |->  "claim",
@@ -649,10 +701,11 @@ tg2(self) == /\ pc[self] = "tg2"
              /\ UNCHANGED << obj, pref, cref, doc, mark, keep, locked, waitq, 
                              woken, ev, result, rdata, vtb, vid, vp_, vc_t, 
                              va_, vb_, vout, vmade, vrp, vrl_, vp_s, vc_s, vx_, 
-                             vc, vb_d, vx_d, vp_d, vc_, vcls, vrl, va, vb, 
-                             vx_de, vdels, vdocs, vf_, vp_de, vtodo, vkeepl, 
-                             vmarked, ve, vp_p, vf_p, vver, vp_g, vf_g, vx_g, 
-                             vp_del, vf, vx, vp >>
+                             vc, vb_d, vx_d, vp_d, vc_, vcls, vrl_d, va_d, 
+                             vb_de, vx_de, vdels, vdocs, vf_, vp_de, vtodo, 
+                             vkeepl, vmarked, ve, vp_p, vf_p, vver, vp_g, vf_g, 
+                             vx_g, vp_del, vf, vx_del, vp_delm, vp, vc_r, vrl, 
+                             va, vb, vx >>
 
 e1a(self) == /\ pc[self] = "e1a"
              /\ va_' = [va_ EXCEPT ![self] = pref[vp_[self]] # None]
@@ -663,10 +716,11 @@ e1a(self) == /\ pc[self] = "e1a"
              /\ UNCHANGED << obj, pref, cref, doc, mark, keep, locked, waitq, 
                              woken, result, rdata, stack, vtb_, vid_, vtb, vid, 
                              vp_, vc_t, vb_, vout, vmade, vrp, vrl_, vp_s, 
-                             vc_s, vx_, vc, vb_d, vx_d, vp_d, vc_, vcls, vrl, 
-                             va, vb, vx_de, vdels, vdocs, vf_, vp_de, vtodo, 
-                             vkeepl, vmarked, ve, vp_p, vf_p, vver, vp_g, vf_g, 
-                             vx_g, vp_del, vf, vx, vp >>
+                             vc_s, vx_, vc, vb_d, vx_d, vp_d, vc_, vcls, vrl_d, 
+                             va_d, vb_de, vx_de, vdels, vdocs, vf_, vp_de, 
+                             vtodo, vkeepl, vmarked, ve, vp_p, vf_p, vver, 
+                             vp_g, vf_g, vx_g, vp_del, vf, vx_del, vp_delm, vp, 
+                             vc_r, vrl, va, vb, vx >>
 
 e1b(self) == /\ pc[self] = "e1b"
              /\ vb_' = [vb_ EXCEPT ![self] = cref[vc_t[self]].has]
@@ -677,10 +731,11 @@ e1b(self) == /\ pc[self] = "e1b"
              /\ UNCHANGED << obj, pref, cref, doc, mark, keep, locked, waitq, 
                              woken, result, rdata, stack, vtb_, vid_, vtb, vid, 
                              vp_, vc_t, va_, vout, vmade, vrp, vrl_, vp_s, 
-                             vc_s, vx_, vc, vb_d, vx_d, vp_d, vc_, vcls, vrl, 
-                             va, vb, vx_de, vdels, vdocs, vf_, vp_de, vtodo, 
-                             vkeepl, vmarked, ve, vp_p, vf_p, vver, vp_g, vf_g, 
-                             vx_g, vp_del, vf, vx, vp >>
+                             vc_s, vx_, vc, vb_d, vx_d, vp_d, vc_, vcls, vrl_d, 
+                             va_d, vb_de, vx_de, vdels, vdocs, vf_, vp_de, 
+                             vtodo, vkeepl, vmarked, ve, vp_p, vf_p, vver, 
+                             vp_g, vf_g, vx_g, vp_del, vf, vx_del, vp_delm, vp, 
+                             vc_r, vrl, va, vb, vx >>
 
 e2a(self) == /\ pc[self] = "e2a"
              /\ va_' = [va_ EXCEPT ![self] = pref[vp_[self]] # None]
@@ -691,10 +746,11 @@ e2a(self) == /\ pc[self] = "e2a"
              /\ UNCHANGED << obj, pref, cref, doc, mark, keep, locked, waitq, 
                              woken, result, rdata, stack, vtb_, vid_, vtb, vid, 
                              vp_, vc_t, vb_, vout, vmade, vrp, vrl_, vp_s, 
-                             vc_s, vx_, vc, vb_d, vx_d, vp_d, vc_, vcls, vrl, 
-                             va, vb, vx_de, vdels, vdocs, vf_, vp_de, vtodo, 
-                             vkeepl, vmarked, ve, vp_p, vf_p, vver, vp_g, vf_g, 
-                             vx_g, vp_del, vf, vx, vp >>
+                             vc_s, vx_, vc, vb_d, vx_d, vp_d, vc_, vcls, vrl_d, 
+                             va_d, vb_de, vx_de, vdels, vdocs, vf_, vp_de, 
+                             vtodo, vkeepl, vmarked, ve, vp_p, vf_p, vver, 
+                             vp_g, vf_g, vx_g, vp_del, vf, vx_del, vp_delm, vp, 
+                             vc_r, vrl, va, vb, vx >>
 
 e2b(self) == /\ pc[self] = "e2b"
              /\ vb_' = [vb_ EXCEPT ![self] = cref[vc_t[self]].has]
@@ -707,10 +763,11 @@ e2b(self) == /\ pc[self] = "e2b"
              /\ UNCHANGED << obj, pref, cref, doc, mark, keep, locked, waitq, 
                              woken, result, rdata, stack, vtb_, vid_, vtb, vid, 
                              vp_, vc_t, va_, vmade, vrp, vrl_, vp_s, vc_s, vx_, 
-                             vc, vb_d, vx_d, vp_d, vc_, vcls, vrl, va, vb, 
-                             vx_de, vdels, vdocs, vf_, vp_de, vtodo, vkeepl, 
-                             vmarked, ve, vp_p, vf_p, vver, vp_g, vf_g, vx_g, 
-                             vp_del, vf, vx, vp >>
+                             vc, vb_d, vx_d, vp_d, vc_, vcls, vrl_d, va_d, 
+                             vb_de, vx_de, vdels, vdocs, vf_, vp_de, vtodo, 
+                             vkeepl, vmarked, ve, vp_p, vf_p, vver, vp_g, vf_g, 
+                             vx_g, vp_del, vf, vx_del, vp_delm, vp, vc_r, vrl, 
+                             va, vb, vx >>
 
 e3a(self) == /\ pc[self] = "e3a"
              /\ va_' = [va_ EXCEPT ![self] = pref[vp_[self]] # None]
@@ -721,10 +778,11 @@ e3a(self) == /\ pc[self] = "e3a"
              /\ UNCHANGED << obj, pref, cref, doc, mark, keep, locked, waitq, 
                              woken, result, rdata, stack, vtb_, vid_, vtb, vid, 
                              vp_, vc_t, vb_, vout, vmade, vrp, vrl_, vp_s, 
-                             vc_s, vx_, vc, vb_d, vx_d, vp_d, vc_, vcls, vrl, 
-                             va, vb, vx_de, vdels, vdocs, vf_, vp_de, vtodo, 
-                             vkeepl, vmarked, ve, vp_p, vf_p, vver, vp_g, vf_g, 
-                             vx_g, vp_del, vf, vx, vp >>
+                             vc_s, vx_, vc, vb_d, vx_d, vp_d, vc_, vcls, vrl_d, 
+                             va_d, vb_de, vx_de, vdels, vdocs, vf_, vp_de, 
+                             vtodo, vkeepl, vmarked, ve, vp_p, vf_p, vver, 
+                             vp_g, vf_g, vx_g, vp_del, vf, vx_del, vp_delm, vp, 
+                             vc_r, vrl, va, vb, vx >>
 
 e3b(self) == /\ pc[self] = "e3b"
              /\ vb_' = [vb_ EXCEPT ![self] = cref[vc_t[self]].has]
@@ -735,10 +793,11 @@ e3b(self) == /\ pc[self] = "e3b"
              /\ UNCHANGED << obj, pref, cref, doc, mark, keep, locked, waitq, 
                              woken, result, rdata, stack, vtb_, vid_, vtb, vid, 
                              vp_, vc_t, va_, vout, vmade, vrp, vrl_, vp_s, 
-                             vc_s, vx_, vc, vb_d, vx_d, vp_d, vc_, vcls, vrl, 
-                             va, vb, vx_de, vdels, vdocs, vf_, vp_de, vtodo, 
-                             vkeepl, vmarked, ve, vp_p, vf_p, vver, vp_g, vf_g, 
-                             vx_g, vp_del, vf, vx, vp >>
+                             vc_s, vx_, vc, vb_d, vx_d, vp_d, vc_, vcls, vrl_d, 
+                             va_d, vb_de, vx_de, vdels, vdocs, vf_, vp_de, 
+                             vtodo, vkeepl, vmarked, ve, vp_p, vf_p, vver, 
+                             vp_g, vf_g, vx_g, vp_del, vf, vx_del, vp_delm, vp, 
+                             vc_r, vrl, va, vb, vx >>
 
 n1(self) == /\ pc[self] = "n1"
             /\ vmade' = [vmade EXCEPT ![self] = TRUE]
@@ -747,10 +806,11 @@ n1(self) == /\ pc[self] = "n1"
             /\ UNCHANGED << obj, pref, cref, doc, mark, keep, locked, waitq, 
                             woken, result, rdata, stack, vtb_, vid_, vtb, vid, 
                             vp_, vc_t, va_, vb_, vout, vrp, vrl_, vp_s, vc_s, 
-                            vx_, vc, vb_d, vx_d, vp_d, vc_, vcls, vrl, va, vb, 
-                            vx_de, vdels, vdocs, vf_, vp_de, vtodo, vkeepl, 
-                            vmarked, ve, vp_p, vf_p, vver, vp_g, vf_g, vx_g, 
-                            vp_del, vf, vx, vp >>
+                            vx_, vc, vb_d, vx_d, vp_d, vc_, vcls, vrl_d, va_d, 
+                            vb_de, vx_de, vdels, vdocs, vf_, vp_de, vtodo, 
+                            vkeepl, vmarked, ve, vp_p, vf_p, vver, vp_g, vf_g, 
+                            vx_g, vp_del, vf, vx_del, vp_delm, vp, vc_r, vrl, 
+                            va, vb, vx >>
 
 n2(self) == /\ pc[self] = "n2"
             /\ pref' = [pref EXCEPT ![vp_[self]] = vc_t[self]]
@@ -759,10 +819,11 @@ n2(self) == /\ pc[self] = "n2"
             /\ UNCHANGED << obj, cref, doc, mark, keep, locked, waitq, woken, 
                             result, rdata, stack, vtb_, vid_, vtb, vid, vp_, 
                             vc_t, va_, vb_, vout, vmade, vrp, vrl_, vp_s, vc_s, 
-                            vx_, vc, vb_d, vx_d, vp_d, vc_, vcls, vrl, va, vb, 
-                            vx_de, vdels, vdocs, vf_, vp_de, vtodo, vkeepl, 
-                            vmarked, ve, vp_p, vf_p, vver, vp_g, vf_g, vx_g, 
-                            vp_del, vf, vx, vp >>
+                            vx_, vc, vb_d, vx_d, vp_d, vc_, vcls, vrl_d, va_d, 
+                            vb_de, vx_de, vdels, vdocs, vf_, vp_de, vtodo, 
+                            vkeepl, vmarked, ve, vp_p, vf_p, vver, vp_g, vf_g, 
+                            vx_g, vp_del, vf, vx_del, vp_delm, vp, vc_r, vrl, 
+                            va, vb, vx >>
 
 n3(self) == /\ pc[self] = "n3"
             /\ ev' = Ev(self, "stat", P("cidref", vc_t[self]), NoPath, StatCid(vc_t[self]))
@@ -770,10 +831,11 @@ n3(self) == /\ pc[self] = "n3"
             /\ UNCHANGED << obj, pref, cref, doc, mark, keep, locked, waitq, 
                             woken, result, rdata, stack, vtb_, vid_, vtb, vid, 
                             vp_, vc_t, va_, vb_, vout, vmade, vrp, vrl_, vp_s, 
-                            vc_s, vx_, vc, vb_d, vx_d, vp_d, vc_, vcls, vrl, 
-                            va, vb, vx_de, vdels, vdocs, vf_, vp_de, vtodo, 
-                            vkeepl, vmarked, ve, vp_p, vf_p, vver, vp_g, vf_g, 
-                            vx_g, vp_del, vf, vx, vp >>
+                            vc_s, vx_, vc, vb_d, vx_d, vp_d, vc_, vcls, vrl_d, 
+                            va_d, vb_de, vx_de, vdels, vdocs, vf_, vp_de, 
+                            vtodo, vkeepl, vmarked, ve, vp_p, vf_p, vver, vp_g, 
+                            vf_g, vx_g, vp_del, vf, vx_del, vp_delm, vp, vc_r, 
+                            vrl, va, vb, vx >>
 
 n4(self) == /\ pc[self] = "n4"
             /\ cref' = [cref EXCEPT ![vc_t[self]] = List(<<vp_[self]>>)]
@@ -782,10 +844,11 @@ n4(self) == /\ pc[self] = "n4"
             /\ UNCHANGED << obj, pref, doc, mark, keep, locked, waitq, woken, 
                             result, rdata, stack, vtb_, vid_, vtb, vid, vp_, 
                             vc_t, va_, vb_, vout, vmade, vrp, vrl_, vp_s, vc_s, 
-                            vx_, vc, vb_d, vx_d, vp_d, vc_, vcls, vrl, va, vb, 
-                            vx_de, vdels, vdocs, vf_, vp_de, vtodo, vkeepl, 
-                            vmarked, ve, vp_p, vf_p, vver, vp_g, vf_g, vx_g, 
-                            vp_del, vf, vx, vp >>
+                            vx_, vc, vb_d, vx_d, vp_d, vc_, vcls, vrl_d, va_d, 
+                            vb_de, vx_de, vdels, vdocs, vf_, vp_de, vtodo, 
+                            vkeepl, vmarked, ve, vp_p, vf_p, vver, vp_g, vf_g, 
+                            vx_g, vp_del, vf, vx_del, vp_delm, vp, vc_r, vrl, 
+                            va, vb, vx >>
 
 cidonly(self) == /\ pc[self] = "cidonly"
                  /\ vmade' = [vmade EXCEPT ![self] = TRUE]
@@ -795,10 +858,11 @@ cidonly(self) == /\ pc[self] = "cidonly"
                                  waitq, woken, result, rdata, stack, vtb_, 
                                  vid_, vtb, vid, vp_, vc_t, va_, vb_, vout, 
                                  vrp, vrl_, vp_s, vc_s, vx_, vc, vb_d, vx_d, 
-                                 vp_d, vc_, vcls, vrl, va, vb, vx_de, vdels, 
-                                 vdocs, vf_, vp_de, vtodo, vkeepl, vmarked, ve, 
-                                 vp_p, vf_p, vver, vp_g, vf_g, vx_g, vp_del, 
-                                 vf, vx, vp >>
+                                 vp_d, vc_, vcls, vrl_d, va_d, vb_de, vx_de, 
+                                 vdels, vdocs, vf_, vp_de, vtodo, vkeepl, 
+                                 vmarked, ve, vp_p, vf_p, vver, vp_g, vf_g, 
+                                 vx_g, vp_del, vf, vx_del, vp_delm, vp, vc_r, 
+                                 vrl, va, vb, vx >>
 
 c2(self) == /\ pc[self] = "c2"
             /\ pref' = [pref EXCEPT ![vp_[self]] = vc_t[self]]
@@ -807,10 +871,11 @@ c2(self) == /\ pc[self] = "c2"
             /\ UNCHANGED << obj, cref, doc, mark, keep, locked, waitq, woken, 
                             result, rdata, stack, vtb_, vid_, vtb, vid, vp_, 
                             vc_t, va_, vb_, vout, vmade, vrp, vrl_, vp_s, vc_s, 
-                            vx_, vc, vb_d, vx_d, vp_d, vc_, vcls, vrl, va, vb, 
-                            vx_de, vdels, vdocs, vf_, vp_de, vtodo, vkeepl, 
-                            vmarked, ve, vp_p, vf_p, vver, vp_g, vf_g, vx_g, 
-                            vp_del, vf, vx, vp >>
+                            vx_, vc, vb_d, vx_d, vp_d, vc_, vcls, vrl_d, va_d, 
+                            vb_de, vx_de, vdels, vdocs, vf_, vp_de, vtodo, 
+                            vkeepl, vmarked, ve, vp_p, vf_p, vver, vp_g, vf_g, 
+                            vx_g, vp_del, vf, vx_del, vp_delm, vp, vc_r, vrl, 
+                            va, vb, vx >>
 
 c3(self) == /\ pc[self] = "c3"
             /\ IF ~cref[vc_t[self]].has
@@ -825,10 +890,11 @@ c3(self) == /\ pc[self] = "c3"
             /\ UNCHANGED << obj, pref, cref, doc, mark, keep, locked, waitq, 
                             woken, result, rdata, stack, vtb_, vid_, vtb, vid, 
                             vp_, vc_t, va_, vb_, vmade, vrp, vp_s, vc_s, vx_, 
-                            vc, vb_d, vx_d, vp_d, vc_, vcls, vrl, va, vb, 
-                            vx_de, vdels, vdocs, vf_, vp_de, vtodo, vkeepl, 
-                            vmarked, ve, vp_p, vf_p, vver, vp_g, vf_g, vx_g, 
-                            vp_del, vf, vx, vp >>
+                            vc, vb_d, vx_d, vp_d, vc_, vcls, vrl_d, va_d, 
+                            vb_de, vx_de, vdels, vdocs, vf_, vp_de, vtodo, 
+                            vkeepl, vmarked, ve, vp_p, vf_p, vver, vp_g, vf_g, 
+                            vx_g, vp_del, vf, vx_del, vp_delm, vp, vc_r, vrl, 
+                            va, vb, vx >>
 
 c4(self) == /\ pc[self] = "c4"
             /\ IF ~InSeq(vp_[self], vrl_[self])
@@ -844,10 +910,11 @@ c4(self) == /\ pc[self] = "c4"
             /\ UNCHANGED << obj, pref, cref, doc, mark, keep, locked, waitq, 
                             woken, result, rdata, stack, vtb_, vid_, vtb, vid, 
                             vp_, vc_t, va_, vmade, vrp, vrl_, vp_s, vc_s, vx_, 
-                            vc, vb_d, vx_d, vp_d, vc_, vcls, vrl, va, vb, 
-                            vx_de, vdels, vdocs, vf_, vp_de, vtodo, vkeepl, 
-                            vmarked, ve, vp_p, vf_p, vver, vp_g, vf_g, vx_g, 
-                            vp_del, vf, vx, vp >>
+                            vc, vb_d, vx_d, vp_d, vc_, vcls, vrl_d, va_d, 
+                            vb_de, vx_de, vdels, vdocs, vf_, vp_de, vtodo, 
+                            vkeepl, vmarked, ve, vp_p, vf_p, vver, vp_g, vf_g, 
+                            vx_g, vp_del, vf, vx_del, vp_delm, vp, vc_r, vrl, 
+                            va, vb, vx >>
 
 c5(self) == /\ pc[self] = "c5"
             /\ IF ~cref[vc_t[self]].has
@@ -862,10 +929,11 @@ c5(self) == /\ pc[self] = "c5"
             /\ UNCHANGED << obj, pref, cref, doc, mark, keep, locked, waitq, 
                             woken, result, rdata, stack, vtb_, vid_, vtb, vid, 
                             vp_, vc_t, va_, vb_, vmade, vrp, vp_s, vc_s, vx_, 
-                            vc, vb_d, vx_d, vp_d, vc_, vcls, vrl, va, vb, 
-                            vx_de, vdels, vdocs, vf_, vp_de, vtodo, vkeepl, 
-                            vmarked, ve, vp_p, vf_p, vver, vp_g, vf_g, vx_g, 
-                            vp_del, vf, vx, vp >>
+                            vc, vb_d, vx_d, vp_d, vc_, vcls, vrl_d, va_d, 
+                            vb_de, vx_de, vdels, vdocs, vf_, vp_de, vtodo, 
+                            vkeepl, vmarked, ve, vp_p, vf_p, vver, vp_g, vf_g, 
+                            vx_g, vp_del, vf, vx_del, vp_delm, vp, vc_r, vrl, 
+                            va, vb, vx >>
 
 c6(self) == /\ pc[self] = "c6"
             /\ IF ~InSeq(vp_[self], vrl_[self])
@@ -883,10 +951,11 @@ c6(self) == /\ pc[self] = "c6"
             /\ UNCHANGED << obj, pref, doc, mark, keep, locked, waitq, woken, 
                             result, rdata, stack, vtb_, vid_, vtb, vid, vp_, 
                             vc_t, va_, vb_, vmade, vrp, vrl_, vp_s, vc_s, vx_, 
-                            vc, vb_d, vx_d, vp_d, vc_, vcls, vrl, va, vb, 
-                            vx_de, vdels, vdocs, vf_, vp_de, vtodo, vkeepl, 
-                            vmarked, ve, vp_p, vf_p, vver, vp_g, vf_g, vx_g, 
-                            vp_del, vf, vx, vp >>
+                            vc, vb_d, vx_d, vp_d, vc_, vcls, vrl_d, va_d, 
+                            vb_de, vx_de, vdels, vdocs, vf_, vp_de, vtodo, 
+                            vkeepl, vmarked, ve, vp_p, vf_p, vver, vp_g, vf_g, 
+                            vx_g, vp_del, vf, vx_del, vp_delm, vp, vc_r, vrl, 
+                            va, vb, vx >>
 
 c7(self) == /\ pc[self] = "c7"
             /\ pc' = [pc EXCEPT ![self] = "verify"]
@@ -894,9 +963,10 @@ c7(self) == /\ pc[self] = "c7"
                             woken, ev, result, rdata, stack, vtb_, vid_, vtb, 
                             vid, vp_, vc_t, va_, vb_, vout, vmade, vrp, vrl_, 
                             vp_s, vc_s, vx_, vc, vb_d, vx_d, vp_d, vc_, vcls, 
-                            vrl, va, vb, vx_de, vdels, vdocs, vf_, vp_de, 
-                            vtodo, vkeepl, vmarked, ve, vp_p, vf_p, vver, vp_g, 
-                            vf_g, vx_g, vp_del, vf, vx, vp >>
+                            vrl_d, va_d, vb_de, vx_de, vdels, vdocs, vf_, 
+                            vp_de, vtodo, vkeepl, vmarked, ve, vp_p, vf_p, 
+                            vver, vp_g, vf_g, vx_g, vp_del, vf, vx_del, 
+                            vp_delm, vp, vc_r, vrl, va, vb, vx >>
 
 both(self) == /\ pc[self] = "both"
               /\ vout' = [vout EXCEPT ![self] = "exists"]
@@ -904,10 +974,11 @@ both(self) == /\ pc[self] = "both"
               /\ UNCHANGED << obj, pref, cref, doc, mark, keep, locked, waitq, 
                               woken, ev, result, rdata, stack, vtb_, vid_, vtb, 
                               vid, vp_, vc_t, va_, vb_, vmade, vrp, vrl_, vp_s, 
-                              vc_s, vx_, vc, vb_d, vx_d, vp_d, vc_, vcls, vrl, 
-                              va, vb, vx_de, vdels, vdocs, vf_, vp_de, vtodo, 
-                              vkeepl, vmarked, ve, vp_p, vf_p, vver, vp_g, 
-                              vf_g, vx_g, vp_del, vf, vx, vp >>
+                              vc_s, vx_, vc, vb_d, vx_d, vp_d, vc_, vcls, 
+                              vrl_d, va_d, vb_de, vx_de, vdels, vdocs, vf_, 
+                              vp_de, vtodo, vkeepl, vmarked, ve, vp_p, vf_p, 
+                              vver, vp_g, vf_g, vx_g, vp_del, vf, vx_del, 
+                              vp_delm, vp, vc_r, vrl, va, vb, vx >>
 
 verify(self) == /\ pc[self] = "verify"
                 /\ va_' = [va_ EXCEPT ![self] = pref[vp_[self]] # None]
@@ -924,9 +995,10 @@ verify(self) == /\ pc[self] = "verify"
                                 waitq, woken, result, rdata, stack, vtb_, vid_, 
                                 vtb, vid, vp_, vc_t, vb_, vmade, vrp, vrl_, 
                                 vp_s, vc_s, vx_, vc, vb_d, vx_d, vp_d, vc_, 
-                                vcls, vrl, va, vb, vx_de, vdels, vdocs, vf_, 
-                                vp_de, vtodo, vkeepl, vmarked, ve, vp_p, vf_p, 
-                                vver, vp_g, vf_g, vx_g, vp_del, vf, vx, vp >>
+                                vcls, vrl_d, va_d, vb_de, vx_de, vdels, vdocs, 
+                                vf_, vp_de, vtodo, vkeepl, vmarked, ve, vp_p, 
+                                vf_p, vver, vp_g, vf_g, vx_g, vp_del, vf, 
+                                vx_del, vp_delm, vp, vc_r, vrl, va, vb, vx >>
 
 v2(self) == /\ pc[self] = "v2"
             /\ vb_' = [vb_ EXCEPT ![self] = cref[vc_t[self]].has]
@@ -942,10 +1014,11 @@ v2(self) == /\ pc[self] = "v2"
             /\ UNCHANGED << obj, pref, cref, doc, mark, keep, locked, waitq, 
                             woken, result, rdata, stack, vtb_, vid_, vtb, vid, 
                             vp_, vc_t, va_, vmade, vrp, vrl_, vp_s, vc_s, vx_, 
-                            vc, vb_d, vx_d, vp_d, vc_, vcls, vrl, va, vb, 
-                            vx_de, vdels, vdocs, vf_, vp_de, vtodo, vkeepl, 
-                            vmarked, ve, vp_p, vf_p, vver, vp_g, vf_g, vx_g, 
-                            vp_del, vf, vx, vp >>
+                            vc, vb_d, vx_d, vp_d, vc_, vcls, vrl_d, va_d, 
+                            vb_de, vx_de, vdels, vdocs, vf_, vp_de, vtodo, 
+                            vkeepl, vmarked, ve, vp_p, vf_p, vver, vp_g, vf_g, 
+                            vx_g, vp_del, vf, vx_del, vp_delm, vp, vc_r, vrl, 
+                            va, vb, vx >>
 
 v3(self) == /\ pc[self] = "v3"
             /\ IF pref[vp_[self]] = None
@@ -963,10 +1036,11 @@ v3(self) == /\ pc[self] = "v3"
             /\ UNCHANGED << obj, pref, cref, doc, mark, keep, locked, waitq, 
                             woken, result, rdata, stack, vtb_, vid_, vtb, vid, 
                             vp_, vc_t, va_, vb_, vmade, vrl_, vp_s, vc_s, vx_, 
-                            vc, vb_d, vx_d, vp_d, vc_, vcls, vrl, va, vb, 
-                            vx_de, vdels, vdocs, vf_, vp_de, vtodo, vkeepl, 
-                            vmarked, ve, vp_p, vf_p, vver, vp_g, vf_g, vx_g, 
-                            vp_del, vf, vx, vp >>
+                            vc, vb_d, vx_d, vp_d, vc_, vcls, vrl_d, va_d, 
+                            vb_de, vx_de, vdels, vdocs, vf_, vp_de, vtodo, 
+                            vkeepl, vmarked, ve, vp_p, vf_p, vver, vp_g, vf_g, 
+                            vx_g, vp_del, vf, vx_del, vp_delm, vp, vc_r, vrl, 
+                            va, vb, vx >>
 
 v3b(self) == /\ pc[self] = "v3b"
              /\ IF vrp[self] # vc_t[self]
@@ -980,10 +1054,11 @@ v3b(self) == /\ pc[self] = "v3b"
              /\ UNCHANGED << obj, pref, cref, doc, mark, keep, locked, waitq, 
                              woken, ev, result, rdata, stack, vtb_, vid_, vtb, 
                              vid, vp_, vc_t, va_, vb_, vmade, vrp, vrl_, vp_s, 
-                             vc_s, vx_, vc, vb_d, vx_d, vp_d, vc_, vcls, vrl, 
-                             va, vb, vx_de, vdels, vdocs, vf_, vp_de, vtodo, 
-                             vkeepl, vmarked, ve, vp_p, vf_p, vver, vp_g, vf_g, 
-                             vx_g, vp_del, vf, vx, vp >>
+                             vc_s, vx_, vc, vb_d, vx_d, vp_d, vc_, vcls, vrl_d, 
+                             va_d, vb_de, vx_de, vdels, vdocs, vf_, vp_de, 
+                             vtodo, vkeepl, vmarked, ve, vp_p, vf_p, vver, 
+                             vp_g, vf_g, vx_g, vp_del, vf, vx_del, vp_delm, vp, 
+                             vc_r, vrl, va, vb, vx >>
 
 v4(self) == /\ pc[self] = "v4"
             /\ IF ~cref[vc_t[self]].has
@@ -1001,10 +1076,11 @@ v4(self) == /\ pc[self] = "v4"
             /\ UNCHANGED << obj, pref, cref, doc, mark, keep, locked, waitq, 
                             woken, result, rdata, stack, vtb_, vid_, vtb, vid, 
                             vp_, vc_t, va_, vb_, vmade, vrp, vp_s, vc_s, vx_, 
-                            vc, vb_d, vx_d, vp_d, vc_, vcls, vrl, va, vb, 
-                            vx_de, vdels, vdocs, vf_, vp_de, vtodo, vkeepl, 
-                            vmarked, ve, vp_p, vf_p, vver, vp_g, vf_g, vx_g, 
-                            vp_del, vf, vx, vp >>
+                            vc, vb_d, vx_d, vp_d, vc_, vcls, vrl_d, va_d, 
+                            vb_de, vx_de, vdels, vdocs, vf_, vp_de, vtodo, 
+                            vkeepl, vmarked, ve, vp_p, vf_p, vver, vp_g, vf_g, 
+                            vx_g, vp_del, vf, vx_del, vp_delm, vp, vc_r, vrl, 
+                            va, vb, vx >>
 
 v4b(self) == /\ pc[self] = "v4b"
              /\ IF ~InSeq(vp_[self], vrl_[self]) /\ vout[self] = "ok"
@@ -1015,10 +1091,11 @@ v4b(self) == /\ pc[self] = "v4b"
              /\ UNCHANGED << obj, pref, cref, doc, mark, keep, locked, waitq, 
                              woken, ev, result, rdata, stack, vtb_, vid_, vtb, 
                              vid, vp_, vc_t, va_, vb_, vmade, vrp, vrl_, vp_s, 
-                             vc_s, vx_, vc, vb_d, vx_d, vp_d, vc_, vcls, vrl, 
-                             va, vb, vx_de, vdels, vdocs, vf_, vp_de, vtodo, 
-                             vkeepl, vmarked, ve, vp_p, vf_p, vver, vp_g, vf_g, 
-                             vx_g, vp_del, vf, vx, vp >>
+                             vc_s, vx_, vc, vb_d, vx_d, vp_d, vc_, vcls, vrl_d, 
+                             va_d, vb_de, vx_de, vdels, vdocs, vf_, vp_de, 
+                             vtodo, vkeepl, vmarked, ve, vp_p, vf_p, vver, 
+                             vp_g, vf_g, vx_g, vp_del, vf, vx_del, vp_delm, vp, 
+                             vc_r, vrl, va, vb, vx >>
 
 v5(self) == /\ pc[self] = "v5"
             /\ pc' = [pc EXCEPT ![self] = "tgfin"]
@@ -1026,9 +1103,10 @@ v5(self) == /\ pc[self] = "v5"
                             woken, ev, result, rdata, stack, vtb_, vid_, vtb, 
                             vid, vp_, vc_t, va_, vb_, vout, vmade, vrp, vrl_, 
                             vp_s, vc_s, vx_, vc, vb_d, vx_d, vp_d, vc_, vcls, 
-                            vrl, va, vb, vx_de, vdels, vdocs, vf_, vp_de, 
-                            vtodo, vkeepl, vmarked, ve, vp_p, vf_p, vver, vp_g, 
-                            vf_g, vx_g, vp_del, vf, vx, vp >>
+                            vrl_d, va_d, vb_de, vx_de, vdels, vdocs, vf_, 
+                            vp_de, vtodo, vkeepl, vmarked, ve, vp_p, vf_p, 
+                            vver, vp_g, vf_g, vx_g, vp_del, vf, vx_del, 
+                            vp_delm, vp, vc_r, vrl, va, vb, vx >>
 
 untag(self) == /\ pc[self] = "untag"
                /\ IF vmade[self] /\ pref[vp_[self]] = vc_t[self]
@@ -1041,10 +1119,10 @@ untag(self) == /\ pc[self] = "untag"
                                woken, result, rdata, stack, vtb_, vid_, vtb, 
                                vid, vp_, vc_t, va_, vb_, vout, vmade, vrp, 
                                vrl_, vp_s, vc_s, vx_, vc, vb_d, vx_d, vp_d, 
-                               vc_, vcls, vrl, va, vb, vx_de, vdels, vdocs, 
-                               vf_, vp_de, vtodo, vkeepl, vmarked, ve, vp_p, 
-                               vf_p, vver, vp_g, vf_g, vx_g, vp_del, vf, vx, 
-                               vp >>
+                               vc_, vcls, vrl_d, va_d, vb_de, vx_de, vdels, 
+                               vdocs, vf_, vp_de, vtodo, vkeepl, vmarked, ve, 
+                               vp_p, vf_p, vver, vp_g, vf_g, vx_g, vp_del, vf, 
+                               vx_del, vp_delm, vp, vc_r, vrl, va, vb, vx >>
 
 u2(self) == /\ pc[self] = "u2"
             /\ IF vmade[self] /\ cref[vc_t[self]].has /\ InSeq(vp_[self], cref[vc_t[self]].pids)
@@ -1056,10 +1134,11 @@ u2(self) == /\ pc[self] = "u2"
             /\ UNCHANGED << obj, pref, doc, mark, keep, locked, waitq, woken, 
                             result, rdata, stack, vtb_, vid_, vtb, vid, vp_, 
                             vc_t, va_, vb_, vout, vmade, vrp, vrl_, vp_s, vc_s, 
-                            vx_, vc, vb_d, vx_d, vp_d, vc_, vcls, vrl, va, vb, 
-                            vx_de, vdels, vdocs, vf_, vp_de, vtodo, vkeepl, 
-                            vmarked, ve, vp_p, vf_p, vver, vp_g, vf_g, vx_g, 
-                            vp_del, vf, vx, vp >>
+                            vx_, vc, vb_d, vx_d, vp_d, vc_, vcls, vrl_d, va_d, 
+                            vb_de, vx_de, vdels, vdocs, vf_, vp_de, vtodo, 
+                            vkeepl, vmarked, ve, vp_p, vf_p, vver, vp_g, vf_g, 
+                            vx_g, vp_del, vf, vx_del, vp_delm, vp, vc_r, vrl, 
+                            va, vb, vx >>
 
 tgfin(self) == /\ pc[self] = "tgfin"
                /\ /\ stack' = [stack EXCEPT ![self] = << [ procedure |->  "release",
@@ -1073,10 +1152,11 @@ tgfin(self) == /\ pc[self] = "tgfin"
                /\ UNCHANGED << obj, pref, cref, doc, mark, keep, locked, waitq, 
                                woken, ev, result, rdata, vtb_, vid_, vp_, vc_t, 
                                va_, vb_, vout, vmade, vrp, vrl_, vp_s, vc_s, 
-                               vx_, vc, vb_d, vx_d, vp_d, vc_, vcls, vrl, va, 
-                               vb, vx_de, vdels, vdocs, vf_, vp_de, vtodo, 
-                               vkeepl, vmarked, ve, vp_p, vf_p, vver, vp_g, 
-                               vf_g, vx_g, vp_del, vf, vx, vp >>
+                               vx_, vc, vb_d, vx_d, vp_d, vc_, vcls, vrl_d, 
+                               va_d, vb_de, vx_de, vdels, vdocs, vf_, vp_de, 
+                               vtodo, vkeepl, vmarked, ve, vp_p, vf_p, vver, 
+                               vp_g, vf_g, vx_g, vp_del, vf, vx_del, vp_delm, 
+                               vp, vc_r, vrl, va, vb, vx >>
 
 tg9(self) == /\ pc[self] = "tg9"
              /\ /\ stack' = [stack EXCEPT ![self] = << [ procedure |->  "release",
@@ -1090,10 +1170,11 @@ tg9(self) == /\ pc[self] = "tg9"
              /\ UNCHANGED << obj, pref, cref, doc, mark, keep, locked, waitq, 
                              woken, ev, result, rdata, vtb_, vid_, vp_, vc_t, 
                              va_, vb_, vout, vmade, vrp, vrl_, vp_s, vc_s, vx_, 
-                             vc, vb_d, vx_d, vp_d, vc_, vcls, vrl, va, vb, 
-                             vx_de, vdels, vdocs, vf_, vp_de, vtodo, vkeepl, 
-                             vmarked, ve, vp_p, vf_p, vver, vp_g, vf_g, vx_g, 
-                             vp_del, vf, vx, vp >>
+                             vc, vb_d, vx_d, vp_d, vc_, vcls, vrl_d, va_d, 
+                             vb_de, vx_de, vdels, vdocs, vf_, vp_de, vtodo, 
+                             vkeepl, vmarked, ve, vp_p, vf_p, vver, vp_g, vf_g, 
+                             vx_g, vp_del, vf, vx_del, vp_delm, vp, vc_r, vrl, 
+                             va, vb, vx >>
 
 tg10(self) == /\ pc[self] = "tg10"
               /\ result' = [result EXCEPT ![self] = vout[self]]
@@ -1113,10 +1194,11 @@ tg10(self) == /\ pc[self] = "tg10"
               /\ stack' = [stack EXCEPT ![self] = Tail(stack[self])]
               /\ UNCHANGED << obj, pref, cref, doc, mark, keep, locked, waitq, 
                               woken, ev, vtb_, vid_, vtb, vid, vp_s, vc_s, vx_, 
-                              vc, vb_d, vx_d, vp_d, vc_, vcls, vrl, va, vb, 
-                              vx_de, vdels, vdocs, vf_, vp_de, vtodo, vkeepl, 
-                              vmarked, ve, vp_p, vf_p, vver, vp_g, vf_g, vx_g, 
-                              vp_del, vf, vx, vp >>
+                              vc, vb_d, vx_d, vp_d, vc_, vcls, vrl_d, va_d, 
+                              vb_de, vx_de, vdels, vdocs, vf_, vp_de, vtodo, 
+                              vkeepl, vmarked, ve, vp_p, vf_p, vver, vp_g, 
+                              vf_g, vx_g, vp_del, vf, vx_del, vp_delm, vp, 
+                              vc_r, vrl, va, vb, vx >>
 
 tag(self) == tg1(self) \/ tg2(self) \/ e1a(self) \/ e1b(self) \/ e2a(self)
                 \/ e2b(self) \/ e3a(self) \/ e3b(self) \/ n1(self)
@@ -1145,9 +1227,10 @@ st1(self) == /\ pc[self] = "st1"
              /\ UNCHANGED << obj, pref, cref, doc, mark, keep, locked, waitq, 
                              woken, rdata, vtb_, vid_, vtb, vid, vp_, vc_t, 
                              va_, vb_, vout, vmade, vrp, vrl_, vc, vb_d, vx_d, 
-                             vp_d, vc_, vcls, vrl, va, vb, vx_de, vdels, vdocs, 
-                             vf_, vp_de, vtodo, vkeepl, vmarked, ve, vp_p, 
-                             vf_p, vver, vp_g, vf_g, vx_g, vp_del, vf, vx, vp >>
+                             vp_d, vc_, vcls, vrl_d, va_d, vb_de, vx_de, vdels, 
+                             vdocs, vf_, vp_de, vtodo, vkeepl, vmarked, ve, 
+                             vp_p, vf_p, vver, vp_g, vf_g, vx_g, vp_del, vf, 
+                             vx_del, vp_delm, vp, vc_r, vrl, va, vb, vx >>
 
 st2(self) == /\ pc[self] = "st2"
              /\ /\ stack' = [stack EXCEPT ![self] = << [ procedure |->  "claim",
@@ -1161,10 +1244,11 @@ st2(self) == /\ pc[self] = "st2"
              /\ UNCHANGED << obj, pref, cref, doc, mark, keep, locked, waitq, 
                              woken, ev, result, rdata, vtb, vid, vp_, vc_t, 
                              va_, vb_, vout, vmade, vrp, vrl_, vp_s, vc_s, vx_, 
-                             vc, vb_d, vx_d, vp_d, vc_, vcls, vrl, va, vb, 
-                             vx_de, vdels, vdocs, vf_, vp_de, vtodo, vkeepl, 
-                             vmarked, ve, vp_p, vf_p, vver, vp_g, vf_g, vx_g, 
-                             vp_del, vf, vx, vp >>
+                             vc, vb_d, vx_d, vp_d, vc_, vcls, vrl_d, va_d, 
+                             vb_de, vx_de, vdels, vdocs, vf_, vp_de, vtodo, 
+                             vkeepl, vmarked, ve, vp_p, vf_p, vver, vp_g, vf_g, 
+                             vx_g, vp_del, vf, vx_del, vp_delm, vp, vc_r, vrl, 
+                             va, vb, vx >>
 
 st3(self) == /\ pc[self] = "st3"
              /\ vx_' = [vx_ EXCEPT ![self] = obj[vc_s[self]] = "ok"]
@@ -1175,10 +1259,11 @@ st3(self) == /\ pc[self] = "st3"
              /\ UNCHANGED << obj, pref, cref, doc, mark, keep, locked, waitq, 
                              woken, result, rdata, stack, vtb_, vid_, vtb, vid, 
                              vp_, vc_t, va_, vb_, vout, vmade, vrp, vrl_, vp_s, 
-                             vc_s, vc, vb_d, vx_d, vp_d, vc_, vcls, vrl, va, 
-                             vb, vx_de, vdels, vdocs, vf_, vp_de, vtodo, 
-                             vkeepl, vmarked, ve, vp_p, vf_p, vver, vp_g, vf_g, 
-                             vx_g, vp_del, vf, vx, vp >>
+                             vc_s, vc, vb_d, vx_d, vp_d, vc_, vcls, vrl_d, 
+                             va_d, vb_de, vx_de, vdels, vdocs, vf_, vp_de, 
+                             vtodo, vkeepl, vmarked, ve, vp_p, vf_p, vver, 
+                             vp_g, vf_g, vx_g, vp_del, vf, vx_del, vp_delm, vp, 
+                             vc_r, vrl, va, vb, vx >>
 
 st4(self) == /\ pc[self] = "st4"
              /\ ev' = Ev(self, "stat", P("obj", vc_s[self]), NoPath, FN(obj[vc_s[self]] = "ok"))
@@ -1186,10 +1271,11 @@ st4(self) == /\ pc[self] = "st4"
              /\ UNCHANGED << obj, pref, cref, doc, mark, keep, locked, waitq, 
                              woken, result, rdata, stack, vtb_, vid_, vtb, vid, 
                              vp_, vc_t, va_, vb_, vout, vmade, vrp, vrl_, vp_s, 
-                             vc_s, vx_, vc, vb_d, vx_d, vp_d, vc_, vcls, vrl, 
-                             va, vb, vx_de, vdels, vdocs, vf_, vp_de, vtodo, 
-                             vkeepl, vmarked, ve, vp_p, vf_p, vver, vp_g, vf_g, 
-                             vx_g, vp_del, vf, vx, vp >>
+                             vc_s, vx_, vc, vb_d, vx_d, vp_d, vc_, vcls, vrl_d, 
+                             va_d, vb_de, vx_de, vdels, vdocs, vf_, vp_de, 
+                             vtodo, vkeepl, vmarked, ve, vp_p, vf_p, vver, 
+                             vp_g, vf_g, vx_g, vp_del, vf, vx_del, vp_delm, vp, 
+                             vc_r, vrl, va, vb, vx >>
 
 st5(self) == /\ pc[self] = "st5"
              /\ obj' = [obj EXCEPT ![vc_s[self]] = "ok"]
@@ -1198,10 +1284,11 @@ st5(self) == /\ pc[self] = "st5"
              /\ UNCHANGED << pref, cref, doc, mark, keep, locked, waitq, woken, 
                              result, rdata, stack, vtb_, vid_, vtb, vid, vp_, 
                              vc_t, va_, vb_, vout, vmade, vrp, vrl_, vp_s, 
-                             vc_s, vx_, vc, vb_d, vx_d, vp_d, vc_, vcls, vrl, 
-                             va, vb, vx_de, vdels, vdocs, vf_, vp_de, vtodo, 
-                             vkeepl, vmarked, ve, vp_p, vf_p, vver, vp_g, vf_g, 
-                             vx_g, vp_del, vf, vx, vp >>
+                             vc_s, vx_, vc, vb_d, vx_d, vp_d, vc_, vcls, vrl_d, 
+                             va_d, vb_de, vx_de, vdels, vdocs, vf_, vp_de, 
+                             vtodo, vkeepl, vmarked, ve, vp_p, vf_p, vver, 
+                             vp_g, vf_g, vx_g, vp_del, vf, vx_del, vp_delm, vp, 
+                             vc_r, vrl, va, vb, vx >>
 
 st6(self) == /\ pc[self] = "st6"
              /\ IF vp_s[self] = "-"
@@ -1236,10 +1323,10 @@ st6(self) == /\ pc[self] = "st6"
                         /\ UNCHANGED << result, vp_s, vc_s, vx_ >>
              /\ UNCHANGED << obj, pref, cref, doc, mark, keep, locked, waitq, 
                              woken, ev, rdata, vtb_, vid_, vtb, vid, vc, vb_d, 
-                             vx_d, vp_d, vc_, vcls, vrl, va, vb, vx_de, vdels, 
-                             vdocs, vf_, vp_de, vtodo, vkeepl, vmarked, ve, 
-                             vp_p, vf_p, vver, vp_g, vf_g, vx_g, vp_del, vf, 
-                             vx, vp >>
+                             vx_d, vp_d, vc_, vcls, vrl_d, va_d, vb_de, vx_de, 
+                             vdels, vdocs, vf_, vp_de, vtodo, vkeepl, vmarked, 
+                             ve, vp_p, vf_p, vver, vp_g, vf_g, vx_g, vp_del, 
+                             vf, vx_del, vp_delm, vp, vc_r, vrl, va, vb, vx >>
 
 st7(self) == /\ pc[self] = "st7"
              /\ /\ stack' = [stack EXCEPT ![self] = << [ procedure |->  "release",
@@ -1253,10 +1340,11 @@ st7(self) == /\ pc[self] = "st7"
              /\ UNCHANGED << obj, pref, cref, doc, mark, keep, locked, waitq, 
                              woken, ev, result, rdata, vtb_, vid_, vp_, vc_t, 
                              va_, vb_, vout, vmade, vrp, vrl_, vp_s, vc_s, vx_, 
-                             vc, vb_d, vx_d, vp_d, vc_, vcls, vrl, va, vb, 
-                             vx_de, vdels, vdocs, vf_, vp_de, vtodo, vkeepl, 
-                             vmarked, ve, vp_p, vf_p, vver, vp_g, vf_g, vx_g, 
-                             vp_del, vf, vx, vp >>
+                             vc, vb_d, vx_d, vp_d, vc_, vcls, vrl_d, va_d, 
+                             vb_de, vx_de, vdels, vdocs, vf_, vp_de, vtodo, 
+                             vkeepl, vmarked, ve, vp_p, vf_p, vver, vp_g, vf_g, 
+                             vx_g, vp_del, vf, vx_del, vp_delm, vp, vc_r, vrl, 
+                             va, vb, vx >>
 
 st8(self) == /\ pc[self] = "st8"
              /\ pc' = [pc EXCEPT ![self] = Head(stack[self]).pc]
@@ -1267,10 +1355,11 @@ st8(self) == /\ pc[self] = "st8"
              /\ UNCHANGED << obj, pref, cref, doc, mark, keep, locked, waitq, 
                              woken, ev, result, rdata, vtb_, vid_, vtb, vid, 
                              vp_, vc_t, va_, vb_, vout, vmade, vrp, vrl_, vc, 
-                             vb_d, vx_d, vp_d, vc_, vcls, vrl, va, vb, vx_de, 
-                             vdels, vdocs, vf_, vp_de, vtodo, vkeepl, vmarked, 
-                             ve, vp_p, vf_p, vver, vp_g, vf_g, vx_g, vp_del, 
-                             vf, vx, vp >>
+                             vb_d, vx_d, vp_d, vc_, vcls, vrl_d, va_d, vb_de, 
+                             vx_de, vdels, vdocs, vf_, vp_de, vtodo, vkeepl, 
+                             vmarked, ve, vp_p, vf_p, vver, vp_g, vf_g, vx_g, 
+                             vp_del, vf, vx_del, vp_delm, vp, vc_r, vrl, va, 
+                             vb, vx >>
 
 store(self) == st1(self) \/ st2(self) \/ st3(self) \/ st4(self)
                   \/ st5(self) \/ st6(self) \/ st7(self) \/ st8(self)
@@ -1287,10 +1376,11 @@ di1(self) == /\ pc[self] = "di1"
              /\ UNCHANGED << obj, pref, cref, doc, mark, keep, locked, waitq, 
                              woken, ev, result, rdata, vtb, vid, vp_, vc_t, 
                              va_, vb_, vout, vmade, vrp, vrl_, vp_s, vc_s, vx_, 
-                             vc, vb_d, vx_d, vp_d, vc_, vcls, vrl, va, vb, 
-                             vx_de, vdels, vdocs, vf_, vp_de, vtodo, vkeepl, 
-                             vmarked, ve, vp_p, vf_p, vver, vp_g, vf_g, vx_g, 
-                             vp_del, vf, vx, vp >>
+                             vc, vb_d, vx_d, vp_d, vc_, vcls, vrl_d, va_d, 
+                             vb_de, vx_de, vdels, vdocs, vf_, vp_de, vtodo, 
+                             vkeepl, vmarked, ve, vp_p, vf_p, vver, vp_g, vf_g, 
+                             vx_g, vp_del, vf, vx_del, vp_delm, vp, vc_r, vrl, 
+                             va, vb, vx >>
 
 di2(self) == /\ pc[self] = "di2"
              /\ vb_d' = [vb_d EXCEPT ![self] = cref[vc[self]].has]
@@ -1303,10 +1393,11 @@ di2(self) == /\ pc[self] = "di2"
              /\ UNCHANGED << obj, pref, cref, doc, mark, keep, locked, waitq, 
                              woken, rdata, stack, vtb_, vid_, vtb, vid, vp_, 
                              vc_t, va_, vb_, vout, vmade, vrp, vrl_, vp_s, 
-                             vc_s, vx_, vc, vx_d, vp_d, vc_, vcls, vrl, va, vb, 
-                             vx_de, vdels, vdocs, vf_, vp_de, vtodo, vkeepl, 
-                             vmarked, ve, vp_p, vf_p, vver, vp_g, vf_g, vx_g, 
-                             vp_del, vf, vx, vp >>
+                             vc_s, vx_, vc, vx_d, vp_d, vc_, vcls, vrl_d, va_d, 
+                             vb_de, vx_de, vdels, vdocs, vf_, vp_de, vtodo, 
+                             vkeepl, vmarked, ve, vp_p, vf_p, vver, vp_g, vf_g, 
+                             vx_g, vp_del, vf, vx_del, vp_delm, vp, vc_r, vrl, 
+                             va, vb, vx >>
 
 di3(self) == /\ pc[self] = "di3"
              /\ vx_d' = [vx_d EXCEPT ![self] = obj[vc[self]] = "ok"]
@@ -1317,10 +1408,11 @@ di3(self) == /\ pc[self] = "di3"
              /\ UNCHANGED << obj, pref, cref, doc, mark, keep, locked, waitq, 
                              woken, result, rdata, stack, vtb_, vid_, vtb, vid, 
                              vp_, vc_t, va_, vb_, vout, vmade, vrp, vrl_, vp_s, 
-                             vc_s, vx_, vc, vb_d, vp_d, vc_, vcls, vrl, va, vb, 
-                             vx_de, vdels, vdocs, vf_, vp_de, vtodo, vkeepl, 
-                             vmarked, ve, vp_p, vf_p, vver, vp_g, vf_g, vx_g, 
-                             vp_del, vf, vx, vp >>
+                             vc_s, vx_, vc, vb_d, vp_d, vc_, vcls, vrl_d, va_d, 
+                             vb_de, vx_de, vdels, vdocs, vf_, vp_de, vtodo, 
+                             vkeepl, vmarked, ve, vp_p, vf_p, vver, vp_g, vf_g, 
+                             vx_g, vp_del, vf, vx_del, vp_delm, vp, vc_r, vrl, 
+                             va, vb, vx >>
 
 di4(self) == /\ pc[self] = "di4"
              /\ IF obj[vc[self]] = "ok"
@@ -1334,10 +1426,11 @@ di4(self) == /\ pc[self] = "di4"
              /\ UNCHANGED << pref, cref, doc, mark, keep, locked, waitq, woken, 
                              rdata, stack, vtb_, vid_, vtb, vid, vp_, vc_t, 
                              va_, vb_, vout, vmade, vrp, vrl_, vp_s, vc_s, vx_, 
-                             vc, vb_d, vx_d, vp_d, vc_, vcls, vrl, va, vb, 
-                             vx_de, vdels, vdocs, vf_, vp_de, vtodo, vkeepl, 
-                             vmarked, ve, vp_p, vf_p, vver, vp_g, vf_g, vx_g, 
-                             vp_del, vf, vx, vp >>
+                             vc, vb_d, vx_d, vp_d, vc_, vcls, vrl_d, va_d, 
+                             vb_de, vx_de, vdels, vdocs, vf_, vp_de, vtodo, 
+                             vkeepl, vmarked, ve, vp_p, vf_p, vver, vp_g, vf_g, 
+                             vx_g, vp_del, vf, vx_del, vp_delm, vp, vc_r, vrl, 
+                             va, vb, vx >>
 
 di3b(self) == /\ pc[self] = "di3b"
               /\ ev' = Ev(self, "stat", P("obj", vc[self]), NoPath, FN(obj[vc[self]] = "ok"))
@@ -1346,10 +1439,11 @@ di3b(self) == /\ pc[self] = "di3b"
               /\ UNCHANGED << obj, pref, cref, doc, mark, keep, locked, waitq, 
                               woken, rdata, stack, vtb_, vid_, vtb, vid, vp_, 
                               vc_t, va_, vb_, vout, vmade, vrp, vrl_, vp_s, 
-                              vc_s, vx_, vc, vb_d, vx_d, vp_d, vc_, vcls, vrl, 
-                              va, vb, vx_de, vdels, vdocs, vf_, vp_de, vtodo, 
-                              vkeepl, vmarked, ve, vp_p, vf_p, vver, vp_g, 
-                              vf_g, vx_g, vp_del, vf, vx, vp >>
+                              vc_s, vx_, vc, vb_d, vx_d, vp_d, vc_, vcls, 
+                              vrl_d, va_d, vb_de, vx_de, vdels, vdocs, vf_, 
+                              vp_de, vtodo, vkeepl, vmarked, ve, vp_p, vf_p, 
+                              vver, vp_g, vf_g, vx_g, vp_del, vf, vx_del, 
+                              vp_delm, vp, vc_r, vrl, va, vb, vx >>
 
 di5(self) == /\ pc[self] = "di5"
              /\ /\ stack' = [stack EXCEPT ![self] = << [ procedure |->  "release",
@@ -1363,10 +1457,11 @@ di5(self) == /\ pc[self] = "di5"
              /\ UNCHANGED << obj, pref, cref, doc, mark, keep, locked, waitq, 
                              woken, ev, result, rdata, vtb_, vid_, vp_, vc_t, 
                              va_, vb_, vout, vmade, vrp, vrl_, vp_s, vc_s, vx_, 
-                             vc, vb_d, vx_d, vp_d, vc_, vcls, vrl, va, vb, 
-                             vx_de, vdels, vdocs, vf_, vp_de, vtodo, vkeepl, 
-                             vmarked, ve, vp_p, vf_p, vver, vp_g, vf_g, vx_g, 
-                             vp_del, vf, vx, vp >>
+                             vc, vb_d, vx_d, vp_d, vc_, vcls, vrl_d, va_d, 
+                             vb_de, vx_de, vdels, vdocs, vf_, vp_de, vtodo, 
+                             vkeepl, vmarked, ve, vp_p, vf_p, vver, vp_g, vf_g, 
+                             vx_g, vp_del, vf, vx_del, vp_delm, vp, vc_r, vrl, 
+                             va, vb, vx >>
 
 di6(self) == /\ pc[self] = "di6"
              /\ pc' = [pc EXCEPT ![self] = Head(stack[self]).pc]
@@ -1377,10 +1472,11 @@ di6(self) == /\ pc[self] = "di6"
              /\ UNCHANGED << obj, pref, cref, doc, mark, keep, locked, waitq, 
                              woken, ev, result, rdata, vtb_, vid_, vtb, vid, 
                              vp_, vc_t, va_, vb_, vout, vmade, vrp, vrl_, vp_s, 
-                             vc_s, vx_, vp_d, vc_, vcls, vrl, va, vb, vx_de, 
-                             vdels, vdocs, vf_, vp_de, vtodo, vkeepl, vmarked, 
-                             ve, vp_p, vf_p, vver, vp_g, vf_g, vx_g, vp_del, 
-                             vf, vx, vp >>
+                             vc_s, vx_, vp_d, vc_, vcls, vrl_d, va_d, vb_de, 
+                             vx_de, vdels, vdocs, vf_, vp_de, vtodo, vkeepl, 
+                             vmarked, ve, vp_p, vf_p, vver, vp_g, vf_g, vx_g, 
+                             vp_del, vf, vx_del, vp_delm, vp, vc_r, vrl, va, 
+                             vb, vx >>
 
 diibad(self) == di1(self) \/ di2(self) \/ di3(self) \/ di4(self)
                    \/ di3b(self) \/ di5(self) \/ di6(self)
@@ -1397,10 +1493,11 @@ d1(self) == /\ pc[self] = "d1"
             /\ UNCHANGED << obj, pref, cref, doc, mark, keep, locked, waitq, 
                             woken, ev, result, rdata, vtb, vid, vp_, vc_t, va_, 
                             vb_, vout, vmade, vrp, vrl_, vp_s, vc_s, vx_, vc, 
-                            vb_d, vx_d, vp_d, vc_, vcls, vrl, va, vb, vx_de, 
-                            vdels, vdocs, vf_, vp_de, vtodo, vkeepl, vmarked, 
-                            ve, vp_p, vf_p, vver, vp_g, vf_g, vx_g, vp_del, vf, 
-                            vx, vp >>
+                            vb_d, vx_d, vp_d, vc_, vcls, vrl_d, va_d, vb_de, 
+                            vx_de, vdels, vdocs, vf_, vp_de, vtodo, vkeepl, 
+                            vmarked, ve, vp_p, vf_p, vver, vp_g, vf_g, vx_g, 
+                            vp_del, vf, vx_del, vp_delm, vp, vc_r, vrl, va, vb, 
+                            vx >>
 
 d2(self) == /\ pc[self] = "d2"
             /\ /\ stack' = [stack EXCEPT ![self] = << [ procedure |->  "claim",
@@ -1414,15 +1511,16 @@ d2(self) == /\ pc[self] = "d2"
             /\ UNCHANGED << obj, pref, cref, doc, mark, keep, locked, waitq, 
                             woken, ev, result, rdata, vtb, vid, vp_, vc_t, va_, 
                             vb_, vout, vmade, vrp, vrl_, vp_s, vc_s, vx_, vc, 
-                            vb_d, vx_d, vp_d, vc_, vcls, vrl, va, vb, vx_de, 
-                            vdels, vdocs, vf_, vp_de, vtodo, vkeepl, vmarked, 
-                            ve, vp_p, vf_p, vver, vp_g, vf_g, vx_g, vp_del, vf, 
-                            vx, vp >>
+                            vb_d, vx_d, vp_d, vc_, vcls, vrl_d, va_d, vb_de, 
+                            vx_de, vdels, vdocs, vf_, vp_de, vtodo, vkeepl, 
+                            vmarked, ve, vp_p, vf_p, vver, vp_g, vf_g, vx_g, 
+                            vp_del, vf, vx_del, vp_delm, vp, vc_r, vrl, va, vb, 
+                            vx >>
 
 f1(self) == /\ pc[self] = "f1"
-            /\ va' = [va EXCEPT ![self] = pref[vp_d[self]] # None]
-            /\ ev' = Ev(self, "stat", P("pidref", vp_d[self]), NoPath, FN(va'[self]))
-            /\ IF ~va'[self]
+            /\ va_d' = [va_d EXCEPT ![self] = pref[vp_d[self]] # None]
+            /\ ev' = Ev(self, "stat", P("pidref", vp_d[self]), NoPath, FN(va_d'[self]))
+            /\ IF ~va_d'[self]
                   THEN /\ vcls' = [vcls EXCEPT ![self] = "nopid"]
                        /\ pc' = [pc EXCEPT ![self] = "dfin"]
                   ELSE /\ pc' = [pc EXCEPT ![self] = "f2"]
@@ -1430,10 +1528,11 @@ f1(self) == /\ pc[self] = "f1"
             /\ UNCHANGED << obj, pref, cref, doc, mark, keep, locked, waitq, 
                             woken, result, rdata, stack, vtb_, vid_, vtb, vid, 
                             vp_, vc_t, va_, vb_, vout, vmade, vrp, vrl_, vp_s, 
-                            vc_s, vx_, vc, vb_d, vx_d, vp_d, vc_, vrl, vb, 
+                            vc_s, vx_, vc, vb_d, vx_d, vp_d, vc_, vrl_d, vb_de, 
                             vx_de, vdels, vdocs, vf_, vp_de, vtodo, vkeepl, 
                             vmarked, ve, vp_p, vf_p, vver, vp_g, vf_g, vx_g, 
-                            vp_del, vf, vx, vp >>
+                            vp_del, vf, vx_del, vp_delm, vp, vc_r, vrl, va, vb, 
+                            vx >>
 
 f2(self) == /\ pc[self] = "f2"
             /\ IF pref[vp_d[self]] = None
@@ -1448,15 +1547,16 @@ f2(self) == /\ pc[self] = "f2"
             /\ UNCHANGED << obj, pref, cref, doc, mark, keep, locked, waitq, 
                             woken, result, rdata, stack, vtb_, vid_, vtb, vid, 
                             vp_, vc_t, va_, vb_, vout, vmade, vrp, vrl_, vp_s, 
-                            vc_s, vx_, vc, vb_d, vx_d, vp_d, vrl, va, vb, 
-                            vx_de, vdels, vdocs, vf_, vp_de, vtodo, vkeepl, 
-                            vmarked, ve, vp_p, vf_p, vver, vp_g, vf_g, vx_g, 
-                            vp_del, vf, vx, vp >>
+                            vc_s, vx_, vc, vb_d, vx_d, vp_d, vrl_d, va_d, 
+                            vb_de, vx_de, vdels, vdocs, vf_, vp_de, vtodo, 
+                            vkeepl, vmarked, ve, vp_p, vf_p, vver, vp_g, vf_g, 
+                            vx_g, vp_del, vf, vx_del, vp_delm, vp, vc_r, vrl, 
+                            va, vb, vx >>
 
 f3(self) == /\ pc[self] = "f3"
-            /\ vb' = [vb EXCEPT ![self] = cref[vc_[self]].has]
+            /\ vb_de' = [vb_de EXCEPT ![self] = cref[vc_[self]].has]
             /\ ev' = Ev(self, "stat", P("cidref", vc_[self]), NoPath, StatCid(vc_[self]))
-            /\ IF ~vb'[self]
+            /\ IF ~vb_de'[self]
                   THEN /\ vcls' = [vcls EXCEPT ![self] = "orphan"]
                        /\ pc' = [pc EXCEPT ![self] = "orphan"]
                   ELSE /\ pc' = [pc EXCEPT ![self] = "f4"]
@@ -1464,31 +1564,33 @@ f3(self) == /\ pc[self] = "f3"
             /\ UNCHANGED << obj, pref, cref, doc, mark, keep, locked, waitq, 
                             woken, result, rdata, stack, vtb_, vid_, vtb, vid, 
                             vp_, vc_t, va_, vb_, vout, vmade, vrp, vrl_, vp_s, 
-                            vc_s, vx_, vc, vb_d, vx_d, vp_d, vc_, vrl, va, 
+                            vc_s, vx_, vc, vb_d, vx_d, vp_d, vc_, vrl_d, va_d, 
                             vx_de, vdels, vdocs, vf_, vp_de, vtodo, vkeepl, 
                             vmarked, ve, vp_p, vf_p, vver, vp_g, vf_g, vx_g, 
-                            vp_del, vf, vx, vp >>
+                            vp_del, vf, vx_del, vp_delm, vp, vc_r, vrl, va, vb, 
+                            vx >>
 
 f4(self) == /\ pc[self] = "f4"
             /\ IF ~cref[vc_[self]].has
                   THEN /\ ev' = Ev(self, "read", P("cidref", vc_[self]), NoPath, "!fnf")
                        /\ vcls' = [vcls EXCEPT ![self] = "ioerror"]
                        /\ pc' = [pc EXCEPT ![self] = "dfin"]
-                       /\ vrl' = vrl
-                  ELSE /\ vrl' = [vrl EXCEPT ![self] = cref[vc_[self]].pids]
-                       /\ ev' = EvV(self, "read", P("cidref", vc_[self]), NoPath, "ok", vrl'[self])
+                       /\ vrl_d' = vrl_d
+                  ELSE /\ vrl_d' = [vrl_d EXCEPT ![self] = cref[vc_[self]].pids]
+                       /\ ev' = EvV(self, "read", P("cidref", vc_[self]), NoPath, "ok", vrl_d'[self])
                        /\ pc' = [pc EXCEPT ![self] = "f5"]
                        /\ vcls' = vcls
             /\ UNCHANGED << obj, pref, cref, doc, mark, keep, locked, waitq, 
                             woken, result, rdata, stack, vtb_, vid_, vtb, vid, 
                             vp_, vc_t, va_, vb_, vout, vmade, vrp, vrl_, vp_s, 
-                            vc_s, vx_, vc, vb_d, vx_d, vp_d, vc_, va, vb, 
+                            vc_s, vx_, vc, vb_d, vx_d, vp_d, vc_, va_d, vb_de, 
                             vx_de, vdels, vdocs, vf_, vp_de, vtodo, vkeepl, 
                             vmarked, ve, vp_p, vf_p, vver, vp_g, vf_g, vx_g, 
-                            vp_del, vf, vx, vp >>
+                            vp_del, vf, vx_del, vp_delm, vp, vc_r, vrl, va, vb, 
+                            vx >>
 
 f5(self) == /\ pc[self] = "f5"
-            /\ IF ~InSeq(vp_d[self], vrl[self])
+            /\ IF ~InSeq(vp_d[self], vrl_d[self])
                   THEN /\ vcls' = [vcls EXCEPT ![self] = "notinlist"]
                        /\ pc' = [pc EXCEPT ![self] = "orphan"]
                   ELSE /\ pc' = [pc EXCEPT ![self] = "f6"]
@@ -1496,10 +1598,11 @@ f5(self) == /\ pc[self] = "f5"
             /\ UNCHANGED << obj, pref, cref, doc, mark, keep, locked, waitq, 
                             woken, ev, result, rdata, stack, vtb_, vid_, vtb, 
                             vid, vp_, vc_t, va_, vb_, vout, vmade, vrp, vrl_, 
-                            vp_s, vc_s, vx_, vc, vb_d, vx_d, vp_d, vc_, vrl, 
-                            va, vb, vx_de, vdels, vdocs, vf_, vp_de, vtodo, 
-                            vkeepl, vmarked, ve, vp_p, vf_p, vver, vp_g, vf_g, 
-                            vx_g, vp_del, vf, vx, vp >>
+                            vp_s, vc_s, vx_, vc, vb_d, vx_d, vp_d, vc_, vrl_d, 
+                            va_d, vb_de, vx_de, vdels, vdocs, vf_, vp_de, 
+                            vtodo, vkeepl, vmarked, ve, vp_p, vf_p, vver, vp_g, 
+                            vf_g, vx_g, vp_del, vf, vx_del, vp_delm, vp, vc_r, 
+                            vrl, va, vb, vx >>
 
 f6(self) == /\ pc[self] = "f6"
             /\ vx_de' = [vx_de EXCEPT ![self] = obj[vc_[self]] = "ok"]
@@ -1512,10 +1615,11 @@ f6(self) == /\ pc[self] = "f6"
             /\ UNCHANGED << obj, pref, cref, doc, mark, keep, locked, waitq, 
                             woken, result, rdata, stack, vtb_, vid_, vtb, vid, 
                             vp_, vc_t, va_, vb_, vout, vmade, vrp, vrl_, vp_s, 
-                            vc_s, vx_, vc, vb_d, vx_d, vp_d, vc_, vrl, va, vb, 
-                            vdels, vdocs, vf_, vp_de, vtodo, vkeepl, vmarked, 
-                            ve, vp_p, vf_p, vver, vp_g, vf_g, vx_g, vp_del, vf, 
-                            vx, vp >>
+                            vc_s, vx_, vc, vb_d, vx_d, vp_d, vc_, vrl_d, va_d, 
+                            vb_de, vdels, vdocs, vf_, vp_de, vtodo, vkeepl, 
+                            vmarked, ve, vp_p, vf_p, vver, vp_g, vf_g, vx_g, 
+                            vp_del, vf, vx_del, vp_delm, vp, vc_r, vrl, va, vb, 
+                            vx >>
 
 f7(self) == /\ pc[self] = "f7"
             /\ ev' = Ev(self, "stat", P("obj", vc_[self]), NoPath, FN(obj[vc_[self]] = "ok"))
@@ -1523,10 +1627,11 @@ f7(self) == /\ pc[self] = "f7"
             /\ UNCHANGED << obj, pref, cref, doc, mark, keep, locked, waitq, 
                             woken, result, rdata, stack, vtb_, vid_, vtb, vid, 
                             vp_, vc_t, va_, vb_, vout, vmade, vrp, vrl_, vp_s, 
-                            vc_s, vx_, vc, vb_d, vx_d, vp_d, vc_, vcls, vrl, 
-                            va, vb, vx_de, vdels, vdocs, vf_, vp_de, vtodo, 
-                            vkeepl, vmarked, ve, vp_p, vf_p, vver, vp_g, vf_g, 
-                            vx_g, vp_del, vf, vx, vp >>
+                            vc_s, vx_, vc, vb_d, vx_d, vp_d, vc_, vcls, vrl_d, 
+                            va_d, vb_de, vx_de, vdels, vdocs, vf_, vp_de, 
+                            vtodo, vkeepl, vmarked, ve, vp_p, vf_p, vver, vp_g, 
+                            vf_g, vx_g, vp_del, vf, vx_del, vp_delm, vp, vc_r, 
+                            vrl, va, vb, vx >>
 
 f8(self) == /\ pc[self] = "f8"
             /\ ev' = Ev(self, "stat", P("doc", vp_d[self] \o "/" \o DefaultNs), NoPath, FN(doc[vp_d[self]][DefaultNs] # None))
@@ -1535,10 +1640,11 @@ f8(self) == /\ pc[self] = "f8"
             /\ UNCHANGED << obj, pref, cref, doc, mark, keep, locked, waitq, 
                             woken, result, rdata, stack, vtb_, vid_, vtb, vid, 
                             vp_, vc_t, va_, vb_, vout, vmade, vrp, vrl_, vp_s, 
-                            vc_s, vx_, vc, vb_d, vx_d, vp_d, vc_, vrl, va, vb, 
-                            vx_de, vdels, vdocs, vf_, vp_de, vtodo, vkeepl, 
-                            vmarked, ve, vp_p, vf_p, vver, vp_g, vf_g, vx_g, 
-                            vp_del, vf, vx, vp >>
+                            vc_s, vx_, vc, vb_d, vx_d, vp_d, vc_, vrl_d, va_d, 
+                            vb_de, vx_de, vdels, vdocs, vf_, vp_de, vtodo, 
+                            vkeepl, vmarked, ve, vp_p, vf_p, vver, vp_g, vf_g, 
+                            vx_g, vp_del, vf, vx_del, vp_delm, vp, vc_r, vrl, 
+                            va, vb, vx >>
 
 m1(self) == /\ pc[self] = "m1"
             /\ /\ stack' = [stack EXCEPT ![self] = << [ procedure |->  "claim",
@@ -1552,10 +1658,11 @@ m1(self) == /\ pc[self] = "m1"
             /\ UNCHANGED << obj, pref, cref, doc, mark, keep, locked, waitq, 
                             woken, ev, result, rdata, vtb, vid, vp_, vc_t, va_, 
                             vb_, vout, vmade, vrp, vrl_, vp_s, vc_s, vx_, vc, 
-                            vb_d, vx_d, vp_d, vc_, vcls, vrl, va, vb, vx_de, 
-                            vdels, vdocs, vf_, vp_de, vtodo, vkeepl, vmarked, 
-                            ve, vp_p, vf_p, vver, vp_g, vf_g, vx_g, vp_del, vf, 
-                            vx, vp >>
+                            vb_d, vx_d, vp_d, vc_, vcls, vrl_d, va_d, vb_de, 
+                            vx_de, vdels, vdocs, vf_, vp_de, vtodo, vkeepl, 
+                            vmarked, ve, vp_p, vf_p, vver, vp_g, vf_g, vx_g, 
+                            vp_del, vf, vx_del, vp_delm, vp, vc_r, vrl, va, vb, 
+                            vx >>
 
 m2(self) == /\ pc[self] = "m2"
             /\ ev' = Ev(self, "stat", P("pidrefdel", vp_d[self]), NoPath, FN(P("pidrefdel", vp_d[self]) \in mark))
@@ -1563,10 +1670,11 @@ m2(self) == /\ pc[self] = "m2"
             /\ UNCHANGED << obj, pref, cref, doc, mark, keep, locked, waitq, 
                             woken, result, rdata, stack, vtb_, vid_, vtb, vid, 
                             vp_, vc_t, va_, vb_, vout, vmade, vrp, vrl_, vp_s, 
-                            vc_s, vx_, vc, vb_d, vx_d, vp_d, vc_, vcls, vrl, 
-                            va, vb, vx_de, vdels, vdocs, vf_, vp_de, vtodo, 
-                            vkeepl, vmarked, ve, vp_p, vf_p, vver, vp_g, vf_g, 
-                            vx_g, vp_del, vf, vx, vp >>
+                            vc_s, vx_, vc, vb_d, vx_d, vp_d, vc_, vcls, vrl_d, 
+                            va_d, vb_de, vx_de, vdels, vdocs, vf_, vp_de, 
+                            vtodo, vkeepl, vmarked, ve, vp_p, vf_p, vver, vp_g, 
+                            vf_g, vx_g, vp_del, vf, vx_del, vp_delm, vp, vc_r, 
+                            vrl, va, vb, vx >>
 
 m3(self) == /\ pc[self] = "m3"
             /\ IF pref[vp_d[self]] = None
@@ -1583,14 +1691,15 @@ m3(self) == /\ pc[self] = "m3"
             /\ UNCHANGED << obj, cref, doc, keep, locked, waitq, woken, result, 
                             rdata, stack, vtb_, vid_, vtb, vid, vp_, vc_t, va_, 
                             vb_, vout, vmade, vrp, vrl_, vp_s, vc_s, vx_, vc, 
-                            vb_d, vx_d, vp_d, vc_, vrl, va, vb, vx_de, vdocs, 
-                            vf_, vp_de, vtodo, vkeepl, vmarked, ve, vp_p, vf_p, 
-                            vver, vp_g, vf_g, vx_g, vp_del, vf, vx, vp >>
+                            vb_d, vx_d, vp_d, vc_, vrl_d, va_d, vb_de, vx_de, 
+                            vdocs, vf_, vp_de, vtodo, vkeepl, vmarked, ve, 
+                            vp_p, vf_p, vver, vp_g, vf_g, vx_g, vp_del, vf, 
+                            vx_del, vp_delm, vp, vc_r, vrl, va, vb, vx >>
 
 m4(self) == /\ pc[self] = "m4"
-            /\ vb' = [vb EXCEPT ![self] = cref[vc_[self]].has]
+            /\ vb_de' = [vb_de EXCEPT ![self] = cref[vc_[self]].has]
             /\ ev' = Ev(self, "stat", P("cidref", vc_[self]), NoPath, StatCid(vc_[self]))
-            /\ IF ~vb'[self]
+            /\ IF ~vb_de'[self]
                   THEN /\ vcls' = [vcls EXCEPT ![self] = "ioerror"]
                        /\ pc' = [pc EXCEPT ![self] = "mrel"]
                   ELSE /\ pc' = [pc EXCEPT ![self] = "m5"]
@@ -1598,40 +1707,43 @@ m4(self) == /\ pc[self] = "m4"
             /\ UNCHANGED << obj, pref, cref, doc, mark, keep, locked, waitq, 
                             woken, result, rdata, stack, vtb_, vid_, vtb, vid, 
                             vp_, vc_t, va_, vb_, vout, vmade, vrp, vrl_, vp_s, 
-                            vc_s, vx_, vc, vb_d, vx_d, vp_d, vc_, vrl, va, 
+                            vc_s, vx_, vc, vb_d, vx_d, vp_d, vc_, vrl_d, va_d, 
                             vx_de, vdels, vdocs, vf_, vp_de, vtodo, vkeepl, 
                             vmarked, ve, vp_p, vf_p, vver, vp_g, vf_g, vx_g, 
-                            vp_del, vf, vx, vp >>
+                            vp_del, vf, vx_del, vp_delm, vp, vc_r, vrl, va, vb, 
+                            vx >>
 
 m5(self) == /\ pc[self] = "m5"
             /\ IF ~cref[vc_[self]].has
                   THEN /\ ev' = Ev(self, "openrw", P("cidref", vc_[self]), NoPath, "!fnf")
                        /\ vcls' = [vcls EXCEPT ![self] = "ioerror"]
                        /\ pc' = [pc EXCEPT ![self] = "mrel"]
-                       /\ vrl' = vrl
-                  ELSE /\ vrl' = [vrl EXCEPT ![self] = cref[vc_[self]].pids]
-                       /\ ev' = EvV(self, "openrw", P("cidref", vc_[self]), NoPath, "ok", vrl'[self])
+                       /\ vrl_d' = vrl_d
+                  ELSE /\ vrl_d' = [vrl_d EXCEPT ![self] = cref[vc_[self]].pids]
+                       /\ ev' = EvV(self, "openrw", P("cidref", vc_[self]), NoPath, "ok", vrl_d'[self])
                        /\ pc' = [pc EXCEPT ![self] = "m6"]
                        /\ vcls' = vcls
             /\ UNCHANGED << obj, pref, cref, doc, mark, keep, locked, waitq, 
                             woken, result, rdata, stack, vtb_, vid_, vtb, vid, 
                             vp_, vc_t, va_, vb_, vout, vmade, vrp, vrl_, vp_s, 
-                            vc_s, vx_, vc, vb_d, vx_d, vp_d, vc_, va, vb, 
+                            vc_s, vx_, vc, vb_d, vx_d, vp_d, vc_, va_d, vb_de, 
                             vx_de, vdels, vdocs, vf_, vp_de, vtodo, vkeepl, 
                             vmarked, ve, vp_p, vf_p, vver, vp_g, vf_g, vx_g, 
-                            vp_del, vf, vx, vp >>
+                            vp_del, vf, vx_del, vp_delm, vp, vc_r, vrl, va, vb, 
+                            vx >>
 
 m6(self) == /\ pc[self] = "m6"
-            /\ cref' = [cref EXCEPT ![vc_[self]] = List(Without(vrl[self], vp_d[self]))]
+            /\ cref' = [cref EXCEPT ![vc_[self]] = List(Without(vrl_d[self], vp_d[self]))]
             /\ ev' = Ev(self, "rewrite", P("cidref", vc_[self]), NoPath, "ok")
             /\ pc' = [pc EXCEPT ![self] = "m7"]
             /\ UNCHANGED << obj, pref, doc, mark, keep, locked, waitq, woken, 
                             result, rdata, stack, vtb_, vid_, vtb, vid, vp_, 
                             vc_t, va_, vb_, vout, vmade, vrp, vrl_, vp_s, vc_s, 
-                            vx_, vc, vb_d, vx_d, vp_d, vc_, vcls, vrl, va, vb, 
-                            vx_de, vdels, vdocs, vf_, vp_de, vtodo, vkeepl, 
-                            vmarked, ve, vp_p, vf_p, vver, vp_g, vf_g, vx_g, 
-                            vp_del, vf, vx, vp >>
+                            vx_, vc, vb_d, vx_d, vp_d, vc_, vcls, vrl_d, va_d, 
+                            vb_de, vx_de, vdels, vdocs, vf_, vp_de, vtodo, 
+                            vkeepl, vmarked, ve, vp_p, vf_p, vver, vp_g, vf_g, 
+                            vx_g, vp_del, vf, vx_del, vp_delm, vp, vc_r, vrl, 
+                            va, vb, vx >>
 
 m7(self) == /\ pc[self] = "m7"
             /\ ev' = Ev(self, "truncate", P("cidref", vc_[self]), NoPath, "ok")
@@ -1639,13 +1751,14 @@ m7(self) == /\ pc[self] = "m7"
             /\ UNCHANGED << obj, pref, cref, doc, mark, keep, locked, waitq, 
                             woken, result, rdata, stack, vtb_, vid_, vtb, vid, 
                             vp_, vc_t, va_, vb_, vout, vmade, vrp, vrl_, vp_s, 
-                            vc_s, vx_, vc, vb_d, vx_d, vp_d, vc_, vcls, vrl, 
-                            va, vb, vx_de, vdels, vdocs, vf_, vp_de, vtodo, 
-                            vkeepl, vmarked, ve, vp_p, vf_p, vver, vp_g, vf_g, 
-                            vx_g, vp_del, vf, vx, vp >>
+                            vc_s, vx_, vc, vb_d, vx_d, vp_d, vc_, vcls, vrl_d, 
+                            va_d, vb_de, vx_de, vdels, vdocs, vf_, vp_de, 
+                            vtodo, vkeepl, vmarked, ve, vp_p, vf_p, vver, vp_g, 
+                            vf_g, vx_g, vp_del, vf, vx_del, vp_delm, vp, vc_r, 
+                            vrl, va, vb, vx >>
 
 m8(self) == /\ pc[self] = "m8"
-            /\ vb' = [vb EXCEPT ![self] = cref[vc_[self]].has /\ cref[vc_[self]].pids = <<>>]
+            /\ vb_de' = [vb_de EXCEPT ![self] = cref[vc_[self]].has /\ cref[vc_[self]].pids = <<>>]
             /\ ev' = Ev(self, "stat", P("cidref", vc_[self]), NoPath, StatCid(vc_[self]))
             /\ IF ~cref[vc_[self]].has
                   THEN /\ vcls' = [vcls EXCEPT ![self] = "ioerror"]
@@ -1655,22 +1768,24 @@ m8(self) == /\ pc[self] = "m8"
             /\ UNCHANGED << obj, pref, cref, doc, mark, keep, locked, waitq, 
                             woken, result, rdata, stack, vtb_, vid_, vtb, vid, 
                             vp_, vc_t, va_, vb_, vout, vmade, vrp, vrl_, vp_s, 
-                            vc_s, vx_, vc, vb_d, vx_d, vp_d, vc_, vrl, va, 
+                            vc_s, vx_, vc, vb_d, vx_d, vp_d, vc_, vrl_d, va_d, 
                             vx_de, vdels, vdocs, vf_, vp_de, vtodo, vkeepl, 
                             vmarked, ve, vp_p, vf_p, vver, vp_g, vf_g, vx_g, 
-                            vp_del, vf, vx, vp >>
+                            vp_del, vf, vx_del, vp_delm, vp, vc_r, vrl, va, vb, 
+                            vx >>
 
 m8b(self) == /\ pc[self] = "m8b"
-             /\ IF vb[self]
+             /\ IF vb_de[self]
                    THEN /\ pc' = [pc EXCEPT ![self] = "m9"]
                    ELSE /\ pc' = [pc EXCEPT ![self] = "m13"]
              /\ UNCHANGED << obj, pref, cref, doc, mark, keep, locked, waitq, 
                              woken, ev, result, rdata, stack, vtb_, vid_, vtb, 
                              vid, vp_, vc_t, va_, vb_, vout, vmade, vrp, vrl_, 
                              vp_s, vc_s, vx_, vc, vb_d, vx_d, vp_d, vc_, vcls, 
-                             vrl, va, vb, vx_de, vdels, vdocs, vf_, vp_de, 
-                             vtodo, vkeepl, vmarked, ve, vp_p, vf_p, vver, 
-                             vp_g, vf_g, vx_g, vp_del, vf, vx, vp >>
+                             vrl_d, va_d, vb_de, vx_de, vdels, vdocs, vf_, 
+                             vp_de, vtodo, vkeepl, vmarked, ve, vp_p, vf_p, 
+                             vver, vp_g, vf_g, vx_g, vp_del, vf, vx_del, 
+                             vp_delm, vp, vc_r, vrl, va, vb, vx >>
 
 m9(self) == /\ pc[self] = "m9"
             /\ ev' = Ev(self, "stat", P("cidrefdel", vc_[self]), NoPath, FN(P("cidrefdel", vc_[self]) \in mark))
@@ -1678,10 +1793,11 @@ m9(self) == /\ pc[self] = "m9"
             /\ UNCHANGED << obj, pref, cref, doc, mark, keep, locked, waitq, 
                             woken, result, rdata, stack, vtb_, vid_, vtb, vid, 
                             vp_, vc_t, va_, vb_, vout, vmade, vrp, vrl_, vp_s, 
-                            vc_s, vx_, vc, vb_d, vx_d, vp_d, vc_, vcls, vrl, 
-                            va, vb, vx_de, vdels, vdocs, vf_, vp_de, vtodo, 
-                            vkeepl, vmarked, ve, vp_p, vf_p, vver, vp_g, vf_g, 
-                            vx_g, vp_del, vf, vx, vp >>
+                            vc_s, vx_, vc, vb_d, vx_d, vp_d, vc_, vcls, vrl_d, 
+                            va_d, vb_de, vx_de, vdels, vdocs, vf_, vp_de, 
+                            vtodo, vkeepl, vmarked, ve, vp_p, vf_p, vver, vp_g, 
+                            vf_g, vx_g, vp_del, vf, vx_del, vp_delm, vp, vc_r, 
+                            vrl, va, vb, vx >>
 
 m10(self) == /\ pc[self] = "m10"
              /\ IF ~cref[vc_[self]].has
@@ -1699,10 +1815,10 @@ m10(self) == /\ pc[self] = "m10"
              /\ UNCHANGED << obj, pref, doc, locked, waitq, woken, result, 
                              rdata, stack, vtb_, vid_, vtb, vid, vp_, vc_t, 
                              va_, vb_, vout, vmade, vrp, vrl_, vp_s, vc_s, vx_, 
-                             vc, vb_d, vx_d, vp_d, vc_, vrl, va, vb, vx_de, 
-                             vdocs, vf_, vp_de, vtodo, vkeepl, vmarked, ve, 
-                             vp_p, vf_p, vver, vp_g, vf_g, vx_g, vp_del, vf, 
-                             vx, vp >>
+                             vc, vb_d, vx_d, vp_d, vc_, vrl_d, va_d, vb_de, 
+                             vx_de, vdocs, vf_, vp_de, vtodo, vkeepl, vmarked, 
+                             ve, vp_p, vf_p, vver, vp_g, vf_g, vx_g, vp_del, 
+                             vf, vx_del, vp_delm, vp, vc_r, vrl, va, vb, vx >>
 
 m11(self) == /\ pc[self] = "m11"
              /\ ev' = Ev(self, "stat", P("objdel", vc_[self]), NoPath, FN(P("objdel", vc_[self]) \in mark))
@@ -1710,10 +1826,11 @@ m11(self) == /\ pc[self] = "m11"
              /\ UNCHANGED << obj, pref, cref, doc, mark, keep, locked, waitq, 
                              woken, result, rdata, stack, vtb_, vid_, vtb, vid, 
                              vp_, vc_t, va_, vb_, vout, vmade, vrp, vrl_, vp_s, 
-                             vc_s, vx_, vc, vb_d, vx_d, vp_d, vc_, vcls, vrl, 
-                             va, vb, vx_de, vdels, vdocs, vf_, vp_de, vtodo, 
-                             vkeepl, vmarked, ve, vp_p, vf_p, vver, vp_g, vf_g, 
-                             vx_g, vp_del, vf, vx, vp >>
+                             vc_s, vx_, vc, vb_d, vx_d, vp_d, vc_, vcls, vrl_d, 
+                             va_d, vb_de, vx_de, vdels, vdocs, vf_, vp_de, 
+                             vtodo, vkeepl, vmarked, ve, vp_p, vf_p, vver, 
+                             vp_g, vf_g, vx_g, vp_del, vf, vx_del, vp_delm, vp, 
+                             vc_r, vrl, va, vb, vx >>
 
 m12(self) == /\ pc[self] = "m12"
              /\ IF obj[vc_[self]] # "ok"
@@ -1730,10 +1847,11 @@ m12(self) == /\ pc[self] = "m12"
              /\ UNCHANGED << pref, cref, doc, keep, locked, waitq, woken, 
                              result, rdata, stack, vtb_, vid_, vtb, vid, vp_, 
                              vc_t, va_, vb_, vout, vmade, vrp, vrl_, vp_s, 
-                             vc_s, vx_, vc, vb_d, vx_d, vp_d, vc_, vrl, va, vb, 
-                             vx_de, vdocs, vf_, vp_de, vtodo, vkeepl, vmarked, 
-                             ve, vp_p, vf_p, vver, vp_g, vf_g, vx_g, vp_del, 
-                             vf, vx, vp >>
+                             vc_s, vx_, vc, vb_d, vx_d, vp_d, vc_, vrl_d, va_d, 
+                             vb_de, vx_de, vdocs, vf_, vp_de, vtodo, vkeepl, 
+                             vmarked, ve, vp_p, vf_p, vver, vp_g, vf_g, vx_g, 
+                             vp_del, vf, vx_del, vp_delm, vp, vc_r, vrl, va, 
+                             vb, vx >>
 
 m13(self) == /\ pc[self] = "m13"
              /\ IF vdels[self] # {}
@@ -1747,10 +1865,11 @@ m13(self) == /\ pc[self] = "m13"
              /\ UNCHANGED << obj, pref, cref, doc, keep, locked, waitq, woken, 
                              result, rdata, stack, vtb_, vid_, vtb, vid, vp_, 
                              vc_t, va_, vb_, vout, vmade, vrp, vrl_, vp_s, 
-                             vc_s, vx_, vc, vb_d, vx_d, vp_d, vc_, vcls, vrl, 
-                             va, vb, vx_de, vdocs, vf_, vp_de, vtodo, vkeepl, 
-                             vmarked, ve, vp_p, vf_p, vver, vp_g, vf_g, vx_g, 
-                             vp_del, vf, vx, vp >>
+                             vc_s, vx_, vc, vb_d, vx_d, vp_d, vc_, vcls, vrl_d, 
+                             va_d, vb_de, vx_de, vdocs, vf_, vp_de, vtodo, 
+                             vkeepl, vmarked, ve, vp_p, vf_p, vver, vp_g, vf_g, 
+                             vx_g, vp_del, vf, vx_del, vp_delm, vp, vc_r, vrl, 
+                             va, vb, vx >>
 
 m14(self) == /\ pc[self] = "m14"
              /\ /\ stack' = [stack EXCEPT ![self] = << [ procedure |->  "delmeta_all",
@@ -1770,9 +1889,10 @@ m14(self) == /\ pc[self] = "m14"
              /\ UNCHANGED << obj, pref, cref, doc, mark, keep, locked, waitq, 
                              woken, ev, result, rdata, vtb_, vid_, vtb, vid, 
                              vp_, vc_t, va_, vb_, vout, vmade, vrp, vrl_, vp_s, 
-                             vc_s, vx_, vc, vb_d, vx_d, vp_d, vc_, vcls, vrl, 
-                             va, vb, vx_de, vdels, vdocs, vf_, vp_p, vf_p, 
-                             vver, vp_g, vf_g, vx_g, vp_del, vf, vx, vp >>
+                             vc_s, vx_, vc, vb_d, vx_d, vp_d, vc_, vcls, vrl_d, 
+                             va_d, vb_de, vx_de, vdels, vdocs, vf_, vp_p, vf_p, 
+                             vver, vp_g, vf_g, vx_g, vp_del, vf, vx_del, 
+                             vp_delm, vp, vc_r, vrl, va, vb, vx >>
 
 mrel(self) == /\ pc[self] = "mrel"
               /\ /\ stack' = [stack EXCEPT ![self] = << [ procedure |->  "release",
@@ -1786,10 +1906,11 @@ mrel(self) == /\ pc[self] = "mrel"
               /\ UNCHANGED << obj, pref, cref, doc, mark, keep, locked, waitq, 
                               woken, ev, result, rdata, vtb_, vid_, vp_, vc_t, 
                               va_, vb_, vout, vmade, vrp, vrl_, vp_s, vc_s, 
-                              vx_, vc, vb_d, vx_d, vp_d, vc_, vcls, vrl, va, 
-                              vb, vx_de, vdels, vdocs, vf_, vp_de, vtodo, 
-                              vkeepl, vmarked, ve, vp_p, vf_p, vver, vp_g, 
-                              vf_g, vx_g, vp_del, vf, vx, vp >>
+                              vx_, vc, vb_d, vx_d, vp_d, vc_, vcls, vrl_d, 
+                              va_d, vb_de, vx_de, vdels, vdocs, vf_, vp_de, 
+                              vtodo, vkeepl, vmarked, ve, vp_p, vf_p, vver, 
+                              vp_g, vf_g, vx_g, vp_del, vf, vx_del, vp_delm, 
+                              vp, vc_r, vrl, va, vb, vx >>
 
 orphan(self) == /\ pc[self] = "orphan"
                 /\ ev' = Ev(self, "stat", P("pidrefdel", vp_d[self]), NoPath, FN(P("pidrefdel", vp_d[self]) \in mark))
@@ -1798,10 +1919,11 @@ orphan(self) == /\ pc[self] = "orphan"
                                 waitq, woken, result, rdata, stack, vtb_, vid_, 
                                 vtb, vid, vp_, vc_t, va_, vb_, vout, vmade, 
                                 vrp, vrl_, vp_s, vc_s, vx_, vc, vb_d, vx_d, 
-                                vp_d, vc_, vcls, vrl, va, vb, vx_de, vdels, 
-                                vdocs, vf_, vp_de, vtodo, vkeepl, vmarked, ve, 
-                                vp_p, vf_p, vver, vp_g, vf_g, vx_g, vp_del, vf, 
-                                vx, vp >>
+                                vp_d, vc_, vcls, vrl_d, va_d, vb_de, vx_de, 
+                                vdels, vdocs, vf_, vp_de, vtodo, vkeepl, 
+                                vmarked, ve, vp_p, vf_p, vver, vp_g, vf_g, 
+                                vx_g, vp_del, vf, vx_del, vp_delm, vp, vc_r, 
+                                vrl, va, vb, vx >>
 
 o2(self) == /\ pc[self] = "o2"
             /\ IF pref[vp_d[self]] = None
@@ -1817,10 +1939,10 @@ o2(self) == /\ pc[self] = "o2"
             /\ UNCHANGED << obj, cref, doc, keep, locked, waitq, woken, result, 
                             rdata, stack, vtb_, vid_, vtb, vid, vp_, vc_t, va_, 
                             vb_, vout, vmade, vrp, vrl_, vp_s, vc_s, vx_, vc, 
-                            vb_d, vx_d, vp_d, vc_, vrl, va, vb, vx_de, vdels, 
-                            vdocs, vf_, vp_de, vtodo, vkeepl, vmarked, ve, 
-                            vp_p, vf_p, vver, vp_g, vf_g, vx_g, vp_del, vf, vx, 
-                            vp >>
+                            vb_d, vx_d, vp_d, vc_, vrl_d, va_d, vb_de, vx_de, 
+                            vdels, vdocs, vf_, vp_de, vtodo, vkeepl, vmarked, 
+                            ve, vp_p, vf_p, vver, vp_g, vf_g, vx_g, vp_del, vf, 
+                            vx_del, vp_delm, vp, vc_r, vrl, va, vb, vx >>
 
 o3(self) == /\ pc[self] = "o3"
             /\ /\ stack' = [stack EXCEPT ![self] = << [ procedure |->  "delmeta_all",
@@ -1840,9 +1962,10 @@ o3(self) == /\ pc[self] = "o3"
             /\ UNCHANGED << obj, pref, cref, doc, mark, keep, locked, waitq, 
                             woken, ev, result, rdata, vtb_, vid_, vtb, vid, 
                             vp_, vc_t, va_, vb_, vout, vmade, vrp, vrl_, vp_s, 
-                            vc_s, vx_, vc, vb_d, vx_d, vp_d, vc_, vcls, vrl, 
-                            va, vb, vx_de, vdels, vdocs, vf_, vp_p, vf_p, vver, 
-                            vp_g, vf_g, vx_g, vp_del, vf, vx, vp >>
+                            vc_s, vx_, vc, vb_d, vx_d, vp_d, vc_, vcls, vrl_d, 
+                            va_d, vb_de, vx_de, vdels, vdocs, vf_, vp_p, vf_p, 
+                            vver, vp_g, vf_g, vx_g, vp_del, vf, vx_del, 
+                            vp_delm, vp, vc_r, vrl, va, vb, vx >>
 
 o4(self) == /\ pc[self] = "o4"
             /\ mark' = mark \ {P("pidrefdel", vp_d[self])}
@@ -1851,10 +1974,11 @@ o4(self) == /\ pc[self] = "o4"
             /\ UNCHANGED << obj, pref, cref, doc, keep, locked, waitq, woken, 
                             result, rdata, stack, vtb_, vid_, vtb, vid, vp_, 
                             vc_t, va_, vb_, vout, vmade, vrp, vrl_, vp_s, vc_s, 
-                            vx_, vc, vb_d, vx_d, vp_d, vc_, vcls, vrl, va, vb, 
-                            vx_de, vdels, vdocs, vf_, vp_de, vtodo, vkeepl, 
-                            vmarked, ve, vp_p, vf_p, vver, vp_g, vf_g, vx_g, 
-                            vp_del, vf, vx, vp >>
+                            vx_, vc, vb_d, vx_d, vp_d, vc_, vcls, vrl_d, va_d, 
+                            vb_de, vx_de, vdels, vdocs, vf_, vp_de, vtodo, 
+                            vkeepl, vmarked, ve, vp_p, vf_p, vver, vp_g, vf_g, 
+                            vx_g, vp_del, vf, vx_del, vp_delm, vp, vc_r, vrl, 
+                            va, vb, vx >>
 
 missing(self) == /\ pc[self] = "missing"
                  /\ ev' = Ev(self, "stat", P("obj", vc_[self]), NoPath, FN(obj[vc_[self]] = "ok"))
@@ -1863,10 +1987,11 @@ missing(self) == /\ pc[self] = "missing"
                                  waitq, woken, result, rdata, stack, vtb_, 
                                  vid_, vtb, vid, vp_, vc_t, va_, vb_, vout, 
                                  vmade, vrp, vrl_, vp_s, vc_s, vx_, vc, vb_d, 
-                                 vx_d, vp_d, vc_, vcls, vrl, va, vb, vx_de, 
-                                 vdels, vdocs, vf_, vp_de, vtodo, vkeepl, 
-                                 vmarked, ve, vp_p, vf_p, vver, vp_g, vf_g, 
-                                 vx_g, vp_del, vf, vx, vp >>
+                                 vx_d, vp_d, vc_, vcls, vrl_d, va_d, vb_de, 
+                                 vx_de, vdels, vdocs, vf_, vp_de, vtodo, 
+                                 vkeepl, vmarked, ve, vp_p, vf_p, vver, vp_g, 
+                                 vf_g, vx_g, vp_del, vf, vx_del, vp_delm, vp, 
+                                 vc_r, vrl, va, vb, vx >>
 
 x1(self) == /\ pc[self] = "x1"
             /\ IF pref[vp_d[self]] = None
@@ -1881,10 +2006,11 @@ x1(self) == /\ pc[self] = "x1"
             /\ UNCHANGED << obj, pref, cref, doc, mark, keep, locked, waitq, 
                             woken, result, rdata, stack, vtb_, vid_, vtb, vid, 
                             vp_, vc_t, va_, vb_, vout, vmade, vrp, vrl_, vp_s, 
-                            vc_s, vx_, vc, vb_d, vx_d, vp_d, vrl, va, vb, 
-                            vx_de, vdels, vdocs, vf_, vp_de, vtodo, vkeepl, 
-                            vmarked, ve, vp_p, vf_p, vver, vp_g, vf_g, vx_g, 
-                            vp_del, vf, vx, vp >>
+                            vc_s, vx_, vc, vb_d, vx_d, vp_d, vrl_d, va_d, 
+                            vb_de, vx_de, vdels, vdocs, vf_, vp_de, vtodo, 
+                            vkeepl, vmarked, ve, vp_p, vf_p, vver, vp_g, vf_g, 
+                            vx_g, vp_del, vf, vx_del, vp_delm, vp, vc_r, vrl, 
+                            va, vb, vx >>
 
 x2(self) == /\ pc[self] = "x2"
             /\ ev' = Ev(self, "stat", P("pidrefdel", vp_d[self]), NoPath, FN(P("pidrefdel", vp_d[self]) \in mark))
@@ -1892,10 +2018,11 @@ x2(self) == /\ pc[self] = "x2"
             /\ UNCHANGED << obj, pref, cref, doc, mark, keep, locked, waitq, 
                             woken, result, rdata, stack, vtb_, vid_, vtb, vid, 
                             vp_, vc_t, va_, vb_, vout, vmade, vrp, vrl_, vp_s, 
-                            vc_s, vx_, vc, vb_d, vx_d, vp_d, vc_, vcls, vrl, 
-                            va, vb, vx_de, vdels, vdocs, vf_, vp_de, vtodo, 
-                            vkeepl, vmarked, ve, vp_p, vf_p, vver, vp_g, vf_g, 
-                            vx_g, vp_del, vf, vx, vp >>
+                            vc_s, vx_, vc, vb_d, vx_d, vp_d, vc_, vcls, vrl_d, 
+                            va_d, vb_de, vx_de, vdels, vdocs, vf_, vp_de, 
+                            vtodo, vkeepl, vmarked, ve, vp_p, vf_p, vver, vp_g, 
+                            vf_g, vx_g, vp_del, vf, vx_del, vp_delm, vp, vc_r, 
+                            vrl, va, vb, vx >>
 
 x3(self) == /\ pc[self] = "x3"
             /\ IF pref[vp_d[self]] = None
@@ -1911,10 +2038,10 @@ x3(self) == /\ pc[self] = "x3"
             /\ UNCHANGED << obj, cref, doc, keep, locked, waitq, woken, result, 
                             rdata, stack, vtb_, vid_, vtb, vid, vp_, vc_t, va_, 
                             vb_, vout, vmade, vrp, vrl_, vp_s, vc_s, vx_, vc, 
-                            vb_d, vx_d, vp_d, vc_, vrl, va, vb, vx_de, vdels, 
-                            vdocs, vf_, vp_de, vtodo, vkeepl, vmarked, ve, 
-                            vp_p, vf_p, vver, vp_g, vf_g, vx_g, vp_del, vf, vx, 
-                            vp >>
+                            vb_d, vx_d, vp_d, vc_, vrl_d, va_d, vb_de, vx_de, 
+                            vdels, vdocs, vf_, vp_de, vtodo, vkeepl, vmarked, 
+                            ve, vp_p, vf_p, vver, vp_g, vf_g, vx_g, vp_del, vf, 
+                            vx_del, vp_delm, vp, vc_r, vrl, va, vb, vx >>
 
 x4(self) == /\ pc[self] = "x4"
             /\ /\ stack' = [stack EXCEPT ![self] = << [ procedure |->  "claim",
@@ -1928,77 +2055,82 @@ x4(self) == /\ pc[self] = "x4"
             /\ UNCHANGED << obj, pref, cref, doc, mark, keep, locked, waitq, 
                             woken, ev, result, rdata, vtb, vid, vp_, vc_t, va_, 
                             vb_, vout, vmade, vrp, vrl_, vp_s, vc_s, vx_, vc, 
-                            vb_d, vx_d, vp_d, vc_, vcls, vrl, va, vb, vx_de, 
-                            vdels, vdocs, vf_, vp_de, vtodo, vkeepl, vmarked, 
-                            ve, vp_p, vf_p, vver, vp_g, vf_g, vx_g, vp_del, vf, 
-                            vx, vp >>
+                            vb_d, vx_d, vp_d, vc_, vcls, vrl_d, va_d, vb_de, 
+                            vx_de, vdels, vdocs, vf_, vp_de, vtodo, vkeepl, 
+                            vmarked, ve, vp_p, vf_p, vver, vp_g, vf_g, vx_g, 
+                            vp_del, vf, vx_del, vp_delm, vp, vc_r, vrl, va, vb, 
+                            vx >>
 
 x5(self) == /\ pc[self] = "x5"
             /\ IF ~cref[vc_[self]].has
                   THEN /\ ev' = Ev(self, "read", P("cidref", vc_[self]), NoPath, "!fnf")
                        /\ vcls' = [vcls EXCEPT ![self] = "ioerror"]
                        /\ pc' = [pc EXCEPT ![self] = "xrel"]
-                       /\ vrl' = vrl
-                  ELSE /\ vrl' = [vrl EXCEPT ![self] = cref[vc_[self]].pids]
-                       /\ ev' = EvV(self, "read", P("cidref", vc_[self]), NoPath, "ok", vrl'[self])
+                       /\ vrl_d' = vrl_d
+                  ELSE /\ vrl_d' = [vrl_d EXCEPT ![self] = cref[vc_[self]].pids]
+                       /\ ev' = EvV(self, "read", P("cidref", vc_[self]), NoPath, "ok", vrl_d'[self])
                        /\ pc' = [pc EXCEPT ![self] = "x6"]
                        /\ vcls' = vcls
             /\ UNCHANGED << obj, pref, cref, doc, mark, keep, locked, waitq, 
                             woken, result, rdata, stack, vtb_, vid_, vtb, vid, 
                             vp_, vc_t, va_, vb_, vout, vmade, vrp, vrl_, vp_s, 
-                            vc_s, vx_, vc, vb_d, vx_d, vp_d, vc_, va, vb, 
+                            vc_s, vx_, vc, vb_d, vx_d, vp_d, vc_, va_d, vb_de, 
                             vx_de, vdels, vdocs, vf_, vp_de, vtodo, vkeepl, 
                             vmarked, ve, vp_p, vf_p, vver, vp_g, vf_g, vx_g, 
-                            vp_del, vf, vx, vp >>
+                            vp_del, vf, vx_del, vp_delm, vp, vc_r, vrl, va, vb, 
+                            vx >>
 
 x6(self) == /\ pc[self] = "x6"
-            /\ IF InSeq(vp_d[self], vrl[self])
-                  THEN /\ vb' = [vb EXCEPT ![self] = cref[vc_[self]].has]
+            /\ IF InSeq(vp_d[self], vrl_d[self])
+                  THEN /\ vb_de' = [vb_de EXCEPT ![self] = cref[vc_[self]].has]
                        /\ ev' = Ev(self, "stat", P("cidref", vc_[self]), NoPath, StatCid(vc_[self]))
-                       /\ IF ~vb'[self]
+                       /\ IF ~vb_de'[self]
                              THEN /\ vcls' = [vcls EXCEPT ![self] = "ioerror"]
                                   /\ pc' = [pc EXCEPT ![self] = "xrel"]
                              ELSE /\ pc' = [pc EXCEPT ![self] = "x7"]
                                   /\ vcls' = vcls
                   ELSE /\ pc' = [pc EXCEPT ![self] = "x10"]
-                       /\ UNCHANGED << ev, vcls, vb >>
+                       /\ UNCHANGED << ev, vcls, vb_de >>
             /\ UNCHANGED << obj, pref, cref, doc, mark, keep, locked, waitq, 
                             woken, result, rdata, stack, vtb_, vid_, vtb, vid, 
                             vp_, vc_t, va_, vb_, vout, vmade, vrp, vrl_, vp_s, 
-                            vc_s, vx_, vc, vb_d, vx_d, vp_d, vc_, vrl, va, 
+                            vc_s, vx_, vc, vb_d, vx_d, vp_d, vc_, vrl_d, va_d, 
                             vx_de, vdels, vdocs, vf_, vp_de, vtodo, vkeepl, 
                             vmarked, ve, vp_p, vf_p, vver, vp_g, vf_g, vx_g, 
-                            vp_del, vf, vx, vp >>
+                            vp_del, vf, vx_del, vp_delm, vp, vc_r, vrl, va, vb, 
+                            vx >>
 
 x7(self) == /\ pc[self] = "x7"
             /\ IF ~cref[vc_[self]].has
                   THEN /\ ev' = Ev(self, "openrw", P("cidref", vc_[self]), NoPath, "!fnf")
                        /\ vcls' = [vcls EXCEPT ![self] = "ioerror"]
                        /\ pc' = [pc EXCEPT ![self] = "xrel"]
-                       /\ vrl' = vrl
-                  ELSE /\ vrl' = [vrl EXCEPT ![self] = cref[vc_[self]].pids]
-                       /\ ev' = EvV(self, "openrw", P("cidref", vc_[self]), NoPath, "ok", vrl'[self])
+                       /\ vrl_d' = vrl_d
+                  ELSE /\ vrl_d' = [vrl_d EXCEPT ![self] = cref[vc_[self]].pids]
+                       /\ ev' = EvV(self, "openrw", P("cidref", vc_[self]), NoPath, "ok", vrl_d'[self])
                        /\ pc' = [pc EXCEPT ![self] = "x8"]
                        /\ vcls' = vcls
             /\ UNCHANGED << obj, pref, cref, doc, mark, keep, locked, waitq, 
                             woken, result, rdata, stack, vtb_, vid_, vtb, vid, 
                             vp_, vc_t, va_, vb_, vout, vmade, vrp, vrl_, vp_s, 
-                            vc_s, vx_, vc, vb_d, vx_d, vp_d, vc_, va, vb, 
+                            vc_s, vx_, vc, vb_d, vx_d, vp_d, vc_, va_d, vb_de, 
                             vx_de, vdels, vdocs, vf_, vp_de, vtodo, vkeepl, 
                             vmarked, ve, vp_p, vf_p, vver, vp_g, vf_g, vx_g, 
-                            vp_del, vf, vx, vp >>
+                            vp_del, vf, vx_del, vp_delm, vp, vc_r, vrl, va, vb, 
+                            vx >>
 
 x8(self) == /\ pc[self] = "x8"
-            /\ cref' = [cref EXCEPT ![vc_[self]] = List(Without(vrl[self], vp_d[self]))]
+            /\ cref' = [cref EXCEPT ![vc_[self]] = List(Without(vrl_d[self], vp_d[self]))]
             /\ ev' = Ev(self, "rewrite", P("cidref", vc_[self]), NoPath, "ok")
             /\ pc' = [pc EXCEPT ![self] = "x9"]
             /\ UNCHANGED << obj, pref, doc, mark, keep, locked, waitq, woken, 
                             result, rdata, stack, vtb_, vid_, vtb, vid, vp_, 
                             vc_t, va_, vb_, vout, vmade, vrp, vrl_, vp_s, vc_s, 
-                            vx_, vc, vb_d, vx_d, vp_d, vc_, vcls, vrl, va, vb, 
-                            vx_de, vdels, vdocs, vf_, vp_de, vtodo, vkeepl, 
-                            vmarked, ve, vp_p, vf_p, vver, vp_g, vf_g, vx_g, 
-                            vp_del, vf, vx, vp >>
+                            vx_, vc, vb_d, vx_d, vp_d, vc_, vcls, vrl_d, va_d, 
+                            vb_de, vx_de, vdels, vdocs, vf_, vp_de, vtodo, 
+                            vkeepl, vmarked, ve, vp_p, vf_p, vver, vp_g, vf_g, 
+                            vx_g, vp_del, vf, vx_del, vp_delm, vp, vc_r, vrl, 
+                            va, vb, vx >>
 
 x9(self) == /\ pc[self] = "x9"
             /\ ev' = Ev(self, "truncate", P("cidref", vc_[self]), NoPath, "ok")
@@ -2006,13 +2138,14 @@ x9(self) == /\ pc[self] = "x9"
             /\ UNCHANGED << obj, pref, cref, doc, mark, keep, locked, waitq, 
                             woken, result, rdata, stack, vtb_, vid_, vtb, vid, 
                             vp_, vc_t, va_, vb_, vout, vmade, vrp, vrl_, vp_s, 
-                            vc_s, vx_, vc, vb_d, vx_d, vp_d, vc_, vcls, vrl, 
-                            va, vb, vx_de, vdels, vdocs, vf_, vp_de, vtodo, 
-                            vkeepl, vmarked, ve, vp_p, vf_p, vver, vp_g, vf_g, 
-                            vx_g, vp_del, vf, vx, vp >>
+                            vc_s, vx_, vc, vb_d, vx_d, vp_d, vc_, vcls, vrl_d, 
+                            va_d, vb_de, vx_de, vdels, vdocs, vf_, vp_de, 
+                            vtodo, vkeepl, vmarked, ve, vp_p, vf_p, vver, vp_g, 
+                            vf_g, vx_g, vp_del, vf, vx_del, vp_delm, vp, vc_r, 
+                            vrl, va, vb, vx >>
 
 x10(self) == /\ pc[self] = "x10"
-             /\ vb' = [vb EXCEPT ![self] = cref[vc_[self]].has /\ cref[vc_[self]].pids = <<>>]
+             /\ vb_de' = [vb_de EXCEPT ![self] = cref[vc_[self]].has /\ cref[vc_[self]].pids = <<>>]
              /\ ev' = Ev(self, "stat", P("cidref", vc_[self]), NoPath, StatCid(vc_[self]))
              /\ IF ~cref[vc_[self]].has
                    THEN /\ vcls' = [vcls EXCEPT ![self] = "ioerror"]
@@ -2022,22 +2155,24 @@ x10(self) == /\ pc[self] = "x10"
              /\ UNCHANGED << obj, pref, cref, doc, mark, keep, locked, waitq, 
                              woken, result, rdata, stack, vtb_, vid_, vtb, vid, 
                              vp_, vc_t, va_, vb_, vout, vmade, vrp, vrl_, vp_s, 
-                             vc_s, vx_, vc, vb_d, vx_d, vp_d, vc_, vrl, va, 
+                             vc_s, vx_, vc, vb_d, vx_d, vp_d, vc_, vrl_d, va_d, 
                              vx_de, vdels, vdocs, vf_, vp_de, vtodo, vkeepl, 
                              vmarked, ve, vp_p, vf_p, vver, vp_g, vf_g, vx_g, 
-                             vp_del, vf, vx, vp >>
+                             vp_del, vf, vx_del, vp_delm, vp, vc_r, vrl, va, 
+                             vb, vx >>
 
 x10b(self) == /\ pc[self] = "x10b"
-              /\ IF vb[self]
+              /\ IF vb_de[self]
                     THEN /\ pc' = [pc EXCEPT ![self] = "x11"]
                     ELSE /\ pc' = [pc EXCEPT ![self] = "xrel"]
               /\ UNCHANGED << obj, pref, cref, doc, mark, keep, locked, waitq, 
                               woken, ev, result, rdata, stack, vtb_, vid_, vtb, 
                               vid, vp_, vc_t, va_, vb_, vout, vmade, vrp, vrl_, 
                               vp_s, vc_s, vx_, vc, vb_d, vx_d, vp_d, vc_, vcls, 
-                              vrl, va, vb, vx_de, vdels, vdocs, vf_, vp_de, 
-                              vtodo, vkeepl, vmarked, ve, vp_p, vf_p, vver, 
-                              vp_g, vf_g, vx_g, vp_del, vf, vx, vp >>
+                              vrl_d, va_d, vb_de, vx_de, vdels, vdocs, vf_, 
+                              vp_de, vtodo, vkeepl, vmarked, ve, vp_p, vf_p, 
+                              vver, vp_g, vf_g, vx_g, vp_del, vf, vx_del, 
+                              vp_delm, vp, vc_r, vrl, va, vb, vx >>
 
 x11(self) == /\ pc[self] = "x11"
              /\ ev' = Ev(self, "stat", P("cidrefdel", vc_[self]), NoPath, FN(P("cidrefdel", vc_[self]) \in mark))
@@ -2045,10 +2180,11 @@ x11(self) == /\ pc[self] = "x11"
              /\ UNCHANGED << obj, pref, cref, doc, mark, keep, locked, waitq, 
                              woken, result, rdata, stack, vtb_, vid_, vtb, vid, 
                              vp_, vc_t, va_, vb_, vout, vmade, vrp, vrl_, vp_s, 
-                             vc_s, vx_, vc, vb_d, vx_d, vp_d, vc_, vcls, vrl, 
-                             va, vb, vx_de, vdels, vdocs, vf_, vp_de, vtodo, 
-                             vkeepl, vmarked, ve, vp_p, vf_p, vver, vp_g, vf_g, 
-                             vx_g, vp_del, vf, vx, vp >>
+                             vc_s, vx_, vc, vb_d, vx_d, vp_d, vc_, vcls, vrl_d, 
+                             va_d, vb_de, vx_de, vdels, vdocs, vf_, vp_de, 
+                             vtodo, vkeepl, vmarked, ve, vp_p, vf_p, vver, 
+                             vp_g, vf_g, vx_g, vp_del, vf, vx_del, vp_delm, vp, 
+                             vc_r, vrl, va, vb, vx >>
 
 x12(self) == /\ pc[self] = "x12"
              /\ IF ~cref[vc_[self]].has
@@ -2064,10 +2200,11 @@ x12(self) == /\ pc[self] = "x12"
              /\ UNCHANGED << obj, pref, doc, keep, locked, waitq, woken, 
                              result, rdata, stack, vtb_, vid_, vtb, vid, vp_, 
                              vc_t, va_, vb_, vout, vmade, vrp, vrl_, vp_s, 
-                             vc_s, vx_, vc, vb_d, vx_d, vp_d, vc_, vrl, va, vb, 
-                             vx_de, vdels, vdocs, vf_, vp_de, vtodo, vkeepl, 
-                             vmarked, ve, vp_p, vf_p, vver, vp_g, vf_g, vx_g, 
-                             vp_del, vf, vx, vp >>
+                             vc_s, vx_, vc, vb_d, vx_d, vp_d, vc_, vrl_d, va_d, 
+                             vb_de, vx_de, vdels, vdocs, vf_, vp_de, vtodo, 
+                             vkeepl, vmarked, ve, vp_p, vf_p, vver, vp_g, vf_g, 
+                             vx_g, vp_del, vf, vx_del, vp_delm, vp, vc_r, vrl, 
+                             va, vb, vx >>
 
 xrel(self) == /\ pc[self] = "xrel"
               /\ /\ stack' = [stack EXCEPT ![self] = << [ procedure |->  "release",
@@ -2081,10 +2218,11 @@ xrel(self) == /\ pc[self] = "xrel"
               /\ UNCHANGED << obj, pref, cref, doc, mark, keep, locked, waitq, 
                               woken, ev, result, rdata, vtb_, vid_, vp_, vc_t, 
                               va_, vb_, vout, vmade, vrp, vrl_, vp_s, vc_s, 
-                              vx_, vc, vb_d, vx_d, vp_d, vc_, vcls, vrl, va, 
-                              vb, vx_de, vdels, vdocs, vf_, vp_de, vtodo, 
-                              vkeepl, vmarked, ve, vp_p, vf_p, vver, vp_g, 
-                              vf_g, vx_g, vp_del, vf, vx, vp >>
+                              vx_, vc, vb_d, vx_d, vp_d, vc_, vcls, vrl_d, 
+                              va_d, vb_de, vx_de, vdels, vdocs, vf_, vp_de, 
+                              vtodo, vkeepl, vmarked, ve, vp_p, vf_p, vver, 
+                              vp_g, vf_g, vx_g, vp_del, vf, vx_del, vp_delm, 
+                              vp, vc_r, vrl, va, vb, vx >>
 
 x13(self) == /\ pc[self] = "x13"
              /\ IF vcls[self] = "ioerror"
@@ -2094,9 +2232,10 @@ x13(self) == /\ pc[self] = "x13"
                              woken, ev, result, rdata, stack, vtb_, vid_, vtb, 
                              vid, vp_, vc_t, va_, vb_, vout, vmade, vrp, vrl_, 
                              vp_s, vc_s, vx_, vc, vb_d, vx_d, vp_d, vc_, vcls, 
-                             vrl, va, vb, vx_de, vdels, vdocs, vf_, vp_de, 
-                             vtodo, vkeepl, vmarked, ve, vp_p, vf_p, vver, 
-                             vp_g, vf_g, vx_g, vp_del, vf, vx, vp >>
+                             vrl_d, va_d, vb_de, vx_de, vdels, vdocs, vf_, 
+                             vp_de, vtodo, vkeepl, vmarked, ve, vp_p, vf_p, 
+                             vver, vp_g, vf_g, vx_g, vp_del, vf, vx_del, 
+                             vp_delm, vp, vc_r, vrl, va, vb, vx >>
 
 x14(self) == /\ pc[self] = "x14"
              /\ /\ stack' = [stack EXCEPT ![self] = << [ procedure |->  "delmeta_all",
@@ -2116,9 +2255,10 @@ x14(self) == /\ pc[self] = "x14"
              /\ UNCHANGED << obj, pref, cref, doc, mark, keep, locked, waitq, 
                              woken, ev, result, rdata, vtb_, vid_, vtb, vid, 
                              vp_, vc_t, va_, vb_, vout, vmade, vrp, vrl_, vp_s, 
-                             vc_s, vx_, vc, vb_d, vx_d, vp_d, vc_, vcls, vrl, 
-                             va, vb, vx_de, vdels, vdocs, vf_, vp_p, vf_p, 
-                             vver, vp_g, vf_g, vx_g, vp_del, vf, vx, vp >>
+                             vc_s, vx_, vc, vb_d, vx_d, vp_d, vc_, vcls, vrl_d, 
+                             va_d, vb_de, vx_de, vdels, vdocs, vf_, vp_p, vf_p, 
+                             vver, vp_g, vf_g, vx_g, vp_del, vf, vx_del, 
+                             vp_delm, vp, vc_r, vrl, va, vb, vx >>
 
 x15(self) == /\ pc[self] = "x15"
              /\ mark' = mark \ {P("pidrefdel", vp_d[self])}
@@ -2127,10 +2267,11 @@ x15(self) == /\ pc[self] = "x15"
              /\ UNCHANGED << obj, pref, cref, doc, keep, locked, waitq, woken, 
                              result, rdata, stack, vtb_, vid_, vtb, vid, vp_, 
                              vc_t, va_, vb_, vout, vmade, vrp, vrl_, vp_s, 
-                             vc_s, vx_, vc, vb_d, vx_d, vp_d, vc_, vcls, vrl, 
-                             va, vb, vx_de, vdels, vdocs, vf_, vp_de, vtodo, 
-                             vkeepl, vmarked, ve, vp_p, vf_p, vver, vp_g, vf_g, 
-                             vx_g, vp_del, vf, vx, vp >>
+                             vc_s, vx_, vc, vb_d, vx_d, vp_d, vc_, vcls, vrl_d, 
+                             va_d, vb_de, vx_de, vdels, vdocs, vf_, vp_de, 
+                             vtodo, vkeepl, vmarked, ve, vp_p, vf_p, vver, 
+                             vp_g, vf_g, vx_g, vp_del, vf, vx_del, vp_delm, vp, 
+                             vc_r, vrl, va, vb, vx >>
 
 x16(self) == /\ pc[self] = "x16"
              /\ IF P("cidrefdel", vc_[self]) \in mark
@@ -2142,10 +2283,11 @@ x16(self) == /\ pc[self] = "x16"
              /\ UNCHANGED << obj, pref, cref, doc, keep, locked, waitq, woken, 
                              result, rdata, stack, vtb_, vid_, vtb, vid, vp_, 
                              vc_t, va_, vb_, vout, vmade, vrp, vrl_, vp_s, 
-                             vc_s, vx_, vc, vb_d, vx_d, vp_d, vc_, vcls, vrl, 
-                             va, vb, vx_de, vdels, vdocs, vf_, vp_de, vtodo, 
-                             vkeepl, vmarked, ve, vp_p, vf_p, vver, vp_g, vf_g, 
-                             vx_g, vp_del, vf, vx, vp >>
+                             vc_s, vx_, vc, vb_d, vx_d, vp_d, vc_, vcls, vrl_d, 
+                             va_d, vb_de, vx_de, vdels, vdocs, vf_, vp_de, 
+                             vtodo, vkeepl, vmarked, ve, vp_p, vf_p, vver, 
+                             vp_g, vf_g, vx_g, vp_del, vf, vx_del, vp_delm, vp, 
+                             vc_r, vrl, va, vb, vx >>
 
 dfin(self) == /\ pc[self] = "dfin"
               /\ /\ stack' = [stack EXCEPT ![self] = << [ procedure |->  "release",
@@ -2159,10 +2301,11 @@ dfin(self) == /\ pc[self] = "dfin"
               /\ UNCHANGED << obj, pref, cref, doc, mark, keep, locked, waitq, 
                               woken, ev, result, rdata, vtb_, vid_, vp_, vc_t, 
                               va_, vb_, vout, vmade, vrp, vrl_, vp_s, vc_s, 
-                              vx_, vc, vb_d, vx_d, vp_d, vc_, vcls, vrl, va, 
-                              vb, vx_de, vdels, vdocs, vf_, vp_de, vtodo, 
-                              vkeepl, vmarked, ve, vp_p, vf_p, vver, vp_g, 
-                              vf_g, vx_g, vp_del, vf, vx, vp >>
+                              vx_, vc, vb_d, vx_d, vp_d, vc_, vcls, vrl_d, 
+                              va_d, vb_de, vx_de, vdels, vdocs, vf_, vp_de, 
+                              vtodo, vkeepl, vmarked, ve, vp_p, vf_p, vver, 
+                              vp_g, vf_g, vx_g, vp_del, vf, vx_del, vp_delm, 
+                              vp, vc_r, vrl, va, vb, vx >>
 
 d8(self) == /\ pc[self] = "d8"
             /\ /\ stack' = [stack EXCEPT ![self] = << [ procedure |->  "release",
@@ -2176,19 +2319,20 @@ d8(self) == /\ pc[self] = "d8"
             /\ UNCHANGED << obj, pref, cref, doc, mark, keep, locked, waitq, 
                             woken, ev, result, rdata, vtb_, vid_, vp_, vc_t, 
                             va_, vb_, vout, vmade, vrp, vrl_, vp_s, vc_s, vx_, 
-                            vc, vb_d, vx_d, vp_d, vc_, vcls, vrl, va, vb, 
-                            vx_de, vdels, vdocs, vf_, vp_de, vtodo, vkeepl, 
-                            vmarked, ve, vp_p, vf_p, vver, vp_g, vf_g, vx_g, 
-                            vp_del, vf, vx, vp >>
+                            vc, vb_d, vx_d, vp_d, vc_, vcls, vrl_d, va_d, 
+                            vb_de, vx_de, vdels, vdocs, vf_, vp_de, vtodo, 
+                            vkeepl, vmarked, ve, vp_p, vf_p, vver, vp_g, vf_g, 
+                            vx_g, vp_del, vf, vx_del, vp_delm, vp, vc_r, vrl, 
+                            va, vb, vx >>
 
 d9(self) == /\ pc[self] = "d9"
             /\ result' = [result EXCEPT ![self] = IF vcls[self] \in {"found", "orphan", "notinlist", "objmissing"} THEN "ok" ELSE vcls[self]]
             /\ pc' = [pc EXCEPT ![self] = Head(stack[self]).pc]
             /\ vc_' = [vc_ EXCEPT ![self] = Head(stack[self]).vc_]
             /\ vcls' = [vcls EXCEPT ![self] = Head(stack[self]).vcls]
-            /\ vrl' = [vrl EXCEPT ![self] = Head(stack[self]).vrl]
-            /\ va' = [va EXCEPT ![self] = Head(stack[self]).va]
-            /\ vb' = [vb EXCEPT ![self] = Head(stack[self]).vb]
+            /\ vrl_d' = [vrl_d EXCEPT ![self] = Head(stack[self]).vrl_d]
+            /\ va_d' = [va_d EXCEPT ![self] = Head(stack[self]).va_d]
+            /\ vb_de' = [vb_de EXCEPT ![self] = Head(stack[self]).vb_de]
             /\ vx_de' = [vx_de EXCEPT ![self] = Head(stack[self]).vx_de]
             /\ vdels' = [vdels EXCEPT ![self] = Head(stack[self]).vdels]
             /\ vdocs' = [vdocs EXCEPT ![self] = Head(stack[self]).vdocs]
@@ -2199,8 +2343,8 @@ d9(self) == /\ pc[self] = "d9"
                             woken, ev, rdata, vtb_, vid_, vtb, vid, vp_, vc_t, 
                             va_, vb_, vout, vmade, vrp, vrl_, vp_s, vc_s, vx_, 
                             vc, vb_d, vx_d, vp_de, vtodo, vkeepl, vmarked, ve, 
-                            vp_p, vf_p, vver, vp_g, vf_g, vx_g, vp_del, vf, vx, 
-                            vp >>
+                            vp_p, vf_p, vver, vp_g, vf_g, vx_g, vp_del, vf, 
+                            vx_del, vp_delm, vp, vc_r, vrl, va, vb, vx >>
 
 delete(self) == d1(self) \/ d2(self) \/ f1(self) \/ f2(self) \/ f3(self)
                    \/ f4(self) \/ f5(self) \/ f6(self) \/ f7(self)
@@ -2225,9 +2369,10 @@ dm1(self) == /\ pc[self] = "dm1"
                              woken, ev, result, rdata, stack, vtb_, vid_, vtb, 
                              vid, vp_, vc_t, va_, vb_, vout, vmade, vrp, vrl_, 
                              vp_s, vc_s, vx_, vc, vb_d, vx_d, vp_d, vc_, vcls, 
-                             vrl, va, vb, vx_de, vdels, vdocs, vf_, vp_de, 
-                             vkeepl, vmarked, ve, vp_p, vf_p, vver, vp_g, vf_g, 
-                             vx_g, vp_del, vf, vx, vp >>
+                             vrl_d, va_d, vb_de, vx_de, vdels, vdocs, vf_, 
+                             vp_de, vkeepl, vmarked, ve, vp_p, vf_p, vver, 
+                             vp_g, vf_g, vx_g, vp_del, vf, vx_del, vp_delm, vp, 
+                             vc_r, vrl, va, vb, vx >>
 
 dm2(self) == /\ pc[self] = "dm2"
              /\ IF vtodo[self] # {}
@@ -2241,9 +2386,10 @@ dm2(self) == /\ pc[self] = "dm2"
                              woken, ev, result, rdata, stack, vtb_, vid_, vtb, 
                              vid, vp_, vc_t, va_, vb_, vout, vmade, vrp, vrl_, 
                              vp_s, vc_s, vx_, vc, vb_d, vx_d, vp_d, vc_, vcls, 
-                             vrl, va, vb, vx_de, vdels, vdocs, vf_, vp_de, 
-                             vkeepl, vmarked, vp_p, vf_p, vver, vp_g, vf_g, 
-                             vx_g, vp_del, vf, vx, vp >>
+                             vrl_d, va_d, vb_de, vx_de, vdels, vdocs, vf_, 
+                             vp_de, vkeepl, vmarked, vp_p, vf_p, vver, vp_g, 
+                             vf_g, vx_g, vp_del, vf, vx_del, vp_delm, vp, vc_r, 
+                             vrl, va, vb, vx >>
 
 dm3(self) == /\ pc[self] = "dm3"
              /\ IF Here(ve[self][1], vp_de[self], ve[self][2])
@@ -2255,10 +2401,11 @@ dm3(self) == /\ pc[self] = "dm3"
              /\ UNCHANGED << obj, pref, cref, doc, mark, keep, locked, waitq, 
                              woken, result, rdata, stack, vtb_, vid_, vtb, vid, 
                              vp_, vc_t, va_, vb_, vout, vmade, vrp, vrl_, vp_s, 
-                             vc_s, vx_, vc, vb_d, vx_d, vp_d, vc_, vcls, vrl, 
-                             va, vb, vx_de, vdels, vdocs, vf_, vp_de, vtodo, 
-                             vmarked, ve, vp_p, vf_p, vver, vp_g, vf_g, vx_g, 
-                             vp_del, vf, vx, vp >>
+                             vc_s, vx_, vc, vb_d, vx_d, vp_d, vc_, vcls, vrl_d, 
+                             va_d, vb_de, vx_de, vdels, vdocs, vf_, vp_de, 
+                             vtodo, vmarked, ve, vp_p, vf_p, vver, vp_g, vf_g, 
+                             vx_g, vp_del, vf, vx_del, vp_delm, vp, vc_r, vrl, 
+                             va, vb, vx >>
 
 dm4(self) == /\ pc[self] = "dm4"
              /\ IF vkeepl[self] # {}
@@ -2272,9 +2419,10 @@ dm4(self) == /\ pc[self] = "dm4"
                              woken, ev, result, rdata, stack, vtb_, vid_, vtb, 
                              vid, vp_, vc_t, va_, vb_, vout, vmade, vrp, vrl_, 
                              vp_s, vc_s, vx_, vc, vb_d, vx_d, vp_d, vc_, vcls, 
-                             vrl, va, vb, vx_de, vdels, vdocs, vf_, vp_de, 
-                             vtodo, vmarked, vp_p, vf_p, vver, vp_g, vf_g, 
-                             vx_g, vp_del, vf, vx, vp >>
+                             vrl_d, va_d, vb_de, vx_de, vdels, vdocs, vf_, 
+                             vp_de, vtodo, vmarked, vp_p, vf_p, vver, vp_g, 
+                             vf_g, vx_g, vp_del, vf, vx_del, vp_delm, vp, vc_r, 
+                             vrl, va, vb, vx >>
 
 dm5(self) == /\ pc[self] = "dm5"
              /\ /\ stack' = [stack EXCEPT ![self] = << [ procedure |->  "claim",
@@ -2288,10 +2436,11 @@ dm5(self) == /\ pc[self] = "dm5"
              /\ UNCHANGED << obj, pref, cref, doc, mark, keep, locked, waitq, 
                              woken, ev, result, rdata, vtb, vid, vp_, vc_t, 
                              va_, vb_, vout, vmade, vrp, vrl_, vp_s, vc_s, vx_, 
-                             vc, vb_d, vx_d, vp_d, vc_, vcls, vrl, va, vb, 
-                             vx_de, vdels, vdocs, vf_, vp_de, vtodo, vkeepl, 
-                             vmarked, ve, vp_p, vf_p, vver, vp_g, vf_g, vx_g, 
-                             vp_del, vf, vx, vp >>
+                             vc, vb_d, vx_d, vp_d, vc_, vcls, vrl_d, va_d, 
+                             vb_de, vx_de, vdels, vdocs, vf_, vp_de, vtodo, 
+                             vkeepl, vmarked, ve, vp_p, vf_p, vver, vp_g, vf_g, 
+                             vx_g, vp_del, vf, vx_del, vp_delm, vp, vc_r, vrl, 
+                             va, vb, vx >>
 
 dm6(self) == /\ pc[self] = "dm6"
              /\ ev' = Ev(self, "stat", P(NextKind(ve[self][1]), vp_de[self] \o "/" \o ve[self][2]), NoPath,
@@ -2300,10 +2449,11 @@ dm6(self) == /\ pc[self] = "dm6"
              /\ UNCHANGED << obj, pref, cref, doc, mark, keep, locked, waitq, 
                              woken, result, rdata, stack, vtb_, vid_, vtb, vid, 
                              vp_, vc_t, va_, vb_, vout, vmade, vrp, vrl_, vp_s, 
-                             vc_s, vx_, vc, vb_d, vx_d, vp_d, vc_, vcls, vrl, 
-                             va, vb, vx_de, vdels, vdocs, vf_, vp_de, vtodo, 
-                             vkeepl, vmarked, ve, vp_p, vf_p, vver, vp_g, vf_g, 
-                             vx_g, vp_del, vf, vx, vp >>
+                             vc_s, vx_, vc, vb_d, vx_d, vp_d, vc_, vcls, vrl_d, 
+                             va_d, vb_de, vx_de, vdels, vdocs, vf_, vp_de, 
+                             vtodo, vkeepl, vmarked, ve, vp_p, vf_p, vver, 
+                             vp_g, vf_g, vx_g, vp_del, vf, vx_del, vp_delm, vp, 
+                             vc_r, vrl, va, vb, vx >>
 
 dm7(self) == /\ pc[self] = "dm7"
              /\ IF Here(ve[self][1], vp_de[self], ve[self][2])
@@ -2320,10 +2470,11 @@ dm7(self) == /\ pc[self] = "dm7"
              /\ UNCHANGED << obj, pref, cref, keep, locked, waitq, woken, 
                              result, rdata, stack, vtb_, vid_, vtb, vid, vp_, 
                              vc_t, va_, vb_, vout, vmade, vrp, vrl_, vp_s, 
-                             vc_s, vx_, vc, vb_d, vx_d, vp_d, vc_, vcls, vrl, 
-                             va, vb, vx_de, vdels, vdocs, vf_, vp_de, vtodo, 
-                             vkeepl, vmarked, ve, vp_p, vf_p, vver, vp_g, vf_g, 
-                             vx_g, vp_del, vf, vx, vp >>
+                             vc_s, vx_, vc, vb_d, vx_d, vp_d, vc_, vcls, vrl_d, 
+                             va_d, vb_de, vx_de, vdels, vdocs, vf_, vp_de, 
+                             vtodo, vkeepl, vmarked, ve, vp_p, vf_p, vver, 
+                             vp_g, vf_g, vx_g, vp_del, vf, vx_del, vp_delm, vp, 
+                             vc_r, vrl, va, vb, vx >>
 
 dm7b(self) == /\ pc[self] = "dm7b"
               /\ mark' = (mark \cup {P(NextKind(ve[self][1]), vp_de[self] \o "/" \o ve[self][2])})
@@ -2333,10 +2484,11 @@ dm7b(self) == /\ pc[self] = "dm7b"
               /\ UNCHANGED << obj, pref, cref, doc, keep, locked, waitq, woken, 
                               result, rdata, stack, vtb_, vid_, vtb, vid, vp_, 
                               vc_t, va_, vb_, vout, vmade, vrp, vrl_, vp_s, 
-                              vc_s, vx_, vc, vb_d, vx_d, vp_d, vc_, vcls, vrl, 
-                              va, vb, vx_de, vdels, vdocs, vf_, vp_de, vtodo, 
-                              vkeepl, ve, vp_p, vf_p, vver, vp_g, vf_g, vx_g, 
-                              vp_del, vf, vx, vp >>
+                              vc_s, vx_, vc, vb_d, vx_d, vp_d, vc_, vcls, 
+                              vrl_d, va_d, vb_de, vx_de, vdels, vdocs, vf_, 
+                              vp_de, vtodo, vkeepl, ve, vp_p, vf_p, vver, vp_g, 
+                              vf_g, vx_g, vp_del, vf, vx_del, vp_delm, vp, 
+                              vc_r, vrl, va, vb, vx >>
 
 mf1(self) == /\ pc[self] = "mf1"
              /\ ev' = Ev(self, "stat", P(ve[self][1], vp_de[self] \o "/" \o ve[self][2]), NoPath, FN(Here(ve[self][1], vp_de[self], ve[self][2])))
@@ -2344,10 +2496,11 @@ mf1(self) == /\ pc[self] = "mf1"
              /\ UNCHANGED << obj, pref, cref, doc, mark, keep, locked, waitq, 
                              woken, result, rdata, stack, vtb_, vid_, vtb, vid, 
                              vp_, vc_t, va_, vb_, vout, vmade, vrp, vrl_, vp_s, 
-                             vc_s, vx_, vc, vb_d, vx_d, vp_d, vc_, vcls, vrl, 
-                             va, vb, vx_de, vdels, vdocs, vf_, vp_de, vtodo, 
-                             vkeepl, vmarked, ve, vp_p, vf_p, vver, vp_g, vf_g, 
-                             vx_g, vp_del, vf, vx, vp >>
+                             vc_s, vx_, vc, vb_d, vx_d, vp_d, vc_, vcls, vrl_d, 
+                             va_d, vb_de, vx_de, vdels, vdocs, vf_, vp_de, 
+                             vtodo, vkeepl, vmarked, ve, vp_p, vf_p, vver, 
+                             vp_g, vf_g, vx_g, vp_del, vf, vx_del, vp_delm, vp, 
+                             vc_r, vrl, va, vb, vx >>
 
 mf2(self) == /\ pc[self] = "mf2"
              /\ ev' = Ev(self, "stat", P(ve[self][1], vp_de[self] \o "/" \o ve[self][2]), NoPath, FN(Here(ve[self][1], vp_de[self], ve[self][2])))
@@ -2355,10 +2508,11 @@ mf2(self) == /\ pc[self] = "mf2"
              /\ UNCHANGED << obj, pref, cref, doc, mark, keep, locked, waitq, 
                              woken, result, rdata, stack, vtb_, vid_, vtb, vid, 
                              vp_, vc_t, va_, vb_, vout, vmade, vrp, vrl_, vp_s, 
-                             vc_s, vx_, vc, vb_d, vx_d, vp_d, vc_, vcls, vrl, 
-                             va, vb, vx_de, vdels, vdocs, vf_, vp_de, vtodo, 
-                             vkeepl, vmarked, ve, vp_p, vf_p, vver, vp_g, vf_g, 
-                             vx_g, vp_del, vf, vx, vp >>
+                             vc_s, vx_, vc, vb_d, vx_d, vp_d, vc_, vcls, vrl_d, 
+                             va_d, vb_de, vx_de, vdels, vdocs, vf_, vp_de, 
+                             vtodo, vkeepl, vmarked, ve, vp_p, vf_p, vver, 
+                             vp_g, vf_g, vx_g, vp_del, vf, vx_del, vp_delm, vp, 
+                             vc_r, vrl, va, vb, vx >>
 
 mf3(self) == /\ pc[self] = "mf3"
              /\ ev' = Ev(self, "stat", P(NextKind(ve[self][1]), vp_de[self] \o "/" \o ve[self][2]), NoPath,
@@ -2367,10 +2521,11 @@ mf3(self) == /\ pc[self] = "mf3"
              /\ UNCHANGED << obj, pref, cref, doc, mark, keep, locked, waitq, 
                              woken, result, rdata, stack, vtb_, vid_, vtb, vid, 
                              vp_, vc_t, va_, vb_, vout, vmade, vrp, vrl_, vp_s, 
-                             vc_s, vx_, vc, vb_d, vx_d, vp_d, vc_, vcls, vrl, 
-                             va, vb, vx_de, vdels, vdocs, vf_, vp_de, vtodo, 
-                             vkeepl, vmarked, ve, vp_p, vf_p, vver, vp_g, vf_g, 
-                             vx_g, vp_del, vf, vx, vp >>
+                             vc_s, vx_, vc, vb_d, vx_d, vp_d, vc_, vcls, vrl_d, 
+                             va_d, vb_de, vx_de, vdels, vdocs, vf_, vp_de, 
+                             vtodo, vkeepl, vmarked, ve, vp_p, vf_p, vver, 
+                             vp_g, vf_g, vx_g, vp_del, vf, vx_del, vp_delm, vp, 
+                             vc_r, vrl, va, vb, vx >>
 
 mf4(self) == /\ pc[self] = "mf4"
              /\ ev' = Ev(self, "stat", P(ve[self][1], vp_de[self] \o "/" \o ve[self][2]), NoPath, FN(Here(ve[self][1], vp_de[self], ve[self][2])))
@@ -2378,10 +2533,11 @@ mf4(self) == /\ pc[self] = "mf4"
              /\ UNCHANGED << obj, pref, cref, doc, mark, keep, locked, waitq, 
                              woken, result, rdata, stack, vtb_, vid_, vtb, vid, 
                              vp_, vc_t, va_, vb_, vout, vmade, vrp, vrl_, vp_s, 
-                             vc_s, vx_, vc, vb_d, vx_d, vp_d, vc_, vcls, vrl, 
-                             va, vb, vx_de, vdels, vdocs, vf_, vp_de, vtodo, 
-                             vkeepl, vmarked, ve, vp_p, vf_p, vver, vp_g, vf_g, 
-                             vx_g, vp_del, vf, vx, vp >>
+                             vc_s, vx_, vc, vb_d, vx_d, vp_d, vc_, vcls, vrl_d, 
+                             va_d, vb_de, vx_de, vdels, vdocs, vf_, vp_de, 
+                             vtodo, vkeepl, vmarked, ve, vp_p, vf_p, vver, 
+                             vp_g, vf_g, vx_g, vp_del, vf, vx_del, vp_delm, vp, 
+                             vc_r, vrl, va, vb, vx >>
 
 mf5(self) == /\ pc[self] = "mf5"
              /\ ev' = Ev(self, "stat", P(ve[self][1], vp_de[self] \o "/" \o ve[self][2]), NoPath, FN(Here(ve[self][1], vp_de[self], ve[self][2])))
@@ -2389,10 +2545,11 @@ mf5(self) == /\ pc[self] = "mf5"
              /\ UNCHANGED << obj, pref, cref, doc, mark, keep, locked, waitq, 
                              woken, result, rdata, stack, vtb_, vid_, vtb, vid, 
                              vp_, vc_t, va_, vb_, vout, vmade, vrp, vrl_, vp_s, 
-                             vc_s, vx_, vc, vb_d, vx_d, vp_d, vc_, vcls, vrl, 
-                             va, vb, vx_de, vdels, vdocs, vf_, vp_de, vtodo, 
-                             vkeepl, vmarked, ve, vp_p, vf_p, vver, vp_g, vf_g, 
-                             vx_g, vp_del, vf, vx, vp >>
+                             vc_s, vx_, vc, vb_d, vx_d, vp_d, vc_, vcls, vrl_d, 
+                             va_d, vb_de, vx_de, vdels, vdocs, vf_, vp_de, 
+                             vtodo, vkeepl, vmarked, ve, vp_p, vf_p, vver, 
+                             vp_g, vf_g, vx_g, vp_del, vf, vx_del, vp_delm, vp, 
+                             vc_r, vrl, va, vb, vx >>
 
 mf6(self) == /\ pc[self] = "mf6"
              /\ ev' = Ev(self, "stat", P(NextKind(ve[self][1]), vp_de[self] \o "/" \o ve[self][2]), NoPath,
@@ -2401,10 +2558,11 @@ mf6(self) == /\ pc[self] = "mf6"
              /\ UNCHANGED << obj, pref, cref, doc, mark, keep, locked, waitq, 
                              woken, result, rdata, stack, vtb_, vid_, vtb, vid, 
                              vp_, vc_t, va_, vb_, vout, vmade, vrp, vrl_, vp_s, 
-                             vc_s, vx_, vc, vb_d, vx_d, vp_d, vc_, vcls, vrl, 
-                             va, vb, vx_de, vdels, vdocs, vf_, vp_de, vtodo, 
-                             vkeepl, vmarked, ve, vp_p, vf_p, vver, vp_g, vf_g, 
-                             vx_g, vp_del, vf, vx, vp >>
+                             vc_s, vx_, vc, vb_d, vx_d, vp_d, vc_, vcls, vrl_d, 
+                             va_d, vb_de, vx_de, vdels, vdocs, vf_, vp_de, 
+                             vtodo, vkeepl, vmarked, ve, vp_p, vf_p, vver, 
+                             vp_g, vf_g, vx_g, vp_del, vf, vx_del, vp_delm, vp, 
+                             vc_r, vrl, va, vb, vx >>
 
 mf7(self) == /\ pc[self] = "mf7"
              /\ IF ve[self][1] = "doc"
@@ -2415,10 +2573,11 @@ mf7(self) == /\ pc[self] = "mf7"
              /\ UNCHANGED << obj, pref, cref, doc, mark, keep, locked, waitq, 
                              woken, result, rdata, stack, vtb_, vid_, vtb, vid, 
                              vp_, vc_t, va_, vb_, vout, vmade, vrp, vrl_, vp_s, 
-                             vc_s, vx_, vc, vb_d, vx_d, vp_d, vc_, vcls, vrl, 
-                             va, vb, vx_de, vdels, vdocs, vf_, vp_de, vtodo, 
-                             vkeepl, vmarked, ve, vp_p, vf_p, vver, vp_g, vf_g, 
-                             vx_g, vp_del, vf, vx, vp >>
+                             vc_s, vx_, vc, vb_d, vx_d, vp_d, vc_, vcls, vrl_d, 
+                             va_d, vb_de, vx_de, vdels, vdocs, vf_, vp_de, 
+                             vtodo, vkeepl, vmarked, ve, vp_p, vf_p, vver, 
+                             vp_g, vf_g, vx_g, vp_del, vf, vx_del, vp_delm, vp, 
+                             vc_r, vrl, va, vb, vx >>
 
 dm8(self) == /\ pc[self] = "dm8"
              /\ /\ stack' = [stack EXCEPT ![self] = << [ procedure |->  "release",
@@ -2432,10 +2591,11 @@ dm8(self) == /\ pc[self] = "dm8"
              /\ UNCHANGED << obj, pref, cref, doc, mark, keep, locked, waitq, 
                              woken, ev, result, rdata, vtb_, vid_, vp_, vc_t, 
                              va_, vb_, vout, vmade, vrp, vrl_, vp_s, vc_s, vx_, 
-                             vc, vb_d, vx_d, vp_d, vc_, vcls, vrl, va, vb, 
-                             vx_de, vdels, vdocs, vf_, vp_de, vtodo, vkeepl, 
-                             vmarked, ve, vp_p, vf_p, vver, vp_g, vf_g, vx_g, 
-                             vp_del, vf, vx, vp >>
+                             vc, vb_d, vx_d, vp_d, vc_, vcls, vrl_d, va_d, 
+                             vb_de, vx_de, vdels, vdocs, vf_, vp_de, vtodo, 
+                             vkeepl, vmarked, ve, vp_p, vf_p, vver, vp_g, vf_g, 
+                             vx_g, vp_del, vf, vx_del, vp_delm, vp, vc_r, vrl, 
+                             va, vb, vx >>
 
 dm9(self) == /\ pc[self] = "dm9"
              /\ IF vmarked[self] # {}
@@ -2449,9 +2609,10 @@ dm9(self) == /\ pc[self] = "dm9"
                              woken, ev, result, rdata, stack, vtb_, vid_, vtb, 
                              vid, vp_, vc_t, va_, vb_, vout, vmade, vrp, vrl_, 
                              vp_s, vc_s, vx_, vc, vb_d, vx_d, vp_d, vc_, vcls, 
-                             vrl, va, vb, vx_de, vdels, vdocs, vf_, vp_de, 
-                             vtodo, vkeepl, vp_p, vf_p, vver, vp_g, vf_g, vx_g, 
-                             vp_del, vf, vx, vp >>
+                             vrl_d, va_d, vb_de, vx_de, vdels, vdocs, vf_, 
+                             vp_de, vtodo, vkeepl, vp_p, vf_p, vver, vp_g, 
+                             vf_g, vx_g, vp_del, vf, vx_del, vp_delm, vp, vc_r, 
+                             vrl, va, vb, vx >>
 
 dm10(self) == /\ pc[self] = "dm10"
               /\ IF P(ve[self][1], vp_de[self] \o "/" \o ve[self][2]) \in mark
@@ -2463,10 +2624,11 @@ dm10(self) == /\ pc[self] = "dm10"
               /\ UNCHANGED << obj, pref, cref, doc, keep, locked, waitq, woken, 
                               result, rdata, stack, vtb_, vid_, vtb, vid, vp_, 
                               vc_t, va_, vb_, vout, vmade, vrp, vrl_, vp_s, 
-                              vc_s, vx_, vc, vb_d, vx_d, vp_d, vc_, vcls, vrl, 
-                              va, vb, vx_de, vdels, vdocs, vf_, vp_de, vtodo, 
-                              vkeepl, vmarked, ve, vp_p, vf_p, vver, vp_g, 
-                              vf_g, vx_g, vp_del, vf, vx, vp >>
+                              vc_s, vx_, vc, vb_d, vx_d, vp_d, vc_, vcls, 
+                              vrl_d, va_d, vb_de, vx_de, vdels, vdocs, vf_, 
+                              vp_de, vtodo, vkeepl, vmarked, ve, vp_p, vf_p, 
+                              vver, vp_g, vf_g, vx_g, vp_del, vf, vx_del, 
+                              vp_delm, vp, vc_r, vrl, va, vb, vx >>
 
 dm11(self) == /\ pc[self] = "dm11"
               /\ pc' = [pc EXCEPT ![self] = Head(stack[self]).pc]
@@ -2480,8 +2642,9 @@ dm11(self) == /\ pc[self] = "dm11"
                               woken, ev, result, rdata, vtb_, vid_, vtb, vid, 
                               vp_, vc_t, va_, vb_, vout, vmade, vrp, vrl_, 
                               vp_s, vc_s, vx_, vc, vb_d, vx_d, vp_d, vc_, vcls, 
-                              vrl, va, vb, vx_de, vdels, vdocs, vf_, vp_p, 
-                              vf_p, vver, vp_g, vf_g, vx_g, vp_del, vf, vx, vp >>
+                              vrl_d, va_d, vb_de, vx_de, vdels, vdocs, vf_, 
+                              vp_p, vf_p, vver, vp_g, vf_g, vx_g, vp_del, vf, 
+                              vx_del, vp_delm, vp, vc_r, vrl, va, vb, vx >>
 
 delmeta_all(self) == dm1(self) \/ dm2(self) \/ dm3(self) \/ dm4(self)
                         \/ dm5(self) \/ dm6(self) \/ dm7(self)
@@ -2502,10 +2665,11 @@ pm1(self) == /\ pc[self] = "pm1"
              /\ UNCHANGED << obj, pref, cref, doc, mark, keep, locked, waitq, 
                              woken, ev, result, rdata, vtb, vid, vp_, vc_t, 
                              va_, vb_, vout, vmade, vrp, vrl_, vp_s, vc_s, vx_, 
-                             vc, vb_d, vx_d, vp_d, vc_, vcls, vrl, va, vb, 
-                             vx_de, vdels, vdocs, vf_, vp_de, vtodo, vkeepl, 
-                             vmarked, ve, vp_p, vf_p, vver, vp_g, vf_g, vx_g, 
-                             vp_del, vf, vx, vp >>
+                             vc, vb_d, vx_d, vp_d, vc_, vcls, vrl_d, va_d, 
+                             vb_de, vx_de, vdels, vdocs, vf_, vp_de, vtodo, 
+                             vkeepl, vmarked, ve, vp_p, vf_p, vver, vp_g, vf_g, 
+                             vx_g, vp_del, vf, vx_del, vp_delm, vp, vc_r, vrl, 
+                             va, vb, vx >>
 
 pm2(self) == /\ pc[self] = "pm2"
              /\ ev' = Ev(self, "stat", P("doc", vp_p[self] \o "/" \o vf_p[self]), NoPath, FN(doc[vp_p[self]][vf_p[self]] # None))
@@ -2513,10 +2677,11 @@ pm2(self) == /\ pc[self] = "pm2"
              /\ UNCHANGED << obj, pref, cref, doc, mark, keep, locked, waitq, 
                              woken, result, rdata, stack, vtb_, vid_, vtb, vid, 
                              vp_, vc_t, va_, vb_, vout, vmade, vrp, vrl_, vp_s, 
-                             vc_s, vx_, vc, vb_d, vx_d, vp_d, vc_, vcls, vrl, 
-                             va, vb, vx_de, vdels, vdocs, vf_, vp_de, vtodo, 
-                             vkeepl, vmarked, ve, vp_p, vf_p, vver, vp_g, vf_g, 
-                             vx_g, vp_del, vf, vx, vp >>
+                             vc_s, vx_, vc, vb_d, vx_d, vp_d, vc_, vcls, vrl_d, 
+                             va_d, vb_de, vx_de, vdels, vdocs, vf_, vp_de, 
+                             vtodo, vkeepl, vmarked, ve, vp_p, vf_p, vver, 
+                             vp_g, vf_g, vx_g, vp_del, vf, vx_del, vp_delm, vp, 
+                             vc_r, vrl, va, vb, vx >>
 
 pm3(self) == /\ pc[self] = "pm3"
              /\ doc' = [doc EXCEPT ![vp_p[self]][vf_p[self]] = vver[self]]
@@ -2525,10 +2690,11 @@ pm3(self) == /\ pc[self] = "pm3"
              /\ UNCHANGED << obj, pref, cref, mark, keep, locked, waitq, woken, 
                              result, rdata, stack, vtb_, vid_, vtb, vid, vp_, 
                              vc_t, va_, vb_, vout, vmade, vrp, vrl_, vp_s, 
-                             vc_s, vx_, vc, vb_d, vx_d, vp_d, vc_, vcls, vrl, 
-                             va, vb, vx_de, vdels, vdocs, vf_, vp_de, vtodo, 
-                             vkeepl, vmarked, ve, vp_p, vf_p, vver, vp_g, vf_g, 
-                             vx_g, vp_del, vf, vx, vp >>
+                             vc_s, vx_, vc, vb_d, vx_d, vp_d, vc_, vcls, vrl_d, 
+                             va_d, vb_de, vx_de, vdels, vdocs, vf_, vp_de, 
+                             vtodo, vkeepl, vmarked, ve, vp_p, vf_p, vver, 
+                             vp_g, vf_g, vx_g, vp_del, vf, vx_del, vp_delm, vp, 
+                             vc_r, vrl, va, vb, vx >>
 
 pm4(self) == /\ pc[self] = "pm4"
              /\ /\ stack' = [stack EXCEPT ![self] = << [ procedure |->  "release",
@@ -2542,10 +2708,11 @@ pm4(self) == /\ pc[self] = "pm4"
              /\ UNCHANGED << obj, pref, cref, doc, mark, keep, locked, waitq, 
                              woken, ev, result, rdata, vtb_, vid_, vp_, vc_t, 
                              va_, vb_, vout, vmade, vrp, vrl_, vp_s, vc_s, vx_, 
-                             vc, vb_d, vx_d, vp_d, vc_, vcls, vrl, va, vb, 
-                             vx_de, vdels, vdocs, vf_, vp_de, vtodo, vkeepl, 
-                             vmarked, ve, vp_p, vf_p, vver, vp_g, vf_g, vx_g, 
-                             vp_del, vf, vx, vp >>
+                             vc, vb_d, vx_d, vp_d, vc_, vcls, vrl_d, va_d, 
+                             vb_de, vx_de, vdels, vdocs, vf_, vp_de, vtodo, 
+                             vkeepl, vmarked, ve, vp_p, vf_p, vver, vp_g, vf_g, 
+                             vx_g, vp_del, vf, vx_del, vp_delm, vp, vc_r, vrl, 
+                             va, vb, vx >>
 
 pm5(self) == /\ pc[self] = "pm5"
              /\ result' = [result EXCEPT ![self] = "ok"]
@@ -2557,9 +2724,10 @@ pm5(self) == /\ pc[self] = "pm5"
              /\ UNCHANGED << obj, pref, cref, doc, mark, keep, locked, waitq, 
                              woken, ev, rdata, vtb_, vid_, vtb, vid, vp_, vc_t, 
                              va_, vb_, vout, vmade, vrp, vrl_, vp_s, vc_s, vx_, 
-                             vc, vb_d, vx_d, vp_d, vc_, vcls, vrl, va, vb, 
-                             vx_de, vdels, vdocs, vf_, vp_de, vtodo, vkeepl, 
-                             vmarked, ve, vp_g, vf_g, vx_g, vp_del, vf, vx, vp >>
+                             vc, vb_d, vx_d, vp_d, vc_, vcls, vrl_d, va_d, 
+                             vb_de, vx_de, vdels, vdocs, vf_, vp_de, vtodo, 
+                             vkeepl, vmarked, ve, vp_g, vf_g, vx_g, vp_del, vf, 
+                             vx_del, vp_delm, vp, vc_r, vrl, va, vb, vx >>
 
 putmeta(self) == pm1(self) \/ pm2(self) \/ pm3(self) \/ pm4(self)
                     \/ pm5(self)
@@ -2575,10 +2743,11 @@ gm1(self) == /\ pc[self] = "gm1"
              /\ UNCHANGED << obj, pref, cref, doc, mark, keep, locked, waitq, 
                              woken, rdata, stack, vtb_, vid_, vtb, vid, vp_, 
                              vc_t, va_, vb_, vout, vmade, vrp, vrl_, vp_s, 
-                             vc_s, vx_, vc, vb_d, vx_d, vp_d, vc_, vcls, vrl, 
-                             va, vb, vx_de, vdels, vdocs, vf_, vp_de, vtodo, 
-                             vkeepl, vmarked, ve, vp_p, vf_p, vver, vp_g, vf_g, 
-                             vp_del, vf, vx, vp >>
+                             vc_s, vx_, vc, vb_d, vx_d, vp_d, vc_, vcls, vrl_d, 
+                             va_d, vb_de, vx_de, vdels, vdocs, vf_, vp_de, 
+                             vtodo, vkeepl, vmarked, ve, vp_p, vf_p, vver, 
+                             vp_g, vf_g, vp_del, vf, vx_del, vp_delm, vp, vc_r, 
+                             vrl, va, vb, vx >>
 
 gm2(self) == /\ pc[self] = "gm2"
              /\ vx_g' = [vx_g EXCEPT ![self] = doc[vp_g[self]][vf_g[self]] # None]
@@ -2591,10 +2760,11 @@ gm2(self) == /\ pc[self] = "gm2"
              /\ UNCHANGED << obj, pref, cref, doc, mark, keep, locked, waitq, 
                              woken, rdata, stack, vtb_, vid_, vtb, vid, vp_, 
                              vc_t, va_, vb_, vout, vmade, vrp, vrl_, vp_s, 
-                             vc_s, vx_, vc, vb_d, vx_d, vp_d, vc_, vcls, vrl, 
-                             va, vb, vx_de, vdels, vdocs, vf_, vp_de, vtodo, 
-                             vkeepl, vmarked, ve, vp_p, vf_p, vver, vp_g, vf_g, 
-                             vp_del, vf, vx, vp >>
+                             vc_s, vx_, vc, vb_d, vx_d, vp_d, vc_, vcls, vrl_d, 
+                             va_d, vb_de, vx_de, vdels, vdocs, vf_, vp_de, 
+                             vtodo, vkeepl, vmarked, ve, vp_p, vf_p, vver, 
+                             vp_g, vf_g, vp_del, vf, vx_del, vp_delm, vp, vc_r, 
+                             vrl, va, vb, vx >>
 
 gm3(self) == /\ pc[self] = "gm3"
              /\ IF doc[vp_g[self]][vf_g[self]] = None
@@ -2608,10 +2778,11 @@ gm3(self) == /\ pc[self] = "gm3"
              /\ UNCHANGED << obj, pref, cref, doc, mark, keep, locked, waitq, 
                              woken, stack, vtb_, vid_, vtb, vid, vp_, vc_t, 
                              va_, vb_, vout, vmade, vrp, vrl_, vp_s, vc_s, vx_, 
-                             vc, vb_d, vx_d, vp_d, vc_, vcls, vrl, va, vb, 
-                             vx_de, vdels, vdocs, vf_, vp_de, vtodo, vkeepl, 
-                             vmarked, ve, vp_p, vf_p, vver, vp_g, vf_g, vx_g, 
-                             vp_del, vf, vx, vp >>
+                             vc, vb_d, vx_d, vp_d, vc_, vcls, vrl_d, va_d, 
+                             vb_de, vx_de, vdels, vdocs, vf_, vp_de, vtodo, 
+                             vkeepl, vmarked, ve, vp_p, vf_p, vver, vp_g, vf_g, 
+                             vx_g, vp_del, vf, vx_del, vp_delm, vp, vc_r, vrl, 
+                             va, vb, vx >>
 
 gm4(self) == /\ pc[self] = "gm4"
              /\ pc' = [pc EXCEPT ![self] = Head(stack[self]).pc]
@@ -2622,10 +2793,11 @@ gm4(self) == /\ pc[self] = "gm4"
              /\ UNCHANGED << obj, pref, cref, doc, mark, keep, locked, waitq, 
                              woken, ev, result, rdata, vtb_, vid_, vtb, vid, 
                              vp_, vc_t, va_, vb_, vout, vmade, vrp, vrl_, vp_s, 
-                             vc_s, vx_, vc, vb_d, vx_d, vp_d, vc_, vcls, vrl, 
-                             va, vb, vx_de, vdels, vdocs, vf_, vp_de, vtodo, 
-                             vkeepl, vmarked, ve, vp_p, vf_p, vver, vp_del, vf, 
-                             vx, vp >>
+                             vc_s, vx_, vc, vb_d, vx_d, vp_d, vc_, vcls, vrl_d, 
+                             va_d, vb_de, vx_de, vdels, vdocs, vf_, vp_de, 
+                             vtodo, vkeepl, vmarked, ve, vp_p, vf_p, vver, 
+                             vp_del, vf, vx_del, vp_delm, vp, vc_r, vrl, va, 
+                             vb, vx >>
 
 getmeta(self) == gm1(self) \/ gm2(self) \/ gm3(self) \/ gm4(self)
 
@@ -2641,24 +2813,26 @@ do1(self) == /\ pc[self] = "do1"
              /\ UNCHANGED << obj, pref, cref, doc, mark, keep, locked, waitq, 
                              woken, ev, result, rdata, vtb, vid, vp_, vc_t, 
                              va_, vb_, vout, vmade, vrp, vrl_, vp_s, vc_s, vx_, 
-                             vc, vb_d, vx_d, vp_d, vc_, vcls, vrl, va, vb, 
-                             vx_de, vdels, vdocs, vf_, vp_de, vtodo, vkeepl, 
-                             vmarked, ve, vp_p, vf_p, vver, vp_g, vf_g, vx_g, 
-                             vp_del, vf, vx, vp >>
+                             vc, vb_d, vx_d, vp_d, vc_, vcls, vrl_d, va_d, 
+                             vb_de, vx_de, vdels, vdocs, vf_, vp_de, vtodo, 
+                             vkeepl, vmarked, ve, vp_p, vf_p, vver, vp_g, vf_g, 
+                             vx_g, vp_del, vf, vx_del, vp_delm, vp, vc_r, vrl, 
+                             va, vb, vx >>
 
 do2(self) == /\ pc[self] = "do2"
-             /\ vx' = [vx EXCEPT ![self] = doc[vp_del[self]][vf[self]] # None]
-             /\ ev' = Ev(self, "stat", P("doc", vp_del[self] \o "/" \o vf[self]), NoPath, FN(vx'[self]))
-             /\ IF vx'[self]
+             /\ vx_del' = [vx_del EXCEPT ![self] = doc[vp_del[self]][vf[self]] # None]
+             /\ ev' = Ev(self, "stat", P("doc", vp_del[self] \o "/" \o vf[self]), NoPath, FN(vx_del'[self]))
+             /\ IF vx_del'[self]
                    THEN /\ pc' = [pc EXCEPT ![self] = "do3"]
                    ELSE /\ pc' = [pc EXCEPT ![self] = "do4"]
              /\ UNCHANGED << obj, pref, cref, doc, mark, keep, locked, waitq, 
                              woken, result, rdata, stack, vtb_, vid_, vtb, vid, 
                              vp_, vc_t, va_, vb_, vout, vmade, vrp, vrl_, vp_s, 
-                             vc_s, vx_, vc, vb_d, vx_d, vp_d, vc_, vcls, vrl, 
-                             va, vb, vx_de, vdels, vdocs, vf_, vp_de, vtodo, 
-                             vkeepl, vmarked, ve, vp_p, vf_p, vver, vp_g, vf_g, 
-                             vx_g, vp_del, vf, vp >>
+                             vc_s, vx_, vc, vb_d, vx_d, vp_d, vc_, vcls, vrl_d, 
+                             va_d, vb_de, vx_de, vdels, vdocs, vf_, vp_de, 
+                             vtodo, vkeepl, vmarked, ve, vp_p, vf_p, vver, 
+                             vp_g, vf_g, vx_g, vp_del, vf, vp_delm, vp, vc_r, 
+                             vrl, va, vb, vx >>
 
 do3(self) == /\ pc[self] = "do3"
              /\ IF doc[vp_del[self]][vf[self]] = None
@@ -2672,10 +2846,11 @@ do3(self) == /\ pc[self] = "do3"
              /\ UNCHANGED << obj, pref, cref, mark, keep, locked, waitq, woken, 
                              rdata, stack, vtb_, vid_, vtb, vid, vp_, vc_t, 
                              va_, vb_, vout, vmade, vrp, vrl_, vp_s, vc_s, vx_, 
-                             vc, vb_d, vx_d, vp_d, vc_, vcls, vrl, va, vb, 
-                             vx_de, vdels, vdocs, vf_, vp_de, vtodo, vkeepl, 
-                             vmarked, ve, vp_p, vf_p, vver, vp_g, vf_g, vx_g, 
-                             vp_del, vf, vx, vp >>
+                             vc, vb_d, vx_d, vp_d, vc_, vcls, vrl_d, va_d, 
+                             vb_de, vx_de, vdels, vdocs, vf_, vp_de, vtodo, 
+                             vkeepl, vmarked, ve, vp_p, vf_p, vver, vp_g, vf_g, 
+                             vx_g, vp_del, vf, vx_del, vp_delm, vp, vc_r, vrl, 
+                             va, vb, vx >>
 
 do4(self) == /\ pc[self] = "do4"
              /\ ev' = Ev(self, "stat", P("doc", vp_del[self] \o "/" \o vf[self]), NoPath, FN(doc[vp_del[self]][vf[self]] # None))
@@ -2683,10 +2858,11 @@ do4(self) == /\ pc[self] = "do4"
              /\ UNCHANGED << obj, pref, cref, doc, mark, keep, locked, waitq, 
                              woken, result, rdata, stack, vtb_, vid_, vtb, vid, 
                              vp_, vc_t, va_, vb_, vout, vmade, vrp, vrl_, vp_s, 
-                             vc_s, vx_, vc, vb_d, vx_d, vp_d, vc_, vcls, vrl, 
-                             va, vb, vx_de, vdels, vdocs, vf_, vp_de, vtodo, 
-                             vkeepl, vmarked, ve, vp_p, vf_p, vver, vp_g, vf_g, 
-                             vx_g, vp_del, vf, vx, vp >>
+                             vc_s, vx_, vc, vb_d, vx_d, vp_d, vc_, vcls, vrl_d, 
+                             va_d, vb_de, vx_de, vdels, vdocs, vf_, vp_de, 
+                             vtodo, vkeepl, vmarked, ve, vp_p, vf_p, vver, 
+                             vp_g, vf_g, vx_g, vp_del, vf, vx_del, vp_delm, vp, 
+                             vc_r, vrl, va, vb, vx >>
 
 do5(self) == /\ pc[self] = "do5"
              /\ /\ stack' = [stack EXCEPT ![self] = << [ procedure |->  "release",
@@ -2700,10 +2876,11 @@ do5(self) == /\ pc[self] = "do5"
              /\ UNCHANGED << obj, pref, cref, doc, mark, keep, locked, waitq, 
                              woken, ev, result, rdata, vtb_, vid_, vp_, vc_t, 
                              va_, vb_, vout, vmade, vrp, vrl_, vp_s, vc_s, vx_, 
-                             vc, vb_d, vx_d, vp_d, vc_, vcls, vrl, va, vb, 
-                             vx_de, vdels, vdocs, vf_, vp_de, vtodo, vkeepl, 
-                             vmarked, ve, vp_p, vf_p, vver, vp_g, vf_g, vx_g, 
-                             vp_del, vf, vx, vp >>
+                             vc, vb_d, vx_d, vp_d, vc_, vcls, vrl_d, va_d, 
+                             vb_de, vx_de, vdels, vdocs, vf_, vp_de, vtodo, 
+                             vkeepl, vmarked, ve, vp_p, vf_p, vver, vp_g, vf_g, 
+                             vx_g, vp_del, vf, vx_del, vp_delm, vp, vc_r, vrl, 
+                             va, vb, vx >>
 
 do6(self) == /\ pc[self] = "do6"
              /\ IF result[self] = "-"
@@ -2711,17 +2888,17 @@ do6(self) == /\ pc[self] = "do6"
                    ELSE /\ TRUE
                         /\ UNCHANGED result
              /\ pc' = [pc EXCEPT ![self] = Head(stack[self]).pc]
-             /\ vx' = [vx EXCEPT ![self] = Head(stack[self]).vx]
+             /\ vx_del' = [vx_del EXCEPT ![self] = Head(stack[self]).vx_del]
              /\ vp_del' = [vp_del EXCEPT ![self] = Head(stack[self]).vp_del]
              /\ vf' = [vf EXCEPT ![self] = Head(stack[self]).vf]
              /\ stack' = [stack EXCEPT ![self] = Tail(stack[self])]
              /\ UNCHANGED << obj, pref, cref, doc, mark, keep, locked, waitq, 
                              woken, ev, rdata, vtb_, vid_, vtb, vid, vp_, vc_t, 
                              va_, vb_, vout, vmade, vrp, vrl_, vp_s, vc_s, vx_, 
-                             vc, vb_d, vx_d, vp_d, vc_, vcls, vrl, va, vb, 
-                             vx_de, vdels, vdocs, vf_, vp_de, vtodo, vkeepl, 
-                             vmarked, ve, vp_p, vf_p, vver, vp_g, vf_g, vx_g, 
-                             vp >>
+                             vc, vb_d, vx_d, vp_d, vc_, vcls, vrl_d, va_d, 
+                             vb_de, vx_de, vdels, vdocs, vf_, vp_de, vtodo, 
+                             vkeepl, vmarked, ve, vp_p, vf_p, vver, vp_g, vf_g, 
+                             vx_g, vp_delm, vp, vc_r, vrl, va, vb, vx >>
 
 delmeta_one(self) == do1(self) \/ do2(self) \/ do3(self) \/ do4(self)
                         \/ do5(self) \/ do6(self)
@@ -2735,7 +2912,7 @@ dt1(self) == /\ pc[self] = "dt1"
                                                          ve        |->  ve[self],
                                                          vp_de     |->  vp_de[self] ] >>
                                                      \o stack[self]]
-                /\ vp_de' = [vp_de EXCEPT ![self] = vp[self]]
+                /\ vp_de' = [vp_de EXCEPT ![self] = vp_delm[self]]
              /\ vtodo' = [vtodo EXCEPT ![self] = {}]
              /\ vkeepl' = [vkeepl EXCEPT ![self] = {}]
              /\ vmarked' = [vmarked EXCEPT ![self] = {}]
@@ -2744,24 +2921,249 @@ dt1(self) == /\ pc[self] = "dt1"
              /\ UNCHANGED << obj, pref, cref, doc, mark, keep, locked, waitq, 
                              woken, ev, result, rdata, vtb_, vid_, vtb, vid, 
                              vp_, vc_t, va_, vb_, vout, vmade, vrp, vrl_, vp_s, 
-                             vc_s, vx_, vc, vb_d, vx_d, vp_d, vc_, vcls, vrl, 
-                             va, vb, vx_de, vdels, vdocs, vf_, vp_p, vf_p, 
-                             vver, vp_g, vf_g, vx_g, vp_del, vf, vx, vp >>
+                             vc_s, vx_, vc, vb_d, vx_d, vp_d, vc_, vcls, vrl_d, 
+                             va_d, vb_de, vx_de, vdels, vdocs, vf_, vp_p, vf_p, 
+                             vver, vp_g, vf_g, vx_g, vp_del, vf, vx_del, 
+                             vp_delm, vp, vc_r, vrl, va, vb, vx >>
 
 dt2(self) == /\ pc[self] = "dt2"
              /\ result' = [result EXCEPT ![self] = "ok"]
              /\ pc' = [pc EXCEPT ![self] = Head(stack[self]).pc]
-             /\ vp' = [vp EXCEPT ![self] = Head(stack[self]).vp]
+             /\ vp_delm' = [vp_delm EXCEPT ![self] = Head(stack[self]).vp_delm]
              /\ stack' = [stack EXCEPT ![self] = Tail(stack[self])]
              /\ UNCHANGED << obj, pref, cref, doc, mark, keep, locked, waitq, 
                              woken, ev, rdata, vtb_, vid_, vtb, vid, vp_, vc_t, 
                              va_, vb_, vout, vmade, vrp, vrl_, vp_s, vc_s, vx_, 
-                             vc, vb_d, vx_d, vp_d, vc_, vcls, vrl, va, vb, 
-                             vx_de, vdels, vdocs, vf_, vp_de, vtodo, vkeepl, 
-                             vmarked, ve, vp_p, vf_p, vver, vp_g, vf_g, vx_g, 
-                             vp_del, vf, vx >>
+                             vc, vb_d, vx_d, vp_d, vc_, vcls, vrl_d, va_d, 
+                             vb_de, vx_de, vdels, vdocs, vf_, vp_de, vtodo, 
+                             vkeepl, vmarked, ve, vp_p, vf_p, vver, vp_g, vf_g, 
+                             vx_g, vp_del, vf, vx_del, vp, vc_r, vrl, va, vb, 
+                             vx >>
 
 delmeta_top(self) == dt1(self) \/ dt2(self)
+
+r1(self) == /\ pc[self] = "r1"
+            /\ va' = [va EXCEPT ![self] = pref[vp[self]] # None]
+            /\ ev' = Ev(self, "stat", P("pidref", vp[self]), NoPath, FN(va'[self]))
+            /\ IF ~va'[self]
+                  THEN /\ result' = [result EXCEPT ![self] = "nopid"]
+                       /\ pc' = [pc EXCEPT ![self] = "r12"]
+                  ELSE /\ pc' = [pc EXCEPT ![self] = "r2"]
+                       /\ UNCHANGED result
+            /\ UNCHANGED << obj, pref, cref, doc, mark, keep, locked, waitq, 
+                            woken, rdata, stack, vtb_, vid_, vtb, vid, vp_, 
+                            vc_t, va_, vb_, vout, vmade, vrp, vrl_, vp_s, vc_s, 
+                            vx_, vc, vb_d, vx_d, vp_d, vc_, vcls, vrl_d, va_d, 
+                            vb_de, vx_de, vdels, vdocs, vf_, vp_de, vtodo, 
+                            vkeepl, vmarked, ve, vp_p, vf_p, vver, vp_g, vf_g, 
+                            vx_g, vp_del, vf, vx_del, vp_delm, vp, vc_r, vrl, 
+                            vb, vx >>
+
+r2(self) == /\ pc[self] = "r2"
+            /\ IF pref[vp[self]] = None
+                  THEN /\ ev' = Ev(self, "read", P("pidref", vp[self]), NoPath, "!fnf")
+                       /\ result' = [result EXCEPT ![self] = "ioerror"]
+                       /\ pc' = [pc EXCEPT ![self] = "r12"]
+                       /\ vc_r' = vc_r
+                  ELSE /\ vc_r' = [vc_r EXCEPT ![self] = pref[vp[self]]]
+                       /\ ev' = EvV(self, "read", P("pidref", vp[self]), NoPath, "ok", <<vc_r'[self]>>)
+                       /\ pc' = [pc EXCEPT ![self] = "r3"]
+                       /\ UNCHANGED result
+            /\ UNCHANGED << obj, pref, cref, doc, mark, keep, locked, waitq, 
+                            woken, rdata, stack, vtb_, vid_, vtb, vid, vp_, 
+                            vc_t, va_, vb_, vout, vmade, vrp, vrl_, vp_s, vc_s, 
+                            vx_, vc, vb_d, vx_d, vp_d, vc_, vcls, vrl_d, va_d, 
+                            vb_de, vx_de, vdels, vdocs, vf_, vp_de, vtodo, 
+                            vkeepl, vmarked, ve, vp_p, vf_p, vver, vp_g, vf_g, 
+                            vx_g, vp_del, vf, vx_del, vp_delm, vp, vrl, va, vb, 
+                            vx >>
+
+r3(self) == /\ pc[self] = "r3"
+            /\ vb' = [vb EXCEPT ![self] = cref[vc_r[self]].has]
+            /\ ev' = Ev(self, "stat", P("cidref", vc_r[self]), NoPath, StatCid(vc_r[self]))
+            /\ IF ~vb'[self]
+                  THEN /\ result' = [result EXCEPT ![self] = "inconsistent"]
+                       /\ pc' = [pc EXCEPT ![self] = "r12"]
+                  ELSE /\ pc' = [pc EXCEPT ![self] = "r4"]
+                       /\ UNCHANGED result
+            /\ UNCHANGED << obj, pref, cref, doc, mark, keep, locked, waitq, 
+                            woken, rdata, stack, vtb_, vid_, vtb, vid, vp_, 
+                            vc_t, va_, vb_, vout, vmade, vrp, vrl_, vp_s, vc_s, 
+                            vx_, vc, vb_d, vx_d, vp_d, vc_, vcls, vrl_d, va_d, 
+                            vb_de, vx_de, vdels, vdocs, vf_, vp_de, vtodo, 
+                            vkeepl, vmarked, ve, vp_p, vf_p, vver, vp_g, vf_g, 
+                            vx_g, vp_del, vf, vx_del, vp_delm, vp, vc_r, vrl, 
+                            va, vx >>
+
+r4(self) == /\ pc[self] = "r4"
+            /\ IF ~cref[vc_r[self]].has
+                  THEN /\ ev' = Ev(self, "read", P("cidref", vc_r[self]), NoPath, "!fnf")
+                       /\ result' = [result EXCEPT ![self] = "ioerror"]
+                       /\ pc' = [pc EXCEPT ![self] = "r12"]
+                       /\ vrl' = vrl
+                  ELSE /\ vrl' = [vrl EXCEPT ![self] = cref[vc_r[self]].pids]
+                       /\ ev' = EvV(self, "read", P("cidref", vc_r[self]), NoPath, "ok", vrl'[self])
+                       /\ pc' = [pc EXCEPT ![self] = "r5"]
+                       /\ UNCHANGED result
+            /\ UNCHANGED << obj, pref, cref, doc, mark, keep, locked, waitq, 
+                            woken, rdata, stack, vtb_, vid_, vtb, vid, vp_, 
+                            vc_t, va_, vb_, vout, vmade, vrp, vrl_, vp_s, vc_s, 
+                            vx_, vc, vb_d, vx_d, vp_d, vc_, vcls, vrl_d, va_d, 
+                            vb_de, vx_de, vdels, vdocs, vf_, vp_de, vtodo, 
+                            vkeepl, vmarked, ve, vp_p, vf_p, vver, vp_g, vf_g, 
+                            vx_g, vp_del, vf, vx_del, vp_delm, vp, vc_r, va, 
+                            vb, vx >>
+
+r5(self) == /\ pc[self] = "r5"
+            /\ IF ~InSeq(vp[self], vrl[self])
+                  THEN /\ result' = [result EXCEPT ![self] = "inconsistent"]
+                       /\ pc' = [pc EXCEPT ![self] = "r12"]
+                  ELSE /\ pc' = [pc EXCEPT ![self] = "r6"]
+                       /\ UNCHANGED result
+            /\ UNCHANGED << obj, pref, cref, doc, mark, keep, locked, waitq, 
+                            woken, ev, rdata, stack, vtb_, vid_, vtb, vid, vp_, 
+                            vc_t, va_, vb_, vout, vmade, vrp, vrl_, vp_s, vc_s, 
+                            vx_, vc, vb_d, vx_d, vp_d, vc_, vcls, vrl_d, va_d, 
+                            vb_de, vx_de, vdels, vdocs, vf_, vp_de, vtodo, 
+                            vkeepl, vmarked, ve, vp_p, vf_p, vver, vp_g, vf_g, 
+                            vx_g, vp_del, vf, vx_del, vp_delm, vp, vc_r, vrl, 
+                            va, vb, vx >>
+
+r6(self) == /\ pc[self] = "r6"
+            /\ vx' = [vx EXCEPT ![self] = obj[vc_r[self]] = "ok"]
+            /\ ev' = Ev(self, "stat", P("obj", vc_r[self]), NoPath, FN(vx'[self]))
+            /\ IF ~vx'[self]
+                  THEN /\ pc' = [pc EXCEPT ![self] = "r6b"]
+                  ELSE /\ pc' = [pc EXCEPT ![self] = "r7"]
+            /\ UNCHANGED << obj, pref, cref, doc, mark, keep, locked, waitq, 
+                            woken, result, rdata, stack, vtb_, vid_, vtb, vid, 
+                            vp_, vc_t, va_, vb_, vout, vmade, vrp, vrl_, vp_s, 
+                            vc_s, vx_, vc, vb_d, vx_d, vp_d, vc_, vcls, vrl_d, 
+                            va_d, vb_de, vx_de, vdels, vdocs, vf_, vp_de, 
+                            vtodo, vkeepl, vmarked, ve, vp_p, vf_p, vver, vp_g, 
+                            vf_g, vx_g, vp_del, vf, vx_del, vp_delm, vp, vc_r, 
+                            vrl, va, vb >>
+
+r6b(self) == /\ pc[self] = "r6b"
+             /\ ev' = Ev(self, "stat", P("obj", vc_r[self]), NoPath, FN(obj[vc_r[self]] = "ok"))
+             /\ result' = [result EXCEPT ![self] = "inconsistent"]
+             /\ pc' = [pc EXCEPT ![self] = "r12"]
+             /\ UNCHANGED << obj, pref, cref, doc, mark, keep, locked, waitq, 
+                             woken, rdata, stack, vtb_, vid_, vtb, vid, vp_, 
+                             vc_t, va_, vb_, vout, vmade, vrp, vrl_, vp_s, 
+                             vc_s, vx_, vc, vb_d, vx_d, vp_d, vc_, vcls, vrl_d, 
+                             va_d, vb_de, vx_de, vdels, vdocs, vf_, vp_de, 
+                             vtodo, vkeepl, vmarked, ve, vp_p, vf_p, vver, 
+                             vp_g, vf_g, vx_g, vp_del, vf, vx_del, vp_delm, vp, 
+                             vc_r, vrl, va, vb, vx >>
+
+r7(self) == /\ pc[self] = "r7"
+            /\ vx' = [vx EXCEPT ![self] = obj[vc_r[self]] = "ok"]
+            /\ ev' = Ev(self, "stat", P("obj", vc_r[self]), NoPath, FN(vx'[self]))
+            /\ IF ~vx'[self]
+                  THEN /\ pc' = [pc EXCEPT ![self] = "r7b"]
+                  ELSE /\ pc' = [pc EXCEPT ![self] = "r8"]
+            /\ UNCHANGED << obj, pref, cref, doc, mark, keep, locked, waitq, 
+                            woken, result, rdata, stack, vtb_, vid_, vtb, vid, 
+                            vp_, vc_t, va_, vb_, vout, vmade, vrp, vrl_, vp_s, 
+                            vc_s, vx_, vc, vb_d, vx_d, vp_d, vc_, vcls, vrl_d, 
+                            va_d, vb_de, vx_de, vdels, vdocs, vf_, vp_de, 
+                            vtodo, vkeepl, vmarked, ve, vp_p, vf_p, vver, vp_g, 
+                            vf_g, vx_g, vp_del, vf, vx_del, vp_delm, vp, vc_r, 
+                            vrl, va, vb >>
+
+r7b(self) == /\ pc[self] = "r7b"
+             /\ ev' = Ev(self, "stat", P("obj", vc_r[self]), NoPath, FN(obj[vc_r[self]] = "ok"))
+             /\ result' = [result EXCEPT ![self] = "ioerror"]
+             /\ pc' = [pc EXCEPT ![self] = "r12"]
+             /\ UNCHANGED << obj, pref, cref, doc, mark, keep, locked, waitq, 
+                             woken, rdata, stack, vtb_, vid_, vtb, vid, vp_, 
+                             vc_t, va_, vb_, vout, vmade, vrp, vrl_, vp_s, 
+                             vc_s, vx_, vc, vb_d, vx_d, vp_d, vc_, vcls, vrl_d, 
+                             va_d, vb_de, vx_de, vdels, vdocs, vf_, vp_de, 
+                             vtodo, vkeepl, vmarked, ve, vp_p, vf_p, vver, 
+                             vp_g, vf_g, vx_g, vp_del, vf, vx_del, vp_delm, vp, 
+                             vc_r, vrl, va, vb, vx >>
+
+r8(self) == /\ pc[self] = "r8"
+            /\ ev' = Ev(self, "stat", P("doc", vp[self] \o "/" \o DefaultNs), NoPath, FN(doc[vp[self]][DefaultNs] # None))
+            /\ pc' = [pc EXCEPT ![self] = "r9"]
+            /\ UNCHANGED << obj, pref, cref, doc, mark, keep, locked, waitq, 
+                            woken, result, rdata, stack, vtb_, vid_, vtb, vid, 
+                            vp_, vc_t, va_, vb_, vout, vmade, vrp, vrl_, vp_s, 
+                            vc_s, vx_, vc, vb_d, vx_d, vp_d, vc_, vcls, vrl_d, 
+                            va_d, vb_de, vx_de, vdels, vdocs, vf_, vp_de, 
+                            vtodo, vkeepl, vmarked, ve, vp_p, vf_p, vver, vp_g, 
+                            vf_g, vx_g, vp_del, vf, vx_del, vp_delm, vp, vc_r, 
+                            vrl, va, vb, vx >>
+
+r9(self) == /\ pc[self] = "r9"
+            /\ vx' = [vx EXCEPT ![self] = obj[vc_r[self]] = "ok"]
+            /\ ev' = Ev(self, "stat", P("obj", vc_r[self]), NoPath, FN(vx'[self]))
+            /\ IF ~vx'[self]
+                  THEN /\ pc' = [pc EXCEPT ![self] = "r9b"]
+                  ELSE /\ pc' = [pc EXCEPT ![self] = "r10"]
+            /\ UNCHANGED << obj, pref, cref, doc, mark, keep, locked, waitq, 
+                            woken, result, rdata, stack, vtb_, vid_, vtb, vid, 
+                            vp_, vc_t, va_, vb_, vout, vmade, vrp, vrl_, vp_s, 
+                            vc_s, vx_, vc, vb_d, vx_d, vp_d, vc_, vcls, vrl_d, 
+                            va_d, vb_de, vx_de, vdels, vdocs, vf_, vp_de, 
+                            vtodo, vkeepl, vmarked, ve, vp_p, vf_p, vver, vp_g, 
+                            vf_g, vx_g, vp_del, vf, vx_del, vp_delm, vp, vc_r, 
+                            vrl, va, vb >>
+
+r9b(self) == /\ pc[self] = "r9b"
+             /\ ev' = Ev(self, "stat", P("obj", vc_r[self]), NoPath, FN(obj[vc_r[self]] = "ok"))
+             /\ result' = [result EXCEPT ![self] = "ioerror"]
+             /\ pc' = [pc EXCEPT ![self] = "r12"]
+             /\ UNCHANGED << obj, pref, cref, doc, mark, keep, locked, waitq, 
+                             woken, rdata, stack, vtb_, vid_, vtb, vid, vp_, 
+                             vc_t, va_, vb_, vout, vmade, vrp, vrl_, vp_s, 
+                             vc_s, vx_, vc, vb_d, vx_d, vp_d, vc_, vcls, vrl_d, 
+                             va_d, vb_de, vx_de, vdels, vdocs, vf_, vp_de, 
+                             vtodo, vkeepl, vmarked, ve, vp_p, vf_p, vver, 
+                             vp_g, vf_g, vx_g, vp_del, vf, vx_del, vp_delm, vp, 
+                             vc_r, vrl, va, vb, vx >>
+
+r10(self) == /\ pc[self] = "r10"
+             /\ IF obj[vc_r[self]] # "ok"
+                   THEN /\ ev' = Ev(self, "read", P("obj", vc_r[self]), NoPath, "!fnf")
+                        /\ result' = [result EXCEPT ![self] = "ioerror"]
+                        /\ rdata' = rdata
+                   ELSE /\ ev' = EvV(self, "read", P("obj", vc_r[self]), NoPath, "ok", <<vc_r[self]>>)
+                        /\ result' = [result EXCEPT ![self] = "ok"]
+                        /\ rdata' = [rdata EXCEPT ![self] = vc_r[self]]
+             /\ pc' = [pc EXCEPT ![self] = "r12"]
+             /\ UNCHANGED << obj, pref, cref, doc, mark, keep, locked, waitq, 
+                             woken, stack, vtb_, vid_, vtb, vid, vp_, vc_t, 
+                             va_, vb_, vout, vmade, vrp, vrl_, vp_s, vc_s, vx_, 
+                             vc, vb_d, vx_d, vp_d, vc_, vcls, vrl_d, va_d, 
+                             vb_de, vx_de, vdels, vdocs, vf_, vp_de, vtodo, 
+                             vkeepl, vmarked, ve, vp_p, vf_p, vver, vp_g, vf_g, 
+                             vx_g, vp_del, vf, vx_del, vp_delm, vp, vc_r, vrl, 
+                             va, vb, vx >>
+
+r12(self) == /\ pc[self] = "r12"
+             /\ pc' = [pc EXCEPT ![self] = Head(stack[self]).pc]
+             /\ vc_r' = [vc_r EXCEPT ![self] = Head(stack[self]).vc_r]
+             /\ vrl' = [vrl EXCEPT ![self] = Head(stack[self]).vrl]
+             /\ va' = [va EXCEPT ![self] = Head(stack[self]).va]
+             /\ vb' = [vb EXCEPT ![self] = Head(stack[self]).vb]
+             /\ vx' = [vx EXCEPT ![self] = Head(stack[self]).vx]
+             /\ vp' = [vp EXCEPT ![self] = Head(stack[self]).vp]
+             /\ stack' = [stack EXCEPT ![self] = Tail(stack[self])]
+             /\ UNCHANGED << obj, pref, cref, doc, mark, keep, locked, waitq, 
+                             woken, ev, result, rdata, vtb_, vid_, vtb, vid, 
+                             vp_, vc_t, va_, vb_, vout, vmade, vrp, vrl_, vp_s, 
+                             vc_s, vx_, vc, vb_d, vx_d, vp_d, vc_, vcls, vrl_d, 
+                             va_d, vb_de, vx_de, vdels, vdocs, vf_, vp_de, 
+                             vtodo, vkeepl, vmarked, ve, vp_p, vf_p, vver, 
+                             vp_g, vf_g, vx_g, vp_del, vf, vx_del, vp_delm >>
+
+retrieve(self) == r1(self) \/ r2(self) \/ r3(self) \/ r4(self) \/ r5(self)
+                     \/ r6(self) \/ r6b(self) \/ r7(self) \/ r7b(self)
+                     \/ r8(self) \/ r9(self) \/ r9b(self) \/ r10(self)
+                     \/ r12(self)
 
 run(self) == /\ pc[self] = "run"
              /\ IF Job[self].op = "store"
@@ -2777,9 +3179,10 @@ run(self) == /\ pc[self] = "run"
                         /\ pc' = [pc EXCEPT ![self] = "st1"]
                         /\ UNCHANGED << result, vp_, vc_t, va_, vb_, vout, 
                                         vmade, vrp, vrl_, vc, vb_d, vx_d, vp_d, 
-                                        vc_, vcls, vrl, va, vb, vx_de, vdels, 
-                                        vdocs, vf_, vp_p, vf_p, vver, vp_g, 
-                                        vf_g, vx_g, vp_del, vf, vx, vp >>
+                                        vc_, vcls, vrl_d, va_d, vb_de, vx_de, 
+                                        vdels, vdocs, vf_, vp_p, vf_p, vver, 
+                                        vp_g, vf_g, vx_g, vp_del, vf, vx_del, 
+                                        vp_delm, vp, vc_r, vrl, va, vb, vx >>
                    ELSE /\ IF Job[self].op = "storenp"
                               THEN /\ /\ stack' = [stack EXCEPT ![self] = << [ procedure |->  "store",
                                                                                pc        |->  "fin",
@@ -2794,10 +3197,12 @@ run(self) == /\ pc[self] = "run"
                                    /\ UNCHANGED << result, vp_, vc_t, va_, vb_, 
                                                    vout, vmade, vrp, vrl_, vc, 
                                                    vb_d, vx_d, vp_d, vc_, vcls, 
-                                                   vrl, va, vb, vx_de, vdels, 
-                                                   vdocs, vf_, vp_p, vf_p, 
-                                                   vver, vp_g, vf_g, vx_g, 
-                                                   vp_del, vf, vx, vp >>
+                                                   vrl_d, va_d, vb_de, vx_de, 
+                                                   vdels, vdocs, vf_, vp_p, 
+                                                   vf_p, vver, vp_g, vf_g, 
+                                                   vx_g, vp_del, vf, vx_del, 
+                                                   vp_delm, vp, vc_r, vrl, va, 
+                                                   vb, vx >>
                               ELSE /\ IF Job[self].op = "tag"
                                          THEN /\ /\ stack' = [stack EXCEPT ![self] = << [ procedure |->  "tag",
                                                                                           pc        |->  "fin",
@@ -2821,21 +3226,24 @@ run(self) == /\ pc[self] = "run"
                                               /\ pc' = [pc EXCEPT ![self] = "tg1"]
                                               /\ UNCHANGED << result, vc, vb_d, 
                                                               vx_d, vp_d, vc_, 
-                                                              vcls, vrl, va, 
-                                                              vb, vx_de, vdels, 
+                                                              vcls, vrl_d, 
+                                                              va_d, vb_de, 
+                                                              vx_de, vdels, 
                                                               vdocs, vf_, vp_p, 
                                                               vf_p, vver, vp_g, 
                                                               vf_g, vx_g, 
-                                                              vp_del, vf, vx, 
-                                                              vp >>
+                                                              vp_del, vf, 
+                                                              vx_del, vp_delm, 
+                                                              vp, vc_r, vrl, 
+                                                              va, vb, vx >>
                                          ELSE /\ IF Job[self].op = "delete"
                                                     THEN /\ /\ stack' = [stack EXCEPT ![self] = << [ procedure |->  "delete",
                                                                                                      pc        |->  "fin",
                                                                                                      vc_       |->  vc_[self],
                                                                                                      vcls      |->  vcls[self],
-                                                                                                     vrl       |->  vrl[self],
-                                                                                                     va        |->  va[self],
-                                                                                                     vb        |->  vb[self],
+                                                                                                     vrl_d     |->  vrl_d[self],
+                                                                                                     va_d      |->  va_d[self],
+                                                                                                     vb_de     |->  vb_de[self],
                                                                                                      vx_de     |->  vx_de[self],
                                                                                                      vdels     |->  vdels[self],
                                                                                                      vdocs     |->  vdocs[self],
@@ -2845,9 +3253,9 @@ run(self) == /\ pc[self] = "run"
                                                             /\ vp_d' = [vp_d EXCEPT ![self] = Job[self].pid]
                                                          /\ vc_' = [vc_ EXCEPT ![self] = None]
                                                          /\ vcls' = [vcls EXCEPT ![self] = "-"]
-                                                         /\ vrl' = [vrl EXCEPT ![self] = <<>>]
-                                                         /\ va' = [va EXCEPT ![self] = FALSE]
-                                                         /\ vb' = [vb EXCEPT ![self] = FALSE]
+                                                         /\ vrl_d' = [vrl_d EXCEPT ![self] = <<>>]
+                                                         /\ va_d' = [va_d EXCEPT ![self] = FALSE]
+                                                         /\ vb_de' = [vb_de EXCEPT ![self] = FALSE]
                                                          /\ vx_de' = [vx_de EXCEPT ![self] = FALSE]
                                                          /\ vdels' = [vdels EXCEPT ![self] = {}]
                                                          /\ vdocs' = [vdocs EXCEPT ![self] = {}]
@@ -2865,8 +3273,14 @@ run(self) == /\ pc[self] = "run"
                                                                          vx_g, 
                                                                          vp_del, 
                                                                          vf, 
-                                                                         vx, 
-                                                                         vp >>
+                                                                         vx_del, 
+                                                                         vp_delm, 
+                                                                         vp, 
+                                                                         vc_r, 
+                                                                         vrl, 
+                                                                         va, 
+                                                                         vb, 
+                                                                         vx >>
                                                     ELSE /\ IF Job[self].op = "dii"
                                                                THEN /\ IF Job[self].val = "good"
                                                                           THEN /\ result' = [result EXCEPT ![self] = "ok"]
@@ -2894,75 +3308,114 @@ run(self) == /\ pc[self] = "run"
                                                                                     vx_g, 
                                                                                     vp_del, 
                                                                                     vf, 
-                                                                                    vx, 
-                                                                                    vp >>
-                                                               ELSE /\ IF Job[self].op = "putmeta"
-                                                                          THEN /\ /\ stack' = [stack EXCEPT ![self] = << [ procedure |->  "putmeta",
+                                                                                    vx_del, 
+                                                                                    vp_delm, 
+                                                                                    vp, 
+                                                                                    vc_r, 
+                                                                                    vrl, 
+                                                                                    va, 
+                                                                                    vb, 
+                                                                                    vx >>
+                                                               ELSE /\ IF Job[self].op = "retrieve"
+                                                                          THEN /\ /\ stack' = [stack EXCEPT ![self] = << [ procedure |->  "retrieve",
                                                                                                                            pc        |->  "fin",
-                                                                                                                           vp_p      |->  vp_p[self],
-                                                                                                                           vf_p      |->  vf_p[self],
-                                                                                                                           vver      |->  vver[self] ] >>
+                                                                                                                           vc_r      |->  vc_r[self],
+                                                                                                                           vrl       |->  vrl[self],
+                                                                                                                           va        |->  va[self],
+                                                                                                                           vb        |->  vb[self],
+                                                                                                                           vx        |->  vx[self],
+                                                                                                                           vp        |->  vp[self] ] >>
                                                                                                                        \o stack[self]]
-                                                                                  /\ vf_p' = [vf_p EXCEPT ![self] = EffFmt(Job[self].fmt)]
-                                                                                  /\ vp_p' = [vp_p EXCEPT ![self] = Job[self].pid]
-                                                                                  /\ vver' = [vver EXCEPT ![self] = Job[self].ver]
-                                                                               /\ pc' = [pc EXCEPT ![self] = "pm1"]
-                                                                               /\ UNCHANGED << vp_g, 
+                                                                                  /\ vp' = [vp EXCEPT ![self] = Job[self].pid]
+                                                                               /\ vc_r' = [vc_r EXCEPT ![self] = None]
+                                                                               /\ vrl' = [vrl EXCEPT ![self] = <<>>]
+                                                                               /\ va' = [va EXCEPT ![self] = FALSE]
+                                                                               /\ vb' = [vb EXCEPT ![self] = FALSE]
+                                                                               /\ vx' = [vx EXCEPT ![self] = FALSE]
+                                                                               /\ pc' = [pc EXCEPT ![self] = "r1"]
+                                                                               /\ UNCHANGED << vp_p, 
+                                                                                               vf_p, 
+                                                                                               vver, 
+                                                                                               vp_g, 
                                                                                                vf_g, 
                                                                                                vx_g, 
                                                                                                vp_del, 
                                                                                                vf, 
-                                                                                               vx, 
-                                                                                               vp >>
-                                                                          ELSE /\ IF Job[self].op = "getmeta"
-                                                                                     THEN /\ /\ stack' = [stack EXCEPT ![self] = << [ procedure |->  "getmeta",
+                                                                                               vx_del, 
+                                                                                               vp_delm >>
+                                                                          ELSE /\ IF Job[self].op = "putmeta"
+                                                                                     THEN /\ /\ stack' = [stack EXCEPT ![self] = << [ procedure |->  "putmeta",
                                                                                                                                       pc        |->  "fin",
-                                                                                                                                      vx_g      |->  vx_g[self],
-                                                                                                                                      vp_g      |->  vp_g[self],
-                                                                                                                                      vf_g      |->  vf_g[self] ] >>
+                                                                                                                                      vp_p      |->  vp_p[self],
+                                                                                                                                      vf_p      |->  vf_p[self],
+                                                                                                                                      vver      |->  vver[self] ] >>
                                                                                                                                   \o stack[self]]
-                                                                                             /\ vf_g' = [vf_g EXCEPT ![self] = EffFmt(Job[self].fmt)]
-                                                                                             /\ vp_g' = [vp_g EXCEPT ![self] = Job[self].pid]
-                                                                                          /\ vx_g' = [vx_g EXCEPT ![self] = FALSE]
-                                                                                          /\ pc' = [pc EXCEPT ![self] = "gm1"]
-                                                                                          /\ UNCHANGED << vp_del, 
-                                                                                                          vf, 
-                                                                                                          vx, 
-                                                                                                          vp >>
-                                                                                     ELSE /\ IF Job[self].op = "delmeta"
-                                                                                                THEN /\ IF Job[self].fmt = NoFmt
-                                                                                                           THEN /\ /\ stack' = [stack EXCEPT ![self] = << [ procedure |->  "delmeta_top",
-                                                                                                                                                            pc        |->  "fin",
-                                                                                                                                                            vp        |->  vp[self] ] >>
-                                                                                                                                                        \o stack[self]]
-                                                                                                                   /\ vp' = [vp EXCEPT ![self] = Job[self].pid]
-                                                                                                                /\ pc' = [pc EXCEPT ![self] = "dt1"]
-                                                                                                                /\ UNCHANGED << vp_del, 
-                                                                                                                                vf, 
-                                                                                                                                vx >>
-                                                                                                           ELSE /\ /\ stack' = [stack EXCEPT ![self] = << [ procedure |->  "delmeta_one",
-                                                                                                                                                            pc        |->  "fin",
-                                                                                                                                                            vx        |->  vx[self],
-                                                                                                                                                            vp_del    |->  vp_del[self],
-                                                                                                                                                            vf        |->  vf[self] ] >>
-                                                                                                                                                        \o stack[self]]
-                                                                                                                   /\ vf' = [vf EXCEPT ![self] = Job[self].fmt]
-                                                                                                                   /\ vp_del' = [vp_del EXCEPT ![self] = Job[self].pid]
-                                                                                                                /\ vx' = [vx EXCEPT ![self] = FALSE]
-                                                                                                                /\ pc' = [pc EXCEPT ![self] = "do1"]
-                                                                                                                /\ vp' = vp
-                                                                                                ELSE /\ pc' = [pc EXCEPT ![self] = "fin"]
-                                                                                                     /\ UNCHANGED << stack, 
-                                                                                                                     vp_del, 
-                                                                                                                     vf, 
-                                                                                                                     vx, 
-                                                                                                                     vp >>
+                                                                                             /\ vf_p' = [vf_p EXCEPT ![self] = EffFmt(Job[self].fmt)]
+                                                                                             /\ vp_p' = [vp_p EXCEPT ![self] = Job[self].pid]
+                                                                                             /\ vver' = [vver EXCEPT ![self] = Job[self].ver]
+                                                                                          /\ pc' = [pc EXCEPT ![self] = "pm1"]
                                                                                           /\ UNCHANGED << vp_g, 
                                                                                                           vf_g, 
-                                                                                                          vx_g >>
-                                                                               /\ UNCHANGED << vp_p, 
-                                                                                               vf_p, 
-                                                                                               vver >>
+                                                                                                          vx_g, 
+                                                                                                          vp_del, 
+                                                                                                          vf, 
+                                                                                                          vx_del, 
+                                                                                                          vp_delm >>
+                                                                                     ELSE /\ IF Job[self].op = "getmeta"
+                                                                                                THEN /\ /\ stack' = [stack EXCEPT ![self] = << [ procedure |->  "getmeta",
+                                                                                                                                                 pc        |->  "fin",
+                                                                                                                                                 vx_g      |->  vx_g[self],
+                                                                                                                                                 vp_g      |->  vp_g[self],
+                                                                                                                                                 vf_g      |->  vf_g[self] ] >>
+                                                                                                                                             \o stack[self]]
+                                                                                                        /\ vf_g' = [vf_g EXCEPT ![self] = EffFmt(Job[self].fmt)]
+                                                                                                        /\ vp_g' = [vp_g EXCEPT ![self] = Job[self].pid]
+                                                                                                     /\ vx_g' = [vx_g EXCEPT ![self] = FALSE]
+                                                                                                     /\ pc' = [pc EXCEPT ![self] = "gm1"]
+                                                                                                     /\ UNCHANGED << vp_del, 
+                                                                                                                     vf, 
+                                                                                                                     vx_del, 
+                                                                                                                     vp_delm >>
+                                                                                                ELSE /\ IF Job[self].op = "delmeta"
+                                                                                                           THEN /\ IF Job[self].fmt = NoFmt
+                                                                                                                      THEN /\ /\ stack' = [stack EXCEPT ![self] = << [ procedure |->  "delmeta_top",
+                                                                                                                                                                       pc        |->  "fin",
+                                                                                                                                                                       vp_delm   |->  vp_delm[self] ] >>
+                                                                                                                                                                   \o stack[self]]
+                                                                                                                              /\ vp_delm' = [vp_delm EXCEPT ![self] = Job[self].pid]
+                                                                                                                           /\ pc' = [pc EXCEPT ![self] = "dt1"]
+                                                                                                                           /\ UNCHANGED << vp_del, 
+                                                                                                                                           vf, 
+                                                                                                                                           vx_del >>
+                                                                                                                      ELSE /\ /\ stack' = [stack EXCEPT ![self] = << [ procedure |->  "delmeta_one",
+                                                                                                                                                                       pc        |->  "fin",
+                                                                                                                                                                       vx_del    |->  vx_del[self],
+                                                                                                                                                                       vp_del    |->  vp_del[self],
+                                                                                                                                                                       vf        |->  vf[self] ] >>
+                                                                                                                                                                   \o stack[self]]
+                                                                                                                              /\ vf' = [vf EXCEPT ![self] = Job[self].fmt]
+                                                                                                                              /\ vp_del' = [vp_del EXCEPT ![self] = Job[self].pid]
+                                                                                                                           /\ vx_del' = [vx_del EXCEPT ![self] = FALSE]
+                                                                                                                           /\ pc' = [pc EXCEPT ![self] = "do1"]
+                                                                                                                           /\ UNCHANGED vp_delm
+                                                                                                           ELSE /\ pc' = [pc EXCEPT ![self] = "fin"]
+                                                                                                                /\ UNCHANGED << stack, 
+                                                                                                                                vp_del, 
+                                                                                                                                vf, 
+                                                                                                                                vx_del, 
+                                                                                                                                vp_delm >>
+                                                                                                     /\ UNCHANGED << vp_g, 
+                                                                                                                     vf_g, 
+                                                                                                                     vx_g >>
+                                                                                          /\ UNCHANGED << vp_p, 
+                                                                                                          vf_p, 
+                                                                                                          vver >>
+                                                                               /\ UNCHANGED << vp, 
+                                                                                               vc_r, 
+                                                                                               vrl, 
+                                                                                               va, 
+                                                                                               vb, 
+                                                                                               vx >>
                                                                     /\ UNCHANGED << result, 
                                                                                     vc, 
                                                                                     vb_d, 
@@ -2970,9 +3423,9 @@ run(self) == /\ pc[self] = "run"
                                                          /\ UNCHANGED << vp_d, 
                                                                          vc_, 
                                                                          vcls, 
-                                                                         vrl, 
-                                                                         va, 
-                                                                         vb, 
+                                                                         vrl_d, 
+                                                                         va_d, 
+                                                                         vb_de, 
                                                                          vx_de, 
                                                                          vdels, 
                                                                          vdocs, 
@@ -2992,9 +3445,10 @@ fin(self) == /\ pc[self] = "fin"
                              woken, ev, result, rdata, stack, vtb_, vid_, vtb, 
                              vid, vp_, vc_t, va_, vb_, vout, vmade, vrp, vrl_, 
                              vp_s, vc_s, vx_, vc, vb_d, vx_d, vp_d, vc_, vcls, 
-                             vrl, va, vb, vx_de, vdels, vdocs, vf_, vp_de, 
-                             vtodo, vkeepl, vmarked, ve, vp_p, vf_p, vver, 
-                             vp_g, vf_g, vx_g, vp_del, vf, vx, vp >>
+                             vrl_d, va_d, vb_de, vx_de, vdels, vdocs, vf_, 
+                             vp_de, vtodo, vkeepl, vmarked, ve, vp_p, vf_p, 
+                             vver, vp_g, vf_g, vx_g, vp_del, vf, vx_del, 
+                             vp_delm, vp, vc_r, vrl, va, vb, vx >>
 
 proc(self) == run(self) \/ fin(self)
 
@@ -3006,7 +3460,8 @@ Next == (\E self \in ProcSet:  \/ claim(self) \/ release(self) \/ tag(self)
                                \/ store(self) \/ diibad(self)
                                \/ delete(self) \/ delmeta_all(self)
                                \/ putmeta(self) \/ getmeta(self)
-                               \/ delmeta_one(self) \/ delmeta_top(self))
+                               \/ delmeta_one(self) \/ delmeta_top(self)
+                               \/ retrieve(self))
            \/ (\E self \in Thread: proc(self))
            \/ Terminating
 
@@ -3016,6 +3471,7 @@ Spec == /\ Init /\ [][Next]_vars
                                 /\ WF_vars(tag(self))
                                 /\ WF_vars(delete(self))
                                 /\ WF_vars(diibad(self))
+                                /\ WF_vars(retrieve(self))
                                 /\ WF_vars(putmeta(self))
                                 /\ WF_vars(getmeta(self))
                                 /\ WF_vars(delmeta_top(self))
